@@ -104,54 +104,78 @@ Proof.
   - inversion H; subst. rewrite Z.eqb_refl. cbn. apply IH. reflexivity.
 Qed.
 
-Lemma frag_eqb_eq : forall a b, frag_eqb a b = true <-> a = b.
+
+Lemma same_key_iff : forall a b, same_key a b = true <-> frag_key a = frag_key b.
 Proof.
-  intros [r1 s1 st1 n1 fs1 d1 b1] [r2 s2 st2 n2 fs2 d2 b2]. unfold frag_eqb.
-  cbn [fr_rid fr_sn fr_start fr_nsub fr_fsize fr_dsize fr_data].
-  rewrite !andb_true_iff, !Z.eqb_eq, bytes_eqb_eq. split.
-  - intros [[[[[[? ?] ?] ?] ?] ?] ?]. congruence.
-  - intros H. inversion H. tauto.
+  intros a b. unfold same_key, frag_key. rewrite andb_true_iff, !Z.eqb_eq. split.
+  - intros [-> ->]. reflexivity.
+  - intros H. inversion H. auto.
 Qed.
 
-Lemma existsb_frag_eqb : forall fr buf, existsb (frag_eqb fr) buf = true <-> In fr buf.
+Lemma existsb_same_key : forall fr buf, existsb (same_key fr) buf = true <-> In (frag_key fr) (map frag_key buf).
 Proof.
-  intros fr buf. rewrite existsb_exists. split.
-  - intros [x [Hin Heq]]. apply frag_eqb_eq in Heq. subst. exact Hin.
-  - intros Hin. exists fr. split; [exact Hin|]. apply frag_eqb_eq. reflexivity.
+  intros fr buf. rewrite existsb_exists, in_map_iff. split.
+  - intros [x [Hin Hk]]. apply same_key_iff in Hk. exists x. auto.
+  - intros [x [Hk Hin]]. exists x. split; [exact Hin|]. apply same_key_iff. auto.
 Qed.
 
-Lemma push_frag_in : forall buf fr x, In x (push_frag buf fr) <-> In x buf \/ x = fr.
+Lemma push_frag_in : forall buf fr x, In x (push_frag buf fr) -> In x buf \/ x = fr.
 Proof.
-  intros buf fr x. unfold push_frag.
-  destruct (existsb (frag_eqb fr) buf) eqn:E.
-  - apply existsb_frag_eqb in E. split; [tauto|]. intros [H|H]; [exact H|subst; exact E].
-  - rewrite in_app_iff. cbn [In]. intuition.
+  intros buf fr x. unfold push_frag. destruct (existsb (same_key fr) buf); [tauto|].
+  rewrite in_app_iff. cbn [In]. intuition.
 Qed.
 
-Lemma push_frag_nodup : forall buf fr, NoDup buf -> NoDup (push_frag buf fr).
+Lemma push_frag_keeps : forall buf fr x, In x buf -> In x (push_frag buf fr).
 Proof.
-  intros buf fr H. unfold push_frag.
-  destruct (existsb (frag_eqb fr) buf) eqn:E; [exact H|].
-  assert (Hn : ~ In fr buf).
-  { intros Hin. apply existsb_frag_eqb in Hin. congruence. }
-  clear E. induction buf as [|a buf IH]; cbn [app].
+  intros buf fr x H. unfold push_frag. destruct (existsb (same_key fr) buf); [exact H|].
+  apply in_app_iff. left. exact H.
+Qed.
+
+(* after a push the pushed fragment's key is in the buffer *)
+Lemma push_frag_key : forall buf fr, In (frag_key fr) (map frag_key (push_frag buf fr)).
+Proof.
+  intros buf fr. unfold push_frag. destruct (existsb (same_key fr) buf) eqn:E.
+  - apply existsb_same_key. exact E.
+  - rewrite map_app, in_app_iff. right. left. reflexivity.
+Qed.
+
+Lemma push_frag_keys : forall buf fr, NoDup (map frag_key buf) -> NoDup (map frag_key (push_frag buf fr)).
+Proof.
+  intros buf fr H. unfold push_frag. destruct (existsb (same_key fr) buf) eqn:E; [exact H|].
+  assert (Hn : ~ In (frag_key fr) (map frag_key buf)).
+  { intros Hin. apply existsb_same_key in Hin. congruence. }
+  rewrite map_app. cbn [map]. clear E.
+  induction (map frag_key buf) as [|a l IH]; cbn [app].
   - constructor; [intros []|constructor].
   - inversion H; subst. constructor.
-    + rewrite in_app_iff. cbn [In]. intros [H1|[H1|[]]]; [tauto|]. subst. apply Hn. left. reflexivity.
+    + rewrite in_app_iff. cbn [In]. intros [H1|[H1|[]]]; [tauto|]. apply Hn. left. symmetry. exact H1.
     + apply IH; [assumption|]. intros Hin. apply Hn. right. exact Hin.
 Qed.
 
-Lemma fold_push_in : forall l buf x,
-  In x (fold_left push_frag l buf) <-> In x buf \/ In x l.
+Lemma fold_push_in : forall l buf x, In x (fold_left push_frag l buf) -> In x buf \/ In x l.
 Proof.
   induction l as [|a l IH]; intros buf x; cbn [fold_left In]; [tauto|].
-  rewrite IH, push_frag_in. intuition.
+  intros H. apply IH in H as [H|H]; [|tauto]. apply push_frag_in in H. intuition.
 Qed.
 
-Lemma fold_push_nodup : forall l buf, NoDup buf -> NoDup (fold_left push_frag l buf).
+Lemma fold_push_keeps : forall l buf x, In x buf -> In x (fold_left push_frag l buf).
+Proof.
+  induction l as [|a l IH]; intros buf x H; cbn [fold_left]; [exact H|].
+  apply IH. apply push_frag_keeps. exact H.
+Qed.
+
+Lemma fold_push_key : forall l buf x, In x l -> In (frag_key x) (map frag_key (fold_left push_frag l buf)).
+Proof.
+  induction l as [|a l IH]; intros buf x Hx; [destruct Hx|]. destruct Hx as [Hx|Hx]; cbn [fold_left].
+  - subst a. pose proof (push_frag_key buf x) as H. apply in_map_iff in H as (y & Hy & Hin).
+    apply in_map_iff. exists y. split; [exact Hy|]. apply fold_push_keeps. exact Hin.
+  - apply IH. exact Hx.
+Qed.
+
+Lemma fold_push_keys : forall l buf, NoDup (map frag_key buf) -> NoDup (map frag_key (fold_left push_frag l buf)).
 Proof.
   induction l as [|a l IH]; intros buf H; cbn [fold_left]; [exact H|].
-  apply IH. apply push_frag_nodup. exact H.
+  apply IH. apply push_frag_keys. exact H.
 Qed.
 
 (* ------------------------------------------------------------ genuine fragments *)
@@ -215,8 +239,6 @@ End Genuine.
 
 (* ------------------------------------------------------------ reconstruct on genuine buffers *)
 
-
-
 Lemma sum_nsub_acc : forall l a, fold_left (fun acc fr => acc + fr_nsub fr) l a =
                                  a + fold_left (fun acc fr => acc + fr_nsub fr) l 0.
 Proof.
@@ -270,74 +292,76 @@ Proof.
   apply (H 0%nat).
 Qed.
 
+
+Lemma keys_filter_starts : forall sn buf, NoDup (map frag_key buf) ->
+  NoDup (map fr_start (filter (has_sn sn) buf)).
+Proof.
+  intros sn buf. induction buf as [|x buf IH]; intros H; cbn [filter map]; [constructor|].
+  cbn [map] in H. inversion H as [|? ? Hn Hd]; subst.
+  destruct (has_sn sn x) eqn:E; [|apply IH; exact Hd].
+  cbn [map]. constructor; [|apply IH; exact Hd].
+  intros Hin. apply in_map_iff in Hin as (y & Hy & Hyin). apply filter_In in Hyin as [Hyin Hys].
+  apply Hn. apply in_map_iff. exists y. split; [|exact Hyin].
+  unfold has_sn in *. apply Z.eqb_eq in E, Hys. unfold frag_key. congruence.
+Qed.
+
 Section Reconstruct.
-  Variables (f rid : Z) (ch : list (Z * bytes)).
+  Variables (f : Z) (ch : list (Z * bytes)).
   Hypothesis Hf : frag_size_ok f.
   Hypothesis Hch : history_ok ch.
 
   Variable buf : list frag.
-  Hypothesis Hnd : NoDup buf.
-  Hypothesis Hgen : forall x, In x buf -> genuine f rid ch x.
+  Hypothesis Hkeys : NoDup (map frag_key buf).
+  Hypothesis Hgen : forall x, In x buf -> genuine f ch x.
 
   Lemma no_history_no_frag : forall sn, lookup sn ch = None -> find (has_sn sn) buf = None.
   Proof.
     intros sn Hl. destruct (find (has_sn sn) buf) as [x|] eqn:E; [|reflexivity].
     apply find_some in E as [Hin Hs]. unfold has_sn in Hs. apply Z.eqb_eq in Hs.
-    destruct (Hgen x Hin) as (p & i & Hlk & _). congruence.
+    destruct (Hgen x Hin) as (rid & p & i & Hlk & _). congruence.
   Qed.
 
   Variables (sn : Z) (p : bytes).
   Hypothesis Hlk : lookup sn ch = Some p.
   Let n := div_ceil (blen p) f.
   Let G := filter (has_sn sn) buf.
+  Local Notation completeS := (complete f buf sn p).
 
-  Lemma G_elem : forall x, In x G -> exists i, 0 <= i < n /\ x = gfrag f rid sn p i.
+  Lemma G_elem : forall x, In x G -> exists rid i, 0 <= i < n /\ x = gfrag f rid sn p i.
   Proof.
     intros x Hx. unfold G in Hx. apply filter_In in Hx as [Hin Hs].
     unfold has_sn in Hs. apply Z.eqb_eq in Hs.
-    destruct (Hgen x Hin) as (p' & i & Hl & Hi & Hx). rewrite Hs in *.
-    assert (p' = p) by congruence. subst p'. exists i. split; [exact Hi|exact Hx].
+    destruct (Hgen x Hin) as (rid & p' & i & Hl & Hi & Hx). rewrite Hs in *.
+    assert (p' = p) by congruence. subst p'. exists rid, i. split; [exact Hi|exact Hx].
   Qed.
 
-  Lemma buf_elem_start : forall x k, In x buf -> is_frag sn k x = true ->
-    1 <= k <= n /\ x = gfrag f rid sn p (k - 1).
+  (* a buffered fragment of sn numbered k is fragment k - 1 of p: same bytes whoever it was addressed to *)
+  Lemma buf_elem_start : forall x k, In x buf -> fr_sn x = sn -> fr_start x = k ->
+    1 <= k <= n /\ fr_nsub x = 1 /\ fr_fsize x = f /\ fr_dsize x = blen p /\
+    fr_data x = slice p ((k - 1) * f) (Z.min (((k - 1) + 1) * f) (blen p)).
   Proof.
-    intros x k Hin Hk. unfold is_frag in Hk. apply andb_true_iff in Hk as [H1 H2].
-    apply Z.eqb_eq in H1, H2.
+    intros x k Hin H1 H2.
     assert (HG : In x G). { unfold G. apply filter_In. split; [exact Hin|]. unfold has_sn. apply Z.eqb_eq. exact H1. }
-    destruct (G_elem x HG) as (i & Hi & Hx).
-    pose proof (gfrag_fields f rid sn p Hf (Hch _ _ Hlk) i Hi) as (_ & _ & Hst & _).
-    rewrite <- Hx in Hst. replace (k - 1) with i by lia. split; [lia|exact Hx].
+    destruct (G_elem x HG) as (rid & i & Hi & Hx).
+    pose proof (gfrag_fields f rid sn p Hf (Hch _ _ Hlk) i Hi) as (_ & _ & Hst & Hns & Hfs & Hds & Hd).
+    rewrite <- Hx in *. replace (k - 1) with i by lia. repeat split; try assumption; lia.
   Qed.
 
   Lemma G_starts_nodup : NoDup (map fr_start G).
-  Proof.
-    assert (HndG : NoDup G) by (unfold G; apply NoDup_filter; exact Hnd).
-    assert (Hel := G_elem). clearbody G.
-    induction G as [|x l IH]; cbn [map]; constructor.
-    - intros Hin. apply in_map_iff in Hin as (y & Hy & Hyl).
-      inversion HndG; subst.
-      destruct (Hel x (or_introl eq_refl)) as (i & Hi & Hx).
-      destruct (Hel y (or_intror Hyl)) as (j & Hj & Hy').
-      assert (i = j).
-      { apply (gfrag_inj f rid sn p Hf (Hch _ _ Hlk)); [exact Hi|exact Hj|]. rewrite <- Hx, <- Hy'. symmetry. exact Hy. }
-      subst j. apply H1. rewrite Hx, <- Hy'. exact Hyl.
-    - inversion HndG; subst. apply IH; [assumption|]. intros y Hy. apply Hel. right. exact Hy.
-  Qed.
+  Proof. unfold G. apply keys_filter_starts. exact Hkeys. Qed.
 
   Lemma G_starts_incl : incl (map fr_start G) (zrange 1 (Z.to_nat n)).
   Proof.
     intros k Hk. apply in_map_iff in Hk as (x & Hx & Hin).
-    destruct (G_elem x Hin) as (i & Hi & Hxi).
-    pose proof (gfrag_fields f rid sn p Hf (Hch _ _ Hlk) i Hi) as (_ & _ & Hst & _).
-    rewrite <- Hxi in Hst. apply zrange_in. lia.
+    unfold G in Hin. apply filter_In in Hin as [Hin Hs]. unfold has_sn in Hs. apply Z.eqb_eq in Hs.
+    destruct (buf_elem_start x k Hin Hs Hx) as [Hk _]. apply zrange_in. lia.
   Qed.
 
   Lemma G_total : sum_nsub G = Z.of_nat (length G).
   Proof.
-    apply sum_nsub_ones. intros x Hx. destruct (G_elem x Hx) as (i & Hi & Hxi).
-    pose proof (gfrag_fields f rid sn p Hf (Hch _ _ Hlk) i Hi) as (_ & _ & _ & Hns & _).
-    rewrite Hxi. exact Hns.
+    apply sum_nsub_ones. intros x Hx. unfold G in Hx. apply filter_In in Hx as [Hin Hs].
+    unfold has_sn in Hs. apply Z.eqb_eq in Hs.
+    destruct (buf_elem_start x (fr_start x) Hin Hs eq_refl) as (_ & H & _). exact H.
   Qed.
 
   Lemma G_length_le : Z.of_nat (length G) <= n.
@@ -347,7 +371,14 @@ Section Reconstruct.
     pose proof (n_bounds f p Hf (Hch _ _ Hlk)). fold n in H0. lia.
   Qed.
 
-  Local Notation completeS := (complete f rid buf sn p).
+  Lemma present_G : forall k, present buf sn k <-> In k (map fr_start G).
+  Proof.
+    intros k. unfold present. rewrite in_map_iff. split.
+    - intros (x & Hin & Hs & Hk). exists x. split; [exact Hk|]. unfold G. apply filter_In.
+      split; [exact Hin|]. unfold has_sn. apply Z.eqb_eq. exact Hs.
+    - intros (x & Hk & Hin). unfold G in Hin. apply filter_In in Hin as [Hin Hs].
+      unfold has_sn in Hs. apply Z.eqb_eq in Hs. exists x. auto.
+  Qed.
 
   Lemma complete_iff_length : completeS <-> Z.of_nat (length G) = n.
   Proof.
@@ -355,31 +386,24 @@ Section Reconstruct.
     split.
     - intros Hc.
       assert (Hincl : incl (zrange 1 (Z.to_nat n)) (map fr_start G)).
-      { intros k Hk. apply zrange_in in Hk. apply in_map_iff. exists (gfrag f rid sn p (k - 1)).
-        pose proof (gfrag_fields f rid sn p Hf (Hch _ _ Hlk) (k - 1) ltac:(fold n; lia)) as (_ & Hs & Hst & _).
-        split; [lia|]. unfold G. apply filter_In. split; [apply Hc; lia|].
-        unfold has_sn. rewrite Hs. apply Z.eqb_refl. }
+      { intros k Hk. apply zrange_in in Hk. apply present_G.
+        replace k with ((k - 1) + 1) by lia. apply Hc. fold n. lia. }
       pose proof (NoDup_incl_length (zrange_nodup (Z.to_nat n) 1) Hincl) as H.
       rewrite map_length, zrange_length in H. pose proof G_length_le. lia.
-    - intros Hlen i Hi.
+    - intros Hlen i Hi. fold n in Hi.
       assert (Hincl : incl (zrange 1 (Z.to_nat n)) (map fr_start G)).
       { apply NoDup_length_incl; [exact G_starts_nodup| |exact G_starts_incl].
         rewrite map_length, zrange_length. lia. }
-      assert (Hk : In (i + 1) (map fr_start G)) by (apply Hincl; apply zrange_in; lia).
-      apply in_map_iff in Hk as (x & Hst & Hin).
-      destruct (G_elem x Hin) as (j & Hj & Hxj).
-      pose proof (gfrag_fields f rid sn p Hf (Hch _ _ Hlk) j Hj) as (_ & _ & Hst' & _).
-      rewrite <- Hxj in Hst'. assert (j = i) by lia. subst j.
-      change (In (gfrag f rid sn p i) buf). rewrite <- Hxj. unfold G in Hin. apply filter_In in Hin. tauto.
+      apply present_G. apply Hincl. apply zrange_in. lia.
   Qed.
 
   Lemma find_first_sn : forall x, find (has_sn sn) buf = Some x ->
     total_fragments_expected x = Ok n /\ 1 <= n.
   Proof.
-    intros x E. apply find_some in E as [Hin Hs].
-    assert (HG : In x G) by (unfold G; apply filter_In; tauto).
-    destruct (G_elem x HG) as (i & Hi & Hxi). rewrite Hxi. split; [|lia].
-    apply (gfrag_expected f rid sn p Hf (Hch _ _ Hlk)). exact Hi.
+    intros x E. apply find_some in E as [Hin Hs]. unfold has_sn in Hs. apply Z.eqb_eq in Hs.
+    destruct (buf_elem_start x (fr_start x) Hin Hs eq_refl) as (Hk & _ & Hfs & Hds & _).
+    split; [|lia]. unfold total_fragments_expected. rewrite Hfs, Hds.
+    destruct (Z.eqb_spec f 0); [destruct Hf; lia|]. reflexivity.
   Qed.
 
   Lemma find_start_complete : forall k, completeS -> 1 <= k <= n ->
@@ -389,20 +413,19 @@ Section Reconstruct.
     intros k Hc Hk.
     destruct (find (is_frag sn k) buf) as [x|] eqn:E.
     - exists x. split; [reflexivity|]. apply find_some in E as [Hin Hp].
-      destruct (buf_elem_start x k Hin Hp) as [_ Hx].
-      pose proof (gfrag_fields f rid sn p Hf (Hch _ _ Hlk) (k - 1) ltac:(fold n; lia)) as (_ & _ & _ & _ & _ & _ & Hd).
-      rewrite Hx. exact Hd.
-    - exfalso. pose proof (find_none _ _ E (gfrag f rid sn p (k - 1)) (Hc (k - 1) ltac:(lia))) as Hnone.
-      pose proof (gfrag_fields f rid sn p Hf (Hch _ _ Hlk) (k - 1) ltac:(fold n; lia)) as (_ & Hs & Hst & _).
-      unfold is_frag in Hnone. rewrite Hs, Hst in Hnone.
-      rewrite Z.eqb_refl in Hnone. replace (k - 1 + 1 =? k) with true in Hnone by (symmetry; apply Z.eqb_eq; lia).
-      discriminate.
+      unfold is_frag in Hp. apply andb_true_iff in Hp as [H1 H2]. apply Z.eqb_eq in H1, H2.
+      apply (buf_elem_start x k Hin H1 H2).
+    - exfalso. destruct (Hc (k - 1) ltac:(fold n; lia)) as (y & Hy & Hs & Hst).
+      pose proof (find_none _ _ E y Hy) as Hnone. unfold is_frag in Hnone.
+      rewrite Hs, Hst, Z.eqb_refl in Hnone.
+      replace (k - 1 + 1 =? k) with true in Hnone by (symmetry; apply Z.eqb_eq; lia). discriminate.
   Qed.
 
   Lemma find_start_zero : find (is_frag sn 0) buf = None.
   Proof.
     destruct (find (is_frag sn 0) buf) as [x|] eqn:E; [|reflexivity].
-    apply find_some in E as [Hin Hp]. destruct (buf_elem_start x 0 Hin Hp). lia.
+    apply find_some in E as [Hin Hp]. unfold is_frag in Hp. apply andb_true_iff in Hp as [H1 H2].
+    apply Z.eqb_eq in H1, H2. destruct (buf_elem_start x 0 Hin H1 H2). lia.
   Qed.
 
   Lemma collect_complete : completeS -> collect buf sn (Z.to_nat (n + 1)) 0 = p.
@@ -455,6 +478,13 @@ Section Reconstruct.
     - right. intros H. apply E. apply complete_iff_length. exact H.
   Qed.
 
+  Lemma present_dec : forall k, present buf sn k \/ ~ present buf sn k.
+  Proof.
+    intros k. destruct (in_dec Z.eq_dec k (map fr_start G)) as [H|H].
+    - left. apply present_G. exact H.
+    - right. intros Hp. apply H. apply present_G. exact Hp.
+  Qed.
+
   (* never a wrong payload *)
   Lemma reconstruct_sound : forall d buf', reconstruct buf sn = Ok (Some d, buf') ->
     d = p /\ completeS /\ buf' = filter (fun fr => negb (has_sn sn fr)) buf.
@@ -470,65 +500,71 @@ End Reconstruct.
 
 (* ------------------------------------------------------------ proxy-level statements *)
 
+Lemma keys_filter : forall (q : frag -> bool) buf, NoDup (map frag_key buf) -> NoDup (map frag_key (filter q buf)).
+Proof.
+  intros q buf. induction buf as [|x buf IH]; intros H; cbn [filter map]; [constructor|].
+  cbn [map] in H. inversion H as [|? ? Hn Hd]; subst.
+  destruct (q x); [|apply IH; exact Hd]. cbn [map]. constructor; [|apply IH; exact Hd].
+  intros Hin. apply Hn. apply in_map_iff in Hin as (y & Hy & Hyin). apply filter_In in Hyin as [Hyin _].
+  apply in_map_iff. exists y. auto.
+Qed.
+
+Lemma reconstruct_filter_sn : forall sn b,
+  reconstruct b sn =
+  match reconstruct (filter (has_sn sn) b) sn with
+  | Ok (Some d, _) => Ok (Some d, filter (fun x => negb (has_sn sn x)) b)
+  | Ok (None, _) => Ok (None, b)
+  | Err e => Err e
+  | Panic s => Panic s
+  end.
+Proof.
+  intros sn b. unfold reconstruct.
+  assert (Hfind : forall q, (forall x, q x = true -> has_sn sn x = true) ->
+                   find q (filter (has_sn sn) b) = find q b).
+  { intros q Hq. clear - Hq. induction b as [|x b IH]; cbn [filter find]; [reflexivity|].
+    destruct (has_sn sn x) eqn:E; cbn [find].
+    - destruct (q x); [reflexivity|exact IH].
+    - destruct (q x) eqn:Eq; [apply Hq in Eq; congruence|exact IH]. }
+  rewrite (Hfind (has_sn sn)) by auto.
+  assert (Hff : filter (has_sn sn) (filter (has_sn sn) b) = filter (has_sn sn) b).
+  { clear. induction b as [|x b IH]; cbn [filter]; [reflexivity|].
+    destruct (has_sn sn x) eqn:E; cbn [filter]; [rewrite E, IH; reflexivity|exact IH]. }
+  rewrite Hff.
+  assert (Hcol : forall m from, collect (filter (has_sn sn) b) sn m from = collect b sn m from).
+  { intros m. induction m as [|m IH]; intros from; cbn [collect]; [reflexivity|].
+    rewrite IH. rewrite (Hfind (is_frag sn from)); [reflexivity|].
+    intros x Hx. unfold is_frag in Hx. apply andb_true_iff in Hx. unfold has_sn. tauto. }
+  rewrite (Hfind (is_frag sn 1)).
+  2:{ intros x Hx. unfold is_frag in Hx. apply andb_true_iff in Hx. unfold has_sn. tauto. }
+  destruct (find (has_sn sn) b) as [x0|]; [|reflexivity].
+  destruct (total_fragments_expected x0) as [e|e|e]; cbn [bind]; try reflexivity.
+  destruct (u32_max <? sum_nsub (filter (has_sn sn) b)); [reflexivity|].
+  destruct (sum_nsub (filter (has_sn sn) b) =? e); [|reflexivity].
+  rewrite Hcol. destruct (find (is_frag sn 1) b); reflexivity.
+Qed.
+
 Section ProxyLevel.
-  Variables (f rid sn : Z) (p : bytes) (l : list frag).
+  Variables (f sn : Z) (p : bytes) (l : list frag).
   Hypothesis Hf : frag_size_ok f.
   Hypothesis Hp : payload_ok p.
-  (* every element of l that speaks for sn is one of the fragments of p; anything else carries another sn *)
+  (* every element of l that speaks for sn is one of the fragments of p, addressed to whichever
+     reader; anything else carries another sn *)
   Hypothesis Hl : forall x, In x l -> fr_sn x = sn ->
-                    exists i, 0 <= i < div_ceil (blen p) f /\ x = mk_data_frag rid sn p f i.
+                    exists rid i, 0 <= i < div_ceil (blen p) f /\ x = mk_data_frag rid sn p f i.
 
   Let buf := fold_left push_frag l [].
-
-  (* reduce to the genuine-buffer lemmas by forgetting the other sequence numbers:
-     reconstruct only looks at fragments with fr_sn = sn *)
   Let bufS := filter (has_sn sn) buf.
-
-  Lemma reconstruct_filter_sn : forall b,
-    reconstruct b sn =
-    match reconstruct (filter (has_sn sn) b) sn with
-    | Ok (Some d, _) => Ok (Some d, filter (fun x => negb (has_sn sn x)) b)
-    | Ok (None, _) => Ok (None, b)
-    | Err e => Err e
-    | Panic s => Panic s
-    end.
-  Proof.
-    intros b. unfold reconstruct.
-    assert (Hfind : forall q, (forall x, q x = true -> has_sn sn x = true) ->
-                     find q (filter (has_sn sn) b) = find q b).
-    { intros q Hq. clear - Hq. induction b as [|x b IH]; cbn [filter find]; [reflexivity|].
-      destruct (has_sn sn x) eqn:E; cbn [find].
-      - destruct (q x); [reflexivity|exact IH].
-      - destruct (q x) eqn:Eq; [apply Hq in Eq; congruence|exact IH]. }
-    rewrite (Hfind (has_sn sn)) by auto.
-    assert (Hff : filter (has_sn sn) (filter (has_sn sn) b) = filter (has_sn sn) b).
-    { clear. induction b as [|x b IH]; cbn [filter]; [reflexivity|].
-      destruct (has_sn sn x) eqn:E; cbn [filter]; [rewrite E, IH; reflexivity|exact IH]. }
-    rewrite Hff.
-    assert (Hcol : forall m from, collect (filter (has_sn sn) b) sn m from = collect b sn m from).
-    { intros m. induction m as [|m IH]; intros from; cbn [collect]; [reflexivity|].
-      rewrite IH. rewrite (Hfind (is_frag sn from)); [reflexivity|].
-      intros x Hx. unfold is_frag in Hx. apply andb_true_iff in Hx. unfold has_sn. tauto. }
-    rewrite (Hfind (is_frag sn 1)).
-    2:{ intros x Hx. unfold is_frag in Hx. apply andb_true_iff in Hx. unfold has_sn. tauto. }
-    destruct (find (has_sn sn) b) as [x0|]; [|reflexivity].
-    destruct (total_fragments_expected x0) as [e|e|e]; cbn [bind]; try reflexivity.
-    destruct (u32_max <? sum_nsub (filter (has_sn sn) b)); [reflexivity|].
-    destruct (sum_nsub (filter (has_sn sn) b) =? e); [|reflexivity].
-    rewrite Hcol. destruct (find (is_frag sn 1) b); reflexivity.
-  Qed.
-
   Let ch : list (Z * bytes) := [(sn, p)].
 
-  Lemma bufS_nodup : NoDup bufS.
-  Proof. unfold bufS, buf. apply NoDup_filter. apply fold_push_nodup. constructor. Qed.
+  Lemma bufS_keys : NoDup (map frag_key bufS).
+  Proof. unfold bufS, buf. apply keys_filter. apply fold_push_keys. constructor. Qed.
 
-  Lemma bufS_genuine : forall x, In x bufS -> genuine f rid ch x.
+  Lemma bufS_genuine : forall x, In x bufS -> genuine f ch x.
   Proof.
     intros x Hx. unfold bufS in Hx. apply filter_In in Hx as [Hin Hs].
     unfold buf in Hin. apply fold_push_in in Hin as [[]|Hin].
     unfold has_sn in Hs. apply Z.eqb_eq in Hs.
-    destruct (Hl x Hin Hs) as (i & Hi & Hxi). exists p, i. rewrite Hs. unfold ch. cbn [lookup].
+    destruct (Hl x Hin Hs) as (rid & i & Hi & Hxi). exists rid, p, i. rewrite Hs. unfold ch. cbn [lookup].
     rewrite Z.eqb_refl. auto.
   Qed.
 
@@ -540,37 +576,41 @@ Section ProxyLevel.
   Lemma ch_lookup : lookup sn ch = Some p.
   Proof. unfold ch. cbn [lookup]. rewrite Z.eqb_refl. reflexivity. Qed.
 
-  Lemma complete_bufS_iff :
-    complete f rid bufS sn p <-> (forall i, 0 <= i < div_ceil (blen p) f -> In (mk_data_frag rid sn p f i) l).
+  Definition all_arrived : Prop :=
+    forall i, 0 <= i < div_ceil (blen p) f -> exists rid, In (mk_data_frag rid sn p f i) l.
+
+  Lemma complete_bufS_iff : complete f bufS sn p <-> all_arrived.
   Proof.
-    unfold complete, gfrag. split; intros H i Hi.
-    - specialize (H i Hi). unfold bufS in H. apply filter_In in H as [H _]. unfold buf in H.
-      apply fold_push_in in H as [[]|H]. exact H.
-    - unfold bufS. apply filter_In. split.
-      + unfold buf. apply fold_push_in. right. apply H. exact Hi.
-      + pose proof (gfrag_fields f rid sn p Hf Hp i Hi) as (_ & Hs & _). unfold gfrag in Hs.
-        unfold has_sn. rewrite Hs. apply Z.eqb_refl.
+    unfold complete, all_arrived, present. split; intros H i Hi.
+    - destruct (H i Hi) as (x & Hx & Hs & Hst). unfold bufS in Hx. apply filter_In in Hx as [Hx _].
+      unfold buf in Hx. apply fold_push_in in Hx as [[]|Hx].
+      destruct (Hl x Hx Hs) as (rid & j & Hj & Hxj).
+      pose proof (gfrag_fields f rid sn p Hf Hp j Hj) as (_ & _ & Hstj & _). unfold gfrag in Hstj.
+      rewrite <- Hxj in Hstj. assert (j = i) by lia. subst j. exists rid. rewrite <- Hxj. exact Hx.
+    - destruct (H i Hi) as (rid & Hin).
+      pose proof (fold_push_key l [] _ Hin) as Hk. fold buf in Hk.
+      apply in_map_iff in Hk as (y & Hy & Hyin). unfold frag_key in Hy. inversion Hy as [[Hy1 Hy2]].
+      pose proof (gfrag_fields f rid sn p Hf Hp i Hi) as (_ & Hs & Hst & _). unfold gfrag in *.
+      exists y. split; [|split; congruence]. unfold bufS. apply filter_In. split; [exact Hyin|].
+      unfold has_sn. apply Z.eqb_eq. congruence.
   Qed.
 
   (* any order, any duplication, any interleaving with other samples' fragments *)
   Lemma reassemble_any_order :
-    1 <= div_ceil (blen p) f ->
-    (forall i, 0 <= i < div_ceil (blen p) f -> In (mk_data_frag rid sn p f i) l) ->
+    1 <= div_ceil (blen p) f -> all_arrived ->
     reconstruct buf sn = Ok (Some p, filter (fun x => negb (has_sn sn x)) buf).
   Proof.
     intros Hn Hall. rewrite reconstruct_filter_sn. fold bufS.
-    rewrite (reconstruct_complete f rid ch Hf ch_ok bufS bufS_nodup bufS_genuine sn p ch_lookup).
+    rewrite (reconstruct_complete f ch Hf ch_ok bufS bufS_keys bufS_genuine sn p ch_lookup).
     - reflexivity.
     - apply complete_bufS_iff. exact Hall.
     - exact Hn.
   Qed.
 
-  Lemma reassemble_incomplete :
-    ~ (forall i, 0 <= i < div_ceil (blen p) f -> In (mk_data_frag rid sn p f i) l) ->
-    reconstruct buf sn = Ok (None, buf).
+  Lemma reassemble_incomplete : ~ all_arrived -> reconstruct buf sn = Ok (None, buf).
   Proof.
     intros Hall. rewrite reconstruct_filter_sn. fold bufS.
-    rewrite (reconstruct_incomplete f rid ch Hf ch_ok bufS bufS_nodup bufS_genuine sn p ch_lookup).
+    rewrite (reconstruct_incomplete f ch Hf ch_ok bufS bufS_keys bufS_genuine sn p ch_lookup).
     - reflexivity.
     - intros Hc. apply Hall. apply complete_bufS_iff. exact Hc.
   Qed.
@@ -581,19 +621,7 @@ Section ProxyLevel.
     intros d b' H. rewrite reconstruct_filter_sn in H. fold bufS in H.
     destruct (reconstruct bufS sn) as [[[d'|] b'']|e|e] eqn:E; try discriminate.
     inversion H; subst d'.
-    apply (reconstruct_sound f rid ch Hf ch_ok bufS bufS_nodup bufS_genuine sn p ch_lookup) in E. tauto.
-  Qed.
-
-  Lemma reassemble_no_panic : exists x, reconstruct buf sn = Ok x.
-  Proof.
-    destruct (complete_dec f rid ch Hf ch_ok bufS bufS_nodup bufS_genuine sn p ch_lookup) as [Hc|Hc].
-    - destruct (Z_le_gt_dec 1 (div_ceil (blen p) f)) as [Hn|Hn].
-      + eexists. apply reassemble_any_order; [exact Hn|]. apply complete_bufS_iff. exact Hc.
-      + eexists. rewrite reconstruct_filter_sn. fold bufS.
-        unfold reconstruct at 1.
-        destruct (find (has_sn sn) bufS) as [x0|] eqn:E0; [|reflexivity].
-        exfalso. destruct (find_first_sn f rid ch Hf ch_ok bufS bufS_genuine sn p ch_lookup x0 E0). lia.
-    - eexists. apply reassemble_incomplete. intros H. apply Hc. apply complete_bufS_iff. exact H.
+    apply (reconstruct_sound f ch Hf ch_ok bufS bufS_keys bufS_genuine sn p ch_lookup) in E. tauto.
   Qed.
 End ProxyLevel.
 
@@ -606,9 +634,9 @@ Proof.
   destruct (s =? sn); [reflexivity|exact IH].
 Qed.
 
-Lemma genuine_mono : forall f rid ch e x, genuine f rid ch x -> genuine f rid (ch ++ e) x.
+Lemma genuine_mono : forall f ch e x, genuine f ch x -> genuine f (ch ++ e) x.
 Proof.
-  intros f rid ch e x (p & i & Hl & Hi & Hx). exists p, i. rewrite lookup_app, Hl. auto.
+  intros f ch e x (rid & p & i & Hl & Hi & Hx). exists rid, p, i. rewrite lookup_app, Hl. auto.
 Qed.
 
 Lemma history_ok_app : forall ch sn p, history_ok ch -> payload_ok p -> history_ok (ch ++ [(sn, p)]).
@@ -640,9 +668,9 @@ Qed.
 Lemma r_on_data_inv : forall f ch r sn p, rinv f ch r -> lookup sn ch = Some p -> rinv f ch (r_on_data r sn p).
 Proof.
   intros f ch r sn p [H1 H2 H3 H4] Hl.
-  assert (Hbuf : forall s, NoDup (filter (fun fr => s <? fr_sn fr) (r_buf r)) /\
-                 forall x, In x (filter (fun fr => s <? fr_sn fr) (r_buf r)) -> genuine f 1 ch x).
-  { intros s. split; [apply NoDup_filter; exact H1|]. intros x Hx. apply filter_In in Hx. apply H2. tauto. }
+  assert (Hbuf : forall s, NoDup (map frag_key (filter (fun fr => s <? fr_sn fr) (r_buf r))) /\
+                 forall x, In x (filter (fun fr => s <? fr_sn fr) (r_buf r)) -> genuine f ch x).
+  { intros s. split; [apply keys_filter; exact H1|]. intros x Hx. apply filter_In in Hx. apply H2. tauto. }
   assert (Hnew : available_changes_max r + 1 <= sn ->
      Forall (fun c => lookup (fst c) ch = Some (snd c) /\ fst c <= Z.max (r_highest r) sn) (r_changes r ++ [(sn, p)]) /\
      StronglySorted Z.lt (map fst (r_changes r ++ [(sn, p)]))).
@@ -663,34 +691,71 @@ Proof.
     constructor; cbn [r_set received_change_set r_buf r_changes r_highest r_first]; assumption.
 Qed.
 
-Lemma r_on_frag_inv : forall f ch r fr, frag_size_ok f -> history_ok ch ->
-  rinv f ch r -> genuine f 1 ch fr ->
-  exists r', r_on_frag r fr = Ok r' /\ rinv f ch r'.
+Definition frag_accept (r : rstate) (fr : frag) : bool :=
+  if r_rel r then fr_sn fr =? available_changes_max r + 1
+  else available_changes_max r + 1 <=? fr_sn fr.
+Definition frag_buf1 (r : rstate) (fr : frag) : list frag :=
+  if frag_accept r fr then push_frag (r_buf r) fr else r_buf r.
+
+Lemma genuine_fsize : forall f ch fr, frag_size_ok f -> history_ok ch -> genuine f ch fr -> fr_fsize fr = f.
 Proof.
-  intros f ch r fr Hf Hch [H1 H2 H3 H4] Hg.
-  unfold r_on_frag.
-  set (buf1 := if (if r_rel r then fr_sn fr =? available_changes_max r + 1
-                   else available_changes_max r + 1 <=? fr_sn fr)
-               then push_frag (r_buf r) fr else r_buf r).
-  assert (Hnd : NoDup buf1).
-  { unfold buf1. destruct (if r_rel r then _ else _); [apply push_frag_nodup|]; exact H1. }
-  assert (Hgen : forall x, In x buf1 -> genuine f 1 ch x).
-  { unfold buf1. destruct (if r_rel r then _ else _); [|exact H2].
-    intros x Hx. apply push_frag_in in Hx as [Hx|Hx]; [apply H2; exact Hx|subst; exact Hg]. }
-  destruct Hg as (p & i & Hl & Hi & Hfr).
-  destruct (complete_dec f 1 ch Hf Hch buf1 Hnd Hgen (fr_sn fr) p Hl) as [Hc|Hc].
-  - assert (Hn : 1 <= div_ceil (blen p) f) by lia.
-    rewrite (reconstruct_complete f 1 ch Hf Hch buf1 Hnd Hgen (fr_sn fr) p Hl Hc Hn).
-    cbn [bind fst snd]. eexists. split; [reflexivity|].
-    apply r_on_data_inv; [|exact Hl].
-    constructor; cbn [r_set r_buf r_changes r_highest]; try assumption.
-    + apply NoDup_filter. exact Hnd.
-    + intros x Hx. apply filter_In in Hx. apply Hgen. tauto.
-  - rewrite (reconstruct_incomplete f 1 ch Hf Hch buf1 Hnd Hgen (fr_sn fr) p Hl Hc).
-    cbn [bind fst snd]. eexists. split; [reflexivity|].
-    constructor; cbn [r_set r_buf r_changes r_highest]; assumption.
+  intros f ch fr Hf Hch (rid & p & i & Hl & Hi & Hfr).
+  pose proof (gfrag_fields f rid (fr_sn fr) p Hf (Hch _ _ Hl) i Hi) as (_ & _ & _ & _ & H & _).
+  unfold gfrag in H. rewrite <- Hfr in H. exact H.
 Qed.
 
+Lemma r_on_frag_cases : forall f ch r fr q, frag_size_ok f -> history_ok ch ->
+  rinv f ch r -> genuine f ch fr -> lookup (fr_sn fr) ch = Some q ->
+  let buf1 := frag_buf1 r fr in
+    (forall x, In x buf1 -> In x (r_buf r) \/ x = fr) /\
+    (forall x, In x (r_buf r) -> In x buf1) /\
+    (frag_accept r fr = true -> In (frag_key fr) (map frag_key buf1)) /\
+    NoDup (map frag_key buf1) /\
+    (forall x, In x buf1 -> genuine f ch x) /\
+    ((complete f buf1 (fr_sn fr) q /\
+      r_on_frag r fr = Ok (r_on_data (r_set r (r_first r) (r_highest r)
+                                       (filter (fun x => negb (has_sn (fr_sn fr) x)) buf1) (r_changes r))
+                                     (fr_sn fr) q))
+     \/ (~ complete f buf1 (fr_sn fr) q /\
+         r_on_frag r fr = Ok (r_set r (r_first r) (r_highest r) buf1 (r_changes r)))).
+Proof.
+  intros f ch r fr q Hf Hch [H1 H2 H3 H4] Hg Hl buf1.
+  unfold r_on_frag. rewrite (genuine_fsize f ch fr Hf Hch Hg).
+  destruct (Z.eqb_spec f 0) as [E0|E0]; [destruct Hf; lia|].
+  fold (frag_accept r fr). fold (frag_buf1 r fr). fold buf1.
+  assert (Hsub : forall x, In x buf1 -> In x (r_buf r) \/ x = fr).
+  { unfold buf1, frag_buf1. destruct (frag_accept r fr); [|tauto]. intros x Hx. apply push_frag_in in Hx. exact Hx. }
+  assert (Hsup : forall x, In x (r_buf r) -> In x buf1).
+  { unfold buf1, frag_buf1. destruct (frag_accept r fr); [|tauto]. intros x Hx. apply push_frag_keeps. exact Hx. }
+  assert (Hkey : frag_accept r fr = true -> In (frag_key fr) (map frag_key buf1)).
+  { unfold buf1, frag_buf1. intros ->. apply push_frag_key. }
+  assert (Hnd : NoDup (map frag_key buf1)).
+  { unfold buf1, frag_buf1. destruct (frag_accept r fr); [apply push_frag_keys|]; exact H1. }
+  assert (Hgen : forall x, In x buf1 -> genuine f ch x).
+  { intros x Hx. destruct (Hsub x Hx) as [Hx'|Hx']; [apply H2; exact Hx'|subst; exact Hg]. }
+  split; [exact Hsub|]. split; [exact Hsup|]. split; [exact Hkey|]. split; [exact Hnd|]. split; [exact Hgen|].
+  destruct (complete_dec f ch Hf Hch buf1 Hnd Hgen (fr_sn fr) q Hl) as [Hc|Hc].
+  - left. split; [exact Hc|].
+    assert (Hn : 1 <= div_ceil (blen q) f).
+    { destruct Hg as (rid & p' & i & Hl' & Hi & _). assert (p' = q) by congruence. subst. lia. }
+    rewrite (reconstruct_complete f ch Hf Hch buf1 Hnd Hgen (fr_sn fr) q Hl Hc Hn). reflexivity.
+  - right. split; [exact Hc|].
+    rewrite (reconstruct_incomplete f ch Hf Hch buf1 Hnd Hgen (fr_sn fr) q Hl Hc). reflexivity.
+Qed.
+
+Lemma r_on_frag_inv : forall f ch r fr, frag_size_ok f -> history_ok ch ->
+  rinv f ch r -> genuine f ch fr ->
+  exists r', r_on_frag r fr = Ok r' /\ rinv f ch r'.
+Proof.
+  intros f ch r fr Hf Hch Hr Hg. pose proof Hg as (rid & q & i & Hl & _).
+  pose proof (r_on_frag_cases f ch r fr q Hf Hch Hr Hg Hl) as (_ & _ & _ & Hnd & Hgen & Hcase).
+  destruct Hr as [H1 H2 H3 H4].
+  destruct Hcase as [[_ E]|[_ E]]; rewrite E; eexists; (split; [reflexivity|]).
+  - apply r_on_data_inv; [|exact Hl]. constructor; cbn [r_set r_buf r_changes r_highest]; try assumption.
+    + apply keys_filter. exact Hnd.
+    + intros x Hx. apply filter_In in Hx. apply Hgen. tauto.
+  - constructor; cbn [r_set r_buf r_changes r_highest]; assumption.
+Qed.
 
 Lemma r_deliver_inv : forall f ch r w, frag_size_ok f -> history_ok ch ->
   rinv f ch r -> wire_genuine f ch w -> exists r', r_deliver r w = Ok r' /\ rinv f ch r'.
@@ -712,48 +777,41 @@ Qed.
 
 (* ------------------------------------------------------------ the whole system *)
 
-Definition reply_ok (x : option (acknack * option nackfrag)) : Prop :=
-  match x with
-  | Some (_, Some nf) => 0 <= n_base nf /\ Forall (fun k => 0 <= k) (n_set nf)
-  | _ => True
-  end.
-
 Record sinv (s : sys) : Prop := mksinv {
   si_f : frag_size_ok (w_f (s_w s));
   si_hist : history_ok (w_changes (s_w s));
-  si_r : rinv (w_f (s_w s)) (w_changes (s_w s)) (s_r s);
-  si_reply : reply_ok (s_reply s)
+  si_r : rinv (w_f (s_w s)) (w_changes (s_w s)) (s_r s)
 }.
 
 Lemma mk_data_frag_sn : forall rid sn p f i, fr_sn (mk_data_frag rid sn p f i) = sn.
 Proof. reflexivity. Qed.
 
-Lemma genuine_mk : forall f ch sn p k, lookup sn ch = Some p -> 0 <= k < div_ceil (blen p) f ->
-  genuine f 1 ch (mk_data_frag 1 sn p f k).
-Proof. intros f ch sn p k Hl Hk. exists p, k. rewrite mk_data_frag_sn. auto. Qed.
+Lemma genuine_mk : forall f ch rid sn p k, lookup sn ch = Some p -> 0 <= k < div_ceil (blen p) f ->
+  genuine f ch (mk_data_frag rid sn p f k).
+Proof. intros f ch rid sn p k Hl Hk. exists rid, p, k. rewrite mk_data_frag_sn. auto. Qed.
 
 Lemma w_on_nack_frag_spec : forall w count sn base set w' ws,
   w_on_nack_frag w count sn base set = Ok (w', ws) ->
-  w_f w' = w_f w /\ w_changes w' = w_changes w /\
-  (0 <= base -> Forall (fun k => 0 <= k) set -> Forall (wire_genuine (w_f w) (w_changes w)) ws).
+  w_f w' = w_f w /\ w_changes w' = w_changes w /\ w_rel w' = w_rel w /\ w_last_an w' = w_last_an w /\
+  Forall (wire_genuine (w_f w) (w_changes w)) ws.
 Proof.
   intros w count sn base set w' ws H. unfold w_on_nack_frag in H.
-  remember (base :: set) as L eqn:EL.
+  remember (nack_requests base set) as L eqn:EL.
   destruct (w_rel w && (w_last_nf w <? count)).
   2:{ inversion H; subst. repeat split; constructor. }
   destruct (lookup sn (w_changes w)) as [p|] eqn:El.
   - destruct (w_f w =? 0); [discriminate|]. injection H as Hw Hws. subst w' ws. repeat split.
-    intros Hb Hs. apply Forall_forall. intros x Hx. apply in_map_iff in Hx as (k & Hk & Hin).
-    apply filter_In in Hin as [Hin Hlt]. apply Z.ltb_lt in Hlt. subst x. cbn [wire_genuine].
-    apply genuine_mk; [exact El|]. split; [|exact Hlt].
-    subst L. destruct Hin as [<-|Hin]; [exact Hb|]. rewrite Forall_forall in Hs. apply Hs. exact Hin.
-  - inversion H; subst. repeat split. intros _ _. constructor; [exact I|constructor].
+    apply Forall_forall. intros x Hx. apply in_map_iff in Hx as (k & Hk & Hin).
+    apply filter_In in Hin as [Hin Hlt]. apply andb_true_iff in Hlt as [H1 H2].
+    apply Z.leb_le in H1, H2. subst x. cbn [wire_genuine].
+    apply genuine_mk; [exact El|lia].
+  - inversion H; subst. repeat split. constructor; [exact I|constructor].
 Qed.
 
-Lemma ack_resp_spec : forall w set ws, frag_size_ok (w_f w) -> ack_resp w set = Ok ws ->
+Lemma ack_resp_spec : forall w set ws, ack_resp w set = Ok ws ->
   Forall (wire_genuine (w_f w) (w_changes w)) ws.
 Proof.
-  intros w set. induction set as [|sn t IH]; intros ws Hf H; cbn [ack_resp] in H.
+  intros w set. induction set as [|sn t IH]; intros ws H; cbn [ack_resp] in H.
   - inversion H. constructor.
   - destruct (ack_resp w t) as [y|e|e] eqn:E.
     2,3: destruct (lookup sn (w_changes w)); [destruct (0 <? sn); [destruct (w_f w =? 0)|]|]; discriminate.
@@ -766,25 +824,26 @@ Proof.
           apply genuine_mk; [exact El|lia].
         + cbn [bind] in H. inversion H; subst. eexists. split; [reflexivity|exact I].
       - cbn [bind] in H. inversion H; subst. eexists. split; [reflexivity|exact I]. }
-    destruct Hx as (x & -> & Hx). constructor; [exact Hx|]. apply IH; [exact Hf|reflexivity].
+    destruct Hx as (x & -> & Hx). constructor; [exact Hx|]. apply IH; reflexivity.
 Qed.
 
-Lemma w_on_acknack_spec : forall w count base set w' ws, frag_size_ok (w_f w) ->
+Lemma w_on_acknack_spec : forall w count base set w' ws,
   w_on_acknack w count base set = Ok (w', ws) ->
-  w_f w' = w_f w /\ w_changes w' = w_changes w /\ Forall (wire_genuine (w_f w) (w_changes w)) ws.
+  w_f w' = w_f w /\ w_changes w' = w_changes w /\ w_rel w' = w_rel w /\ w_last_nf w' = w_last_nf w /\
+  Forall (wire_genuine (w_f w) (w_changes w)) ws.
 Proof.
-  intros w count base set w' ws Hf H. unfold w_on_acknack in H.
+  intros w count base set w' ws H. unfold w_on_acknack in H.
   destruct (w_rel w && (w_last_an w <? count)).
   2:{ inversion H; subst. repeat split; constructor. }
   destruct (ack_resp w set) as [y|e|e] eqn:E; try discriminate. cbn [bind] in H. inversion H; subst.
   repeat split. apply (ack_resp_spec w set); assumption.
 Qed.
 
-Lemma datagram_of_spec : forall w sn idx x, datagram_of w sn idx 1 = Some x ->
+Lemma datagram_of_spec : forall w sn idx which x, datagram_of w sn idx which = Some x ->
   wire_genuine (w_f w) (w_changes w) x.
 Proof.
-  intros w sn idx x H. unfold datagram_of in H.
-  destruct ((1 <=? 1) && (1 <=? w_nreaders w)); [|discriminate].
+  intros w sn idx which x H. unfold datagram_of in H.
+  destruct ((1 <=? which) && (which <=? w_nreaders w)); [|discriminate].
   destruct (lookup sn (w_changes w)) as [p|] eqn:El; [|discriminate].
   destruct (w_f w =? 0); [discriminate|].
   destruct (1 <? div_ceil (blen p) (w_f w)).
@@ -793,40 +852,18 @@ Proof.
   - destruct (idx =? 0); [|discriminate]. inversion H; subst. exact El.
 Qed.
 
-Lemma gen_nackfrag_reply_ok : forall r nf, gen_nackfrag r = Ok (Some nf) ->
-  0 <= n_base nf /\ Forall (fun k => 0 <= k) (n_set nf) /\ n_count nf = r_nfcount r.
-Proof.
-  intros r nf H. unfold gen_nackfrag in H.
-  destruct (find _ (missing256 r)) as [s|]; [|discriminate].
-  destruct (find (has_sn s) (r_buf r)) as [fr|]; [|discriminate].
-  destruct (fr_fsize fr =? 0); [discriminate|].
-  set (miss := filter _ _) in H.
-  assert (Hm : Forall (fun k => 1 <= k) miss).
-  { apply Forall_forall. intros k Hk. unfold miss in Hk. apply filter_In in Hk as [Hk _].
-    apply zrange_in in Hk. lia. }
-  destruct miss as [|b t] eqn:Em; [discriminate|].
-  destruct (existsb _ (b :: t)); [discriminate|]. inversion H; subst. cbn [n_base n_set n_count].
-  split; [inversion Hm; subst; lia|]. split; [|reflexivity].
-  eapply Forall_impl; [|exact Hm]. intros a Ha. cbn beta in Ha. lia.
-Qed.
-
 Lemma r_on_heartbeat_spec : forall r first last count final r' x,
   r_on_heartbeat r first last count final = Ok (r', x) ->
-  r_buf r' = r_buf r /\ r_changes r' = r_changes r /\ r_highest r' = r_highest r /\
-  r_nfcount r' = r_nfcount r /\ r_rel r' = r_rel r /\
-  (forall a nf, x = Some (a, Some nf) ->
-     0 <= n_base nf /\ Forall (fun k => 0 <= k) (n_set nf) /\ n_count nf = r_nfcount r).
+  r_buf r' = r_buf r /\ r_changes r' = r_changes r /\ r_highest r' = r_highest r /\ r_rel r' = r_rel r.
 Proof.
   intros r first last count final r' x H. unfold r_on_heartbeat in H.
   destruct (r_hbcount r <? count).
-  2:{ inversion H; subst. repeat split; intros; congruence. }
+  2:{ inversion H; subst. repeat split. }
   unfold r_write_message in H. cbn [r_must] in H.
   destruct (negb final || _).
-  2:{ inversion H; subst. repeat split; intros; congruence. }
+  2:{ inversion H; subst. repeat split. }
   match type of H with context [gen_nackfrag ?R] => destruct (gen_nackfrag R) as [nfo|e|e] eqn:E end; try discriminate.
-  cbn [bind] in H. inversion H; subst. cbn [r_buf r_changes r_highest r_nfcount r_rel].
-  split; [reflexivity|]. split; [reflexivity|]. split; [reflexivity|]. split; [reflexivity|]. split; [reflexivity|].
-  intros a0 nf Hx. inversion Hx; subst. apply gen_nackfrag_reply_ok in E. cbn [r_nfcount] in E. exact E.
+  cbn [bind] in H. inversion H; subst. cbn [r_buf r_changes r_highest r_rel]. repeat split.
 Qed.
 
 Lemma respond_inv : forall s x s' o,
@@ -835,7 +872,7 @@ Lemma respond_inv : forall s x s' o,
                                    Forall (wire_genuine (w_f (s_w s)) (w_changes (s_w s))) ws) ->
   respond s x = Ok (s', o) -> sinv s' /\ w_changes (s_w s') = w_changes (s_w s).
 Proof.
-  intros s x s' o [Hf Hh Hr Hp] Hx H. unfold respond in H.
+  intros s x s' o [Hf Hh Hr] Hx H. unfold respond in H.
   destruct x as [[w' ws]|e|e]; try discriminate. cbn [bind fst snd] in H.
   destruct (Hx w' ws eq_refl) as (E1 & E2 & Hg).
   destruct (r_deliver_all_inv _ _ ws (s_r s) Hf Hh Hr Hg) as (r1 & E & Hr1).
@@ -847,7 +884,7 @@ Lemma step_inv : forall s o s' b, sinv s -> op_ok o -> step s o = Ok (s', b) ->
   sinv s' /\ w_changes (s_w s') = w_changes (s_w s) ++
              (match o with OWrite p => [(next_sn (s_w s), p)] | _ => [] end).
 Proof.
-  intros s o s' b Hs Hop H. pose proof Hs as [Hf Hh Hr Hp].
+  intros s o s' b Hs Hop H. pose proof Hs as [Hf Hh Hr].
   destruct o as [p|sn idx which| fr |first last count final| |count sn base set| ]; cbn [step op_ok] in *.
   - (* write *)
     unfold w_write in H.
@@ -858,8 +895,8 @@ Proof.
     + apply history_ok_app; assumption.
     + apply rinv_mono. exact Hr.
   - (* deliver *)
-    subst which. rewrite app_nil_r.
-    destruct (datagram_of (s_w s) sn idx 1) as [w|] eqn:E.
+    rewrite app_nil_r.
+    destruct (datagram_of (s_w s) sn idx which) as [w|] eqn:E.
     + apply datagram_of_spec in E.
       destruct (r_deliver_inv _ _ (s_r s) w Hf Hh Hr E) as (r1 & E1 & Hr1). rewrite E1 in H.
       cbn [bind] in H. inversion H; subst. split; [|reflexivity]. constructor; assumption.
@@ -869,28 +906,24 @@ Proof.
     rewrite app_nil_r.
     destruct (r_on_heartbeat (s_r s) first last count final) as [[r' x]|e|e] eqn:E; try discriminate.
     cbn [bind fst snd] in H. inversion H; subst. cbn [s_w s_r s_reply].
-    destruct (r_on_heartbeat_spec _ _ _ _ _ _ _ E) as (E1 & E2 & E3 & _ & _ & Hnf).
+    destruct (r_on_heartbeat_spec _ _ _ _ _ _ _ E) as (E1 & E2 & E3 & _).
     split; [|reflexivity]. constructor; cbn [s_w s_r s_reply]; try assumption.
-    + destruct Hr as [R1 R2 R3 R4]. constructor; rewrite ?E1, ?E2, ?E3; assumption.
-    + destruct x as [[a [nf|]]|]; cbn [reply_ok]; try exact I; [|exact Hp].
-      destruct (Hnf a nf eq_refl) as (? & ? & _). auto.
+    destruct Hr as [R1 R2 R3 R4]. constructor; rewrite ?E1, ?E2, ?E3; assumption.
   - (* the reader's NACK_FRAG to the writer *)
     rewrite app_nil_r.
     destruct (s_reply s) as [[a [nf|]]|] eqn:Er.
     + eapply respond_inv; [exact Hs| |exact H]. intros w' ws Hx.
-      destruct (w_on_nack_frag_spec _ _ _ _ _ _ _ Hx) as (E1 & E2 & Hg). cbn [reply_ok] in Hp.
-      repeat split; try assumption. apply Hg; tauto.
+      destruct (w_on_nack_frag_spec _ _ _ _ _ _ _ Hx) as (E1 & E2 & _ & _ & Hg). auto.
     + eapply respond_inv; [exact Hs| |exact H]. intros w' ws Hx. inversion Hx; subst. repeat split; constructor.
     + eapply respond_inv; [exact Hs| |exact H]. intros w' ws Hx. inversion Hx; subst. repeat split; constructor.
   - (* forged NACK_FRAG *)
     rewrite app_nil_r. eapply respond_inv; [exact Hs| |exact H]. intros w' ws Hx.
-    destruct (w_on_nack_frag_spec _ _ _ _ _ _ _ Hx) as (E1 & E2 & Hg).
-    repeat split; try assumption. apply Hg; tauto.
+    destruct (w_on_nack_frag_spec _ _ _ _ _ _ _ Hx) as (E1 & E2 & _ & _ & Hg). auto.
   - (* ACKNACK *)
     rewrite app_nil_r.
     destruct (s_reply s) as [[a nfo]|] eqn:Er.
     + eapply respond_inv; [exact Hs| |exact H]. intros w' ws Hx.
-      apply w_on_acknack_spec in Hx; assumption.
+      apply w_on_acknack_spec in Hx. tauto.
     + eapply respond_inv; [exact Hs| |exact H]. intros w' ws Hx. inversion Hx; subst. repeat split; constructor.
 Qed.
 
@@ -932,7 +965,6 @@ Proof.
   intros rel nreaders f Hf. constructor; cbn; try assumption.
   - intros sn p H. discriminate.
   - constructor; cbn; try constructor. intros x [].
-  - exact I.
 Qed.
 
 (* C05, safety half, for ALL histories: whatever the order, duplication, loss, interleaving of
@@ -944,703 +976,11 @@ Theorem delivered_identical : forall rel nreaders f ops s obs,
   forall sn d, In (sn, d) (r_changes (s_r s)) -> nth_written (written ops) sn = Some d.
 Proof.
   intros rel nreaders f ops s obs Hf Hops H.
-  destruct (run_inv ops _ s obs (sinv_init rel nreaders f Hf) Hops H) as [[_ _ Hr _] Hc].
+  destruct (run_inv ops _ s obs (sinv_init rel nreaders f Hf) Hops H) as [[_ _ Hr] Hc].
   cbn in Hc. destruct Hr as [_ _ R3 R4]. split; [exact R4|].
   intros sn d Hin. rewrite Forall_forall in R3. destruct (R3 _ Hin) as [Hl _]. cbn [fst snd] in Hl.
   rewrite Hc, lookup_number_from in Hl. unfold nth_written. exact Hl.
 Qed.
-
-(* ------------------------------------------------------------ NACK_FRAG: the count is never incremented *)
-
-Lemma r_on_data_nfcount : forall r sn p, r_nfcount (r_on_data r sn p) = r_nfcount r /\ r_rel (r_on_data r sn p) = r_rel r.
-Proof.
-  intros r sn p. unfold r_on_data.
-  destruct (r_rel r) eqn:E.
-  - destruct (sn =? _); cbn [r_set received_change_set r_nfcount r_rel]; auto.
-  - destruct (_ <=? sn); cbn [r_set received_change_set r_nfcount r_rel]; auto.
-Qed.
-
-Lemma r_on_frag_nfcount : forall r fr r', r_on_frag r fr = Ok r' -> r_nfcount r' = r_nfcount r /\ r_rel r' = r_rel r.
-Proof.
-  intros r fr r' H. unfold r_on_frag in H.
-  destruct (reconstruct _ (fr_sn fr)) as [[[d|] b]|e|e]; cbn [bind fst snd] in H; try discriminate; inversion H; subst.
-  - destruct (r_on_data_nfcount (r_set r (r_first r) (r_highest r) b (r_changes r)) (fr_sn fr) d) as [A B].
-    rewrite A, B. cbn [r_set r_nfcount r_rel]. auto.
-  - cbn [r_set r_nfcount r_rel]. auto.
-Qed.
-
-Lemma r_deliver_all_nfcount : forall ws r r', r_deliver_all r ws = Ok r' ->
-  r_nfcount r' = r_nfcount r /\ r_rel r' = r_rel r.
-Proof.
-  induction ws as [|w ws IH]; intros r r' H; cbn [r_deliver_all] in H.
-  - inversion H; auto.
-  - destruct (r_deliver r w) as [r1|e|e] eqn:E; try discriminate. cbn [bind] in H.
-    destruct (IH r1 r' H) as [A B]. rewrite A, B.
-    destruct w as [rid sn p|fr|sn]; cbn [r_deliver] in E.
-    + inversion E; subst. apply r_on_data_nfcount.
-    + apply r_on_frag_nfcount in E. exact E.
-    + inversion E; subst. auto.
-Qed.
-
-Record ninv (s : sys) : Prop := mkninv {
-  ni_count : r_nfcount (s_r s) = 0;
-  ni_last : 0 <= w_last_nf (s_w s);
-  ni_reply : forall a nf, s_reply s = Some (a, Some nf) -> n_count nf = 0
-}.
-
-Lemma w_on_nack_frag_last : forall w count sn base set w' ws,
-  w_on_nack_frag w count sn base set = Ok (w', ws) -> 0 <= w_last_nf w ->
-  0 <= w_last_nf w' /\ (count <= w_last_nf w -> ws = [] /\ w' = w).
-Proof.
-  intros w count sn base set w' ws H Hl. unfold w_on_nack_frag in H.
-  destruct (Z.ltb_spec (w_last_nf w) count) as [E|E].
-  - destruct (w_rel w); cbn [andb] in H.
-    + destruct (lookup sn (w_changes w)); [destruct (w_f w =? 0); [discriminate|]|];
-        inversion H; subst; cbn [set_last_nf w_last_nf]; split; lia.
-    + inversion H; subst. split; [exact Hl|lia].
-  - rewrite andb_false_r in H. inversion H; subst. auto.
-Qed.
-
-Lemma w_on_acknack_last : forall w count base set w' ws,
-  w_on_acknack w count base set = Ok (w', ws) -> w_last_nf w' = w_last_nf w.
-Proof.
-  intros w count base set w' ws H. unfold w_on_acknack in H.
-  destruct (w_rel w && _); [|inversion H; reflexivity].
-  destruct (ack_resp w set); try discriminate. cbn [bind] in H. inversion H; reflexivity.
-Qed.
-
-Lemma respond_ninv : forall s x s' o, ninv s ->
-  (forall w' ws, x = Ok (w', ws) -> 0 <= w_last_nf w') ->
-  respond s x = Ok (s', o) ->
-  ninv s' /\ exists w' ws n, x = Ok (w', ws) /\ o = BResp ws n.
-Proof.
-  intros s x s' o [N1 N2 N3] Hx H. unfold respond in H.
-  destruct x as [[w' ws]|e|e]; try discriminate. cbn [bind fst snd] in H.
-  destruct (r_deliver_all (s_r s) ws) as [r1|e|e] eqn:E; try discriminate. cbn [bind] in H.
-  inversion H; subst. apply r_deliver_all_nfcount in E as [E _]. split.
-  - constructor; cbn [s_w s_r s_reply]; [lia|apply (Hx w' ws eq_refl)|exact N3].
-  - eauto.
-Qed.
-
-(* one step: the invariant holds, the reader's NACK_FRAG is answered with nothing, every NACK_FRAG
-   the reader emits carries count 0 *)
-Lemma step_ninv : forall s o s' b, ninv s -> step s o = Ok (s', b) ->
-  ninv s' /\ (o = ONackFrag -> exists n, b = BResp [] n /\ s_w s' = s_w s) /\
-  (forall a nf, b = BReply (Some (a, Some nf)) -> n_count nf = 0).
-Proof.
-  intros s o s' b Hn H. pose proof Hn as [N1 N2 N3].
-  destruct o as [p|sn idx which| fr |first last count final| |count sn base set| ]; cbn [step] in H.
-  - unfold w_write in H.
-    destruct (send_change 1 _ _ p) as [a|e|e]; try discriminate. cbn [bind] in H.
-    destruct (if 2 <=? _ then _ else _) as [c|e|e]; try discriminate. cbn [bind fst snd] in H.
-    inversion H; subst. split; [|split; [discriminate|discriminate]].
-    constructor; cbn [s_w s_r s_reply set_changes w_last_nf]; assumption.
-  - destruct (datagram_of (s_w s) sn idx which) as [w|].
-    + destruct (r_deliver (s_r s) w) as [r1|e|e] eqn:E; try discriminate. cbn [bind] in H. inversion H; subst.
-      split; [|split; [discriminate|discriminate]].
-      assert (E' : r_deliver_all (s_r s) [w] = Ok r1) by (cbn [r_deliver_all]; rewrite E; reflexivity).
-      apply r_deliver_all_nfcount in E' as [E' _].
-      constructor; cbn [s_w s_r s_reply]; [lia|assumption|assumption].
-    + inversion H; subst. split; [exact Hn|split; [discriminate|discriminate]].
-  - destruct (r_on_frag (s_r s) fr) as [r1|e|e] eqn:E; try discriminate. cbn [bind] in H. inversion H; subst.
-    apply r_on_frag_nfcount in E as [E _].
-    split; [|split; [discriminate|discriminate]].
-    constructor; cbn [s_w s_r s_reply]; [lia|assumption|assumption].
-  - destruct (r_on_heartbeat (s_r s) first last count final) as [[r' x]|e|e] eqn:E; try discriminate.
-    cbn [bind fst snd] in H. inversion H; subst.
-    destruct (r_on_heartbeat_spec _ _ _ _ _ _ _ E) as (_ & _ & _ & E4 & _ & Hnf).
-    split; [|split; [discriminate|]].
-    + constructor; cbn [s_w s_r s_reply]; [lia|assumption|].
-      intros a nf Hx. destruct x as [[a' [nf'|]]|]; try discriminate.
-      * inversion Hx; subst. destruct (Hnf a nf eq_refl) as (_ & _ & Hc). lia.
-      * apply (N3 a nf Hx).
-    + intros a nf Hb. inversion Hb; subst. destruct (Hnf a nf eq_refl) as (_ & _ & Hc). lia.
-  - destruct (s_reply s) as [[a [nf|]]|] eqn:Er.
-    + pose proof (N3 a nf eq_refl) as Hc.
-      destruct (w_on_nack_frag (s_w s) (n_count nf) (n_sn nf) (n_base nf) (n_set nf)) as [[w' ws]|e|e] eqn:E.
-      2,3: unfold respond in H; discriminate.
-      destruct (w_on_nack_frag_last _ _ _ _ _ _ _ E N2) as [Hl Hz]. destruct (Hz ltac:(lia)) as [-> ->].
-      destruct (respond_ninv s (Ok (s_w s, [])) s' b Hn ltac:(intros ? ? Hx; inversion Hx; subst; exact N2) H)
-        as (Hn' & w'' & ws'' & n & Hx & Hb). inversion Hx; subst.
-      split; [exact Hn'|split; [|discriminate]]. intros _. exists n. split; [reflexivity|].
-      unfold respond in H. cbn [bind fst snd r_deliver_all] in H. inversion H; reflexivity.
-    + destruct (respond_ninv s (Ok (s_w s, [])) s' b Hn ltac:(intros ? ? Hx; inversion Hx; subst; exact N2) H)
-        as (Hn' & w'' & ws'' & n & Hx & Hb). inversion Hx; subst.
-      split; [exact Hn'|split; [|discriminate]]. intros _. exists n. split; [reflexivity|].
-      unfold respond in H. cbn [bind fst snd r_deliver_all] in H. inversion H; reflexivity.
-    + destruct (respond_ninv s (Ok (s_w s, [])) s' b Hn ltac:(intros ? ? Hx; inversion Hx; subst; exact N2) H)
-        as (Hn' & w'' & ws'' & n & Hx & Hb). inversion Hx; subst.
-      split; [exact Hn'|split; [|discriminate]]. intros _. exists n. split; [reflexivity|].
-      unfold respond in H. cbn [bind fst snd r_deliver_all] in H. inversion H; reflexivity.
-  - destruct (respond_ninv s (w_on_nack_frag (s_w s) count sn base set) s' b Hn
-               ltac:(intros ? ? Hx; apply w_on_nack_frag_last in Hx; [tauto|exact N2]) H)
-      as (Hn' & w'' & ws'' & n & Hx & Hb). subst b.
-    split; [exact Hn'|split; discriminate].
-  - destruct (s_reply s) as [[a nfo]|] eqn:Er.
-    + destruct (respond_ninv s (w_on_acknack (s_w s) (a_count a) (a_base a) (a_set a)) s' b Hn
-                 ltac:(intros ? ? Hx; apply w_on_acknack_last in Hx; rewrite Hx; exact N2) H)
-        as (Hn' & w'' & ws'' & n & Hx & Hb). subst b.
-      split; [exact Hn'|split; discriminate].
-    + destruct (respond_ninv s (Ok (s_w s, [])) s' b Hn ltac:(intros ? ? Hx; inversion Hx; subst; exact N2) H)
-        as (Hn' & w'' & ws'' & n & Hx & Hb). subst b.
-      split; [exact Hn'|split; discriminate].
-Qed.
-
-Lemma ninv_init : forall rel nreaders f, ninv (s_init rel nreaders f).
-Proof. intros. constructor; cbn; [reflexivity|lia|intros; discriminate]. Qed.
-
-Lemma run_ninv : forall ops s s' obs, ninv s -> run s ops = Ok (s', obs) ->
-  ninv s' /\
-  Forall2 (fun o b => (o = ONackFrag -> exists n, b = BResp [] n) /\
-                      (forall a nf, b = BReply (Some (a, Some nf)) -> n_count nf = 0)) ops obs.
-Proof.
-  induction ops as [|o ops IH]; intros s s' obs Hn H; cbn [run] in H.
-  - inversion H; subst. split; [exact Hn|constructor].
-  - destruct (step s o) as [[s1 b]|e|e] eqn:E; try discriminate. cbn [bind fst snd] in H.
-    destruct (run s1 ops) as [[s2 obs2]|e|e] eqn:E2; try discriminate. cbn [bind fst snd] in H.
-    inversion H; subst.
-    destruct (step_ninv s o s1 b Hn E) as (Hn1 & Ha & Hb).
-    destruct (IH s1 s' obs2 Hn1 E2) as [Hn2 Hall]. split; [exact Hn2|].
-    constructor; [|exact Hall]. split; [|exact Hb].
-    intros Ho. destruct (Ha Ho) as (n & Hn' & _). eauto.
-Qed.
-
-(* D8a on the model, for ALL histories: every NACK_FRAG the reader ever emits carries count 0, and the
-   writer answers every one of them with nothing (its filter is `count > last`, last starts at 0) *)
-Theorem nackfrag_always_filtered : forall rel nreaders f ops s obs,
-  run (s_init rel nreaders f) ops = Ok (s, obs) ->
-  r_nfcount (s_r s) = 0 /\
-  Forall2 (fun o b => (o = ONackFrag -> exists n, b = BResp [] n) /\
-                      (forall a nf, b = BReply (Some (a, Some nf)) -> n_count nf = 0)) ops obs.
-Proof.
-  intros rel nreaders f ops s obs H.
-  destruct (run_ninv ops _ s obs (ninv_init rel nreaders f) H) as [[N1 _ _] Hall]. auto.
-Qed.
-
-(* ------------------------------------------------------------ a lost fragment is never repaired *)
-
-Definition frag_buf1 (r : rstate) (fr : frag) : list frag :=
-  if (if r_rel r then fr_sn fr =? available_changes_max r + 1
-      else available_changes_max r + 1 <=? fr_sn fr)
-  then push_frag (r_buf r) fr else r_buf r.
-
-Lemma r_on_frag_cases : forall f ch r fr q, frag_size_ok f -> history_ok ch ->
-  rinv f ch r -> genuine f 1 ch fr -> lookup (fr_sn fr) ch = Some q ->
-  let buf1 := frag_buf1 r fr in
-    (forall x, In x buf1 -> In x (r_buf r) \/ x = fr) /\ NoDup buf1 /\
-    (forall x, In x buf1 -> genuine f 1 ch x) /\
-    ((complete f 1 buf1 (fr_sn fr) q /\
-      r_on_frag r fr = Ok (r_on_data (r_set r (r_first r) (r_highest r)
-                                       (filter (fun x => negb (has_sn (fr_sn fr) x)) buf1) (r_changes r))
-                                     (fr_sn fr) q))
-     \/ (~ complete f 1 buf1 (fr_sn fr) q /\
-         r_on_frag r fr = Ok (r_set r (r_first r) (r_highest r) buf1 (r_changes r)))).
-Proof.
-  intros f ch r fr q Hf Hch [H1 H2 H3 H4] Hg Hl buf1.
-  unfold r_on_frag. fold (frag_buf1 r fr). fold buf1.
-  assert (Hsub : forall x, In x buf1 -> In x (r_buf r) \/ x = fr).
-  { unfold buf1, frag_buf1. destruct (if r_rel r then _ else _); [|tauto]. intros x Hx. apply push_frag_in in Hx. exact Hx. }
-  assert (Hnd : NoDup buf1).
-  { unfold buf1, frag_buf1. destruct (if r_rel r then _ else _); [apply push_frag_nodup|]; exact H1. }
-  assert (Hgen : forall x, In x buf1 -> genuine f 1 ch x).
-  { intros x Hx. destruct (Hsub x Hx) as [Hx'|Hx']; [apply H2; exact Hx'|subst; exact Hg]. }
-  split; [exact Hsub|]. split; [exact Hnd|]. split; [exact Hgen|].
-  destruct (complete_dec f 1 ch Hf Hch buf1 Hnd Hgen (fr_sn fr) q Hl) as [Hc|Hc].
-  - left. split; [exact Hc|].
-    assert (Hn : 1 <= div_ceil (blen q) f).
-    { destruct Hg as (p' & i & Hl' & Hi & _). assert (p' = q) by congruence. subst. lia. }
-    rewrite (reconstruct_complete f 1 ch Hf Hch buf1 Hnd Hgen (fr_sn fr) q Hl Hc Hn). reflexivity.
-  - right. split; [exact Hc|].
-    rewrite (reconstruct_incomplete f 1 ch Hf Hch buf1 Hnd Hgen (fr_sn fr) q Hl Hc). reflexivity.
-Qed.
-
-Section Lost.
-  Variables (f sn j : Z) (p : bytes).
-  Hypothesis Hf : frag_size_ok f.
-  Hypothesis Hj : 1 <= j < div_ceil (blen p) f.
-
-  Definition nolost (r : rstate) : Prop :=
-    (forall x, In x (r_buf r) -> ~ (fr_sn x = sn /\ fr_start x = j + 1)) /\
-    ~ In sn (map fst (r_changes r)).
-
-  Definition wire_safe (w : wire) : Prop :=
-    match w with
-    | WFrag fr => ~ (fr_sn fr = sn /\ fr_start fr = j + 1)
-    | WData _ sn' _ => sn' <> sn
-    | WGap _ => True
-    end.
-
-  Lemma r_on_data_nolost : forall r sn' q, sn' <> sn -> nolost r -> nolost (r_on_data r sn' q).
-  Proof.
-    intros r sn' q Hne [N1 N2]. unfold r_on_data.
-    assert (Hb : forall s x, In x (filter (fun fr => s <? fr_sn fr) (r_buf r)) ->
-                   ~ (fr_sn x = sn /\ fr_start x = j + 1)).
-    { intros s x Hx. apply filter_In in Hx. apply N1. tauto. }
-    assert (Hc : ~ In sn (map fst (r_changes r ++ [(sn', q)]))).
-    { rewrite map_app, in_app_iff. cbn [map fst In]. intros [H|[H|[]]]; [tauto|congruence]. }
-    destruct (r_rel r).
-    - destruct (sn' =? _); [|split; assumption].
-      split; cbn [r_set received_change_set r_buf r_changes]; [apply Hb|exact Hc].
-    - destruct (_ <=? sn'); [|split; assumption].
-      split; cbn [r_set received_change_set r_buf r_changes]; [apply Hb|exact Hc].
-  Qed.
-
-  Variable ch : list (Z * bytes).
-  Hypothesis Hch : history_ok ch.
-  Hypothesis Hlk : lookup sn ch = Some p.
-
-  Lemma r_deliver_nolost : forall r w r', rinv f ch r -> wire_genuine f ch w -> wire_safe w ->
-    nolost r -> r_deliver r w = Ok r' -> nolost r'.
-  Proof.
-    intros r w r' Hr Hg Hs Hn H. destruct w as [rid sn' q|fr|sn']; cbn [r_deliver wire_genuine wire_safe] in *.
-    - inversion H; subst. apply r_on_data_nolost; assumption.
-    - pose proof Hg as (q & i & Hl & Hi & Hfr).
-      pose proof (r_on_frag_cases f ch r fr q Hf Hch Hr Hg Hl) as (Hsub & Hnd & Hgen & Hcase).
-      set (buf1 := frag_buf1 r fr) in *.
-      assert (Hb1 : forall x, In x buf1 -> ~ (fr_sn x = sn /\ fr_start x = j + 1)).
-      { intros x Hx. destruct (Hsub x Hx) as [Hx'|Hx']; [apply Hn; exact Hx'|subst; exact Hs]. }
-      destruct Hcase as [[Hc E]|[Hc E]]; rewrite E in H; inversion H; subst.
-      + (* complete: then this cannot be sample sn, whose fragment j+1 is not there *)
-        assert (Hne : fr_sn fr <> sn).
-        { intros Heq. rewrite Heq in *. assert (q = p) by congruence. subst q.
-          specialize (Hc j ltac:(lia)). apply Hb1 in Hc. apply Hc.
-          pose proof (gfrag_fields f 1 sn p Hf (Hch _ _ Hlk) j ltac:(lia)) as (_ & A & B & _). auto. }
-        apply r_on_data_nolost; [exact Hne|].
-        split; cbn [r_set r_buf r_changes]; [|apply Hn].
-        intros x Hx. apply filter_In in Hx. apply Hb1. tauto.
-      + split; cbn [r_set r_buf r_changes]; [exact Hb1|apply Hn].
-    - inversion H; subst. exact Hn.
-  Qed.
-
-  Lemma r_deliver_all_nolost : forall ws r r', rinv f ch r ->
-    Forall (wire_genuine f ch) ws -> Forall wire_safe ws ->
-    nolost r -> r_deliver_all r ws = Ok r' -> nolost r'.
-  Proof.
-    induction ws as [|w ws IH]; intros r r' Hr Hg Hs Hn H; cbn [r_deliver_all] in H.
-    - inversion H; subst. exact Hn.
-    - inversion Hg as [|? ? Hg1 Hg2]; subst. inversion Hs as [|? ? Hs1 Hs2]; subst.
-      destruct (r_deliver r w) as [r1|e|e] eqn:E; try discriminate. cbn [bind] in H.
-      destruct (r_deliver_inv f ch r w Hf Hch Hr Hg1) as (r1' & E' & Hr1). rewrite E in E'. inversion E'; subst r1'.
-      apply (IH r1 r' Hr1 Hg2 Hs2); [|exact H].
-      apply (r_deliver_nolost r w r1); assumption.
-  Qed.
-
-  (* which submessages of the writer are safe *)
-  Lemma mk_frag_safe : forall sn' q idx, lookup sn' ch = Some q -> 0 <= idx < div_ceil (blen q) f ->
-    ~ (sn' = sn /\ idx = j) -> wire_safe (WFrag (mk_data_frag 1 sn' q f idx)).
-  Proof.
-    intros sn' q idx Hl Hi Hne. cbn [wire_safe]. intros [A B]. rewrite mk_data_frag_sn in A. subst sn'.
-    pose proof (gfrag_fields f 1 sn q Hf (Hch _ _ Hl) idx Hi) as (_ & _ & C & _). unfold gfrag in C.
-    apply Hne. split; [reflexivity|lia].
-  Qed.
-
-  Lemma data_safe : forall rid sn' q, lookup sn' ch = Some q -> ~ (1 < div_ceil (blen q) f) -> wire_safe (WData rid sn' q).
-  Proof.
-    intros rid sn' q Hl Hn. cbn [wire_safe]. intros ->. assert (q = p) by congruence. subst. lia.
-  Qed.
-End Lost.
-
-
-Lemma respond_inv2 : forall s x s' o, respond s x = Ok (s', o) ->
-  exists w' ws, x = Ok (w', ws) /\ r_deliver_all (s_r s) ws = Ok (s_r s') /\ s_w s' = w'.
-Proof.
-  intros s x s' o H. unfold respond in H. destruct x as [[w' ws]|e|e]; try discriminate.
-  cbn [bind fst snd] in H. destruct (r_deliver_all (s_r s) ws) as [r1|e|e] eqn:E; try discriminate.
-  cbn [bind] in H. inversion H; subst. eauto.
-Qed.
-
-Lemma ack_resp_safe : forall f sn j p w set ws, frag_size_ok f -> 1 <= j < div_ceil (blen p) f ->
-  w_f w = f -> history_ok (w_changes w) -> lookup sn (w_changes w) = Some p ->
-  ack_resp w set = Ok ws -> Forall (wire_safe sn j) ws.
-Proof.
-  intros f sn j p w set. induction set as [|s t IH]; intros ws Hf Hj Hwf Hh Hl H; cbn [ack_resp] in H.
-  - inversion H. constructor.
-  - destruct (ack_resp w t) as [y|e|e] eqn:E.
-    2,3: destruct (lookup s (w_changes w)); [destruct (0 <? s); [destruct (w_f w =? 0)|]|]; discriminate.
-    assert (Hx : exists x, ws = x :: y /\ wire_safe sn j x).
-    { destruct (lookup s (w_changes w)) as [q|] eqn:El.
-      - destruct (0 <? s).
-        + destruct (w_f w =? 0); [discriminate|]. cbn [bind] in H. inversion H; subst.
-          eexists. split; [reflexivity|].
-          destruct (Z.ltb_spec 1 (div_ceil (blen q) (w_f w))).
-          * apply (mk_frag_safe (w_f w) sn j Hf (w_changes w) Hh s q 0 El); lia.
-          * apply (data_safe (w_f w) sn j p Hj (w_changes w) Hl 1 s q El). lia.
-        + cbn [bind] in H. inversion H; subst. eexists. split; [reflexivity|exact I].
-      - cbn [bind] in H. inversion H; subst. eexists. split; [reflexivity|exact I]. }
-    destruct Hx as (x & -> & Hx). constructor; [exact Hx|]. apply IH; auto.
-Qed.
-
-Record linv (sn j : Z) (p : bytes) (s : sys) : Prop := mklinv {
-  li_s : sinv s;
-  li_n : ninv s;
-  li_lk : lookup sn (w_changes (s_w s)) = Some p;
-  li_j : 1 <= j < div_ceil (blen p) (w_f (s_w s));
-  li_nolost : nolost sn j (s_r s)
-}.
-
-Lemma step_linv : forall sn j p s o s' b, linv sn j p s -> op_ok o -> lost_op sn j o ->
-  step s o = Ok (s', b) -> linv sn j p s'.
-Proof.
-  intros sn j p s o s' b [Ls Ln Llk Lj Lno] Hop Hlo H.
-  destruct (step_inv s o s' b Ls Hop H) as [Ls' Hc].
-  destruct (step_ninv s o s' b Ln H) as (Ln' & Hnf & _).
-  pose proof Ls as [Hf Hh Hr Hp].
-  assert (Hwf : w_f (s_w s') = w_f (s_w s)).
-  { destruct o as [q|sn' idx which| fr |first last count final| |count sn' base set| ]; cbn [step] in H.
-    - unfold w_write in H. destruct (send_change 1 _ _ q); try discriminate. cbn [bind] in H.
-      destruct (if 2 <=? _ then _ else _); try discriminate. cbn [bind fst snd] in H. inversion H; reflexivity.
-    - destruct (datagram_of _ _ _ _); [destruct (r_deliver _ _); try discriminate; cbn [bind] in H|]; inversion H; reflexivity.
-    - destruct (r_on_frag _ _); try discriminate. cbn [bind] in H. inversion H; reflexivity.
-    - destruct (r_on_heartbeat _ _ _ _ _) as [[? ?]|?|?]; try discriminate. cbn [bind fst snd] in H. inversion H; reflexivity.
-    - destruct (Hnf eq_refl) as (n & _ & E). rewrite E. reflexivity.
-    - destruct Hlo.
-    - destruct (s_reply s) as [[a nfo]|].
-      + apply respond_inv2 in H as (w' & ws & Hx & _ & E). rewrite E.
-        apply w_on_acknack_spec in Hx; [tauto|exact Hf].
-      + apply respond_inv2 in H as (w' & ws & Hx & _ & E). injection Hx as A B. congruence. }
-  assert (Llk' : lookup sn (w_changes (s_w s')) = Some p) by (rewrite Hc, lookup_app, Llk; reflexivity).
-  constructor; try assumption; [rewrite Hwf; exact Lj|].
-  destruct o as [q|sn' idx which| fr |first last count final| |count sn' base set| ]; cbn [step op_ok lost_op] in *.
-  - (* write: reader untouched *)
-    unfold w_write in H. destruct (send_change 1 _ _ q); try discriminate. cbn [bind] in H.
-    destruct (if 2 <=? _ then _ else _); try discriminate. cbn [bind fst snd] in H. inversion H; subst. exact Lno.
-  - subst which. destruct (datagram_of (s_w s) sn' idx 1) as [w|] eqn:E.
-    + destruct (r_deliver (s_r s) w) as [r1|e|e] eqn:E1; try discriminate. cbn [bind] in H. inversion H; subst.
-      cbn [s_r]. apply (r_deliver_nolost (w_f (s_w s)) sn j p Hf Lj (w_changes (s_w s)) Hh Llk (s_r s) w r1 Hr);
-        [apply (datagram_of_spec _ _ _ _ E)| |exact Lno|exact E1].
-      unfold datagram_of in E. destruct ((1 <=? 1) && _); [|discriminate].
-      destruct (lookup sn' (w_changes (s_w s))) as [q|] eqn:El; [|discriminate].
-      destruct (w_f (s_w s) =? 0); [discriminate|].
-      destruct (Z.ltb_spec 1 (div_ceil (blen q) (w_f (s_w s)))).
-      * destruct (Z.leb_spec 0 idx); destruct (Z.ltb_spec idx (div_ceil (blen q) (w_f (s_w s))));
-          cbn [andb] in E; try discriminate. inversion E; subst.
-        apply (mk_frag_safe (w_f (s_w s)) sn j Hf (w_changes (s_w s)) Hh sn' q idx El); [lia|exact Hlo].
-      * destruct (idx =? 0); [|discriminate]. inversion E; subst.
-        apply (data_safe (w_f (s_w s)) sn j p Lj (w_changes (s_w s)) Llk 1 sn' q El). lia.
-    + inversion H; subst. exact Lno.
-  - destruct Hop.
-  - destruct (r_on_heartbeat (s_r s) first last count final) as [[r' x]|e|e] eqn:E; try discriminate.
-    cbn [bind fst snd] in H. inversion H; subst. cbn [s_r].
-    destruct (r_on_heartbeat_spec _ _ _ _ _ _ _ E) as (E1 & E2 & _).
-    destruct Lno as [A B]. split; rewrite ?E1, ?E2; assumption.
-  - (* the reader's NACK_FRAG: answered with nothing *)
-    destruct (Hnf eq_refl) as (n & Hb & _). subst b.
-    destruct (s_reply s) as [[a [nf|]]|] eqn:Er.
-    + apply respond_inv2 in H as (w' & ws & Hx & Hd & _).
-      assert (Hws : ws = []).
-      { destruct Ln as [_ N2 N3]. apply w_on_nack_frag_last in Hx as [_ Hz]; [|exact N2].
-        apply Hz. rewrite (N3 a nf Er). exact N2. }
-      subst ws. cbn [r_deliver_all] in Hd. injection Hd as Hd. rewrite <- Hd. exact Lno.
-    + apply respond_inv2 in H as (w' & ws & Hx & Hd & _). injection Hx as A B. subst ws.
-      cbn [r_deliver_all] in Hd. injection Hd as Hd. rewrite <- Hd. exact Lno.
-    + apply respond_inv2 in H as (w' & ws & Hx & Hd & _). injection Hx as A B. subst ws.
-      cbn [r_deliver_all] in Hd. injection Hd as Hd. rewrite <- Hd. exact Lno.
-  - destruct Hlo.
-  - destruct (s_reply s) as [[a nfo]|].
-    + apply respond_inv2 in H as (w' & ws & Hx & Hd & _).
-      pose proof Hx as Hx2. apply w_on_acknack_spec in Hx2 as (_ & _ & Hg); [|exact Hf].
-      unfold w_on_acknack in Hx. destruct (w_rel (s_w s) && _).
-      * destruct (ack_resp (s_w s) (a_set a)) as [y|e|e] eqn:Ea; try discriminate. cbn [bind] in Hx.
-        inversion Hx; subst.
-        apply (r_deliver_all_nolost (w_f (s_w s)) sn j p Hf Lj (w_changes (s_w s)) Hh Llk ws (s_r s) (s_r s') Hr Hg);
-          [|exact Lno|exact Hd].
-        apply (ack_resp_safe (w_f (s_w s)) sn j p (s_w s) (a_set a) ws Hf Lj eq_refl Hh Llk Ea).
-      * injection Hx as A B. subst ws. cbn [r_deliver_all] in Hd. injection Hd as Hd. rewrite <- Hd. exact Lno.
-    + apply respond_inv2 in H as (w' & ws & Hx & Hd & _). injection Hx as A B. subst ws.
-      cbn [r_deliver_all] in Hd. injection Hd as Hd. rewrite <- Hd. exact Lno.
-Qed.
-
-Lemma run_linv : forall sn j p ops s s' obs, linv sn j p s -> Forall op_ok ops -> Forall (lost_op sn j) ops ->
-  run s ops = Ok (s', obs) -> linv sn j p s'.
-Proof.
-  intros sn j p. induction ops as [|o ops IH]; intros s s' obs Hl Hok Hlo H; cbn [run] in H.
-  - inversion H; subst. exact Hl.
-  - inversion Hok as [|? ? Ho1 Ho2]; subst. inversion Hlo as [|? ? Hl1 Hl2]; subst.
-    destruct (step s o) as [[s1 b]|e|e] eqn:E; try discriminate. cbn [bind fst snd] in H.
-    destruct (run s1 ops) as [[s2 obs2]|e|e] eqn:E2; try discriminate. cbn [bind fst snd] in H.
-    inversion H; subst. apply (IH s1 s' obs2); try assumption.
-    apply (step_linv sn j p s o s1 b); assumption.
-Qed.
-
-Lemma run_app : forall a b s, run s (a ++ b) =
-  (x <- run s a ;; y <- run (fst x) b ;; Ok (fst y, snd x ++ snd y)).
-Proof.
-  induction a as [|o a IH]; intros b s; cbn [app run bind fst snd].
-  - destruct (run s b) as [[s' obs]|e|e]; reflexivity.
-  - destruct (step s o) as [[s1 ob]|e|e]; cbn [bind fst snd]; try reflexivity.
-    rewrite IH. destruct (run s1 a) as [[s2 o2]|e|e]; cbn [bind fst snd]; try reflexivity.
-    destruct (run s2 b) as [[s3 o3]|e|e]; cbn [bind fst snd]; reflexivity.
-Qed.
-
-Lemma written_writes : forall ps, written (map OWrite ps) = ps.
-Proof. induction ps as [|p ps IH]; cbn [map written]; [reflexivity|]. rewrite IH. reflexivity. Qed.
-
-Lemma run_writes_reader : forall ps s s' obs, run s (map OWrite ps) = Ok (s', obs) ->
-  s_r s' = s_r s /\ s_reply s' = s_reply s /\ w_last_nf (s_w s') = w_last_nf (s_w s).
-Proof.
-  induction ps as [|p ps IH]; intros s s' obs H; cbn [map run] in H.
-  - inversion H; auto.
-  - destruct (step s (OWrite p)) as [[s1 b]|e|e] eqn:E; try discriminate. cbn [bind fst snd] in H.
-    destruct (run s1 (map OWrite ps)) as [[s2 obs2]|e|e] eqn:E2; try discriminate. cbn [bind fst snd] in H.
-    inversion H; subst. destruct (IH s1 s' obs2 E2) as (A & B & C). rewrite A, B, C.
-    cbn [step] in E. unfold w_write in E.
-    destruct (send_change 1 _ _ p); try discriminate. cbn [bind] in E.
-    destruct (if 2 <=? _ then _ else _); try discriminate. cbn [bind fst snd] in E. inversion E; subst. auto.
-Qed.
-
-Lemma w_on_nack_frag_wf : forall w count sn base set w' ws,
-  w_on_nack_frag w count sn base set = Ok (w', ws) -> w_f w' = w_f w.
-Proof. intros. apply w_on_nack_frag_spec in H. tauto. Qed.
-
-Lemma step_wf : forall s o s' b, step s o = Ok (s', b) -> w_f (s_w s') = w_f (s_w s).
-Proof.
-  intros s o s' b H.
-  destruct o as [q|sn' idx which| fr |first last count final| |count sn' base set| ]; cbn [step] in H.
-  - unfold w_write in H. destruct (send_change 1 _ _ q); try discriminate. cbn [bind] in H.
-    destruct (if 2 <=? _ then _ else _); try discriminate. cbn [bind fst snd] in H. inversion H; reflexivity.
-  - destruct (datagram_of _ _ _ _); [destruct (r_deliver _ _); try discriminate; cbn [bind] in H|]; inversion H; reflexivity.
-  - destruct (r_on_frag _ _); try discriminate. cbn [bind] in H. inversion H; reflexivity.
-  - destruct (r_on_heartbeat _ _ _ _ _) as [[? ?]|?|?]; try discriminate. cbn [bind fst snd] in H. inversion H; reflexivity.
-  - destruct (s_reply s) as [[a [nf|]]|]; apply respond_inv2 in H as (w' & ws & Hx & _ & E); rewrite E.
-    + apply w_on_nack_frag_wf in Hx. exact Hx.
-    + injection Hx as A B. rewrite <- A. reflexivity.
-    + injection Hx as A B. rewrite <- A. reflexivity.
-  - apply respond_inv2 in H as (w' & ws & Hx & _ & E). rewrite E. apply w_on_nack_frag_wf in Hx. exact Hx.
-  - destruct (s_reply s) as [[a nfo]|]; apply respond_inv2 in H as (w' & ws & Hx & _ & E); rewrite E.
-    + unfold w_on_acknack in Hx. destruct (w_rel (s_w s) && _).
-      * destruct (ack_resp _ _); try discriminate. cbn [bind] in Hx. injection Hx as A B. rewrite <- A. reflexivity.
-      * injection Hx as A B. rewrite <- A. reflexivity.
-    + injection Hx as A B. rewrite <- A. reflexivity.
-Qed.
-
-Lemma run_wf : forall ops s s' obs, run s ops = Ok (s', obs) -> w_f (s_w s') = w_f (s_w s).
-Proof.
-  induction ops as [|o ops IH]; intros s s' obs H; cbn [run] in H.
-  - inversion H; reflexivity.
-  - destruct (step s o) as [[s1 b]|e|e] eqn:E; try discriminate. cbn [bind fst snd] in H.
-    destruct (run s1 ops) as [[s2 obs2]|e|e] eqn:E2; try discriminate. cbn [bind fst snd] in H.
-    inversion H; subst. rewrite (IH s1 s' obs2 E2). apply (step_wf s o s1 b E).
-Qed.
-
-(* D8 on the model, for ALL continuations: if fragment j >= 1 (0-based; i.e. any but the first) of
-   sample sn is lost in the first transmission, then whatever the environment does afterwards —
-   deliver any other datagram in any order, heartbeats, the reader's ACKNACKs and NACK_FRAGs fed to
-   the writer and the writer's answers delivered to the reader, further writes — the reader never
-   obtains sample sn.  (Refutes the `lost (reliable)` clause of C05.) *)
-Theorem lost_fragment_never_repaired : forall rel nreaders f ps ops sn j p s obs,
-  frag_size_ok f -> Forall (fun q => blen q < two32) ps ->
-  nth_written ps sn = Some p -> 1 <= j < div_ceil (blen p) f ->
-  Forall op_ok ops -> Forall (lost_op sn j) ops ->
-  run (s_init rel nreaders f) (map OWrite ps ++ ops) = Ok (s, obs) ->
-  ~ In sn (map fst (r_changes (s_r s))).
-Proof.
-  intros rel nreaders f ps ops sn j p s obs Hf Hps Hnth Hj Hok Hlo H.
-  rewrite run_app in H.
-  destruct (run (s_init rel nreaders f) (map OWrite ps)) as [[s1 o1]|e|e] eqn:E1; try discriminate.
-  cbn [bind fst snd] in H.
-  destruct (run s1 ops) as [[s2 o2]|e|e] eqn:E2; try discriminate. cbn [bind fst snd] in H.
-  inversion H; subst.
-  assert (Hokw : Forall op_ok (map OWrite ps)).
-  { apply Forall_forall. intros o Ho. apply in_map_iff in Ho as (q & <- & Hq). cbn [op_ok].
-    rewrite Forall_forall in Hps. apply Hps. exact Hq. }
-  destruct (run_inv _ _ s1 o1 (sinv_init rel nreaders f Hf) Hokw E1) as [Hs1 Hc1].
-  destruct (run_ninv _ _ s1 o1 (ninv_init rel nreaders f) E1) as [Hn1 _].
-  destruct (run_writes_reader ps _ s1 o1 E1) as (Hr1 & _ & _).
-  pose proof (run_wf _ _ _ _ E1) as Hwf. cbn in Hwf.
-  cbn in Hc1. rewrite written_writes in Hc1.
-  assert (Hl1 : linv sn j p s1).
-  { constructor; try assumption.
-    - rewrite Hc1, lookup_number_from. unfold nth_written in Hnth. exact Hnth.
-    - rewrite Hwf. exact Hj.
-    - rewrite Hr1. split; cbn; [intros x []|intros []]. }
-  destruct (run_linv sn j p ops s1 s o2 Hl1 Hok Hlo E2) as [_ _ _ _ [_ Hno]]. exact Hno.
-Qed.
-
-(* ------------------------------------------------------------ NACK_FRAG numbering *)
-
-(* what the writer answers to a NACK_FRAG that passes the duplicate filter: the fragments whose
-   0-based INDEX is the requested (1-based) number, i.e. wire numbers n + 1; base is answered twice
-   when it is also a member of the set *)
-Theorem nackfrag_resends_successor : forall w count sn base set p,
-  frag_size_ok (w_f w) -> payload_ok p -> w_rel w = true -> w_last_nf w < count ->
-  lookup sn (w_changes w) = Some p ->
-  0 <= base -> Forall (fun k => 0 <= k) set ->
-  exists w' ws, w_on_nack_frag w count sn base set = Ok (w', ws) /\
-    ws = map (fun k => WFrag (mk_data_frag 1 sn p (w_f w) k))
-             (filter (fun k => k <? div_ceil (blen p) (w_f w)) (base :: set)) /\
-    forall fr, In (WFrag fr) ws ->
-      exists k, In k (base :: set) /\ k < div_ceil (blen p) (w_f w) /\ fr_start fr = k + 1.
-Proof.
-  intros w count sn base set p Hf Hp Hrel Hc Hl Hb Hs.
-  unfold w_on_nack_frag. rewrite Hrel. replace (w_last_nf w <? count) with true by (symmetry; apply Z.ltb_lt; exact Hc).
-  cbn [andb]. rewrite Hl. destruct (Z.eqb_spec (w_f w) 0) as [E|E]; [destruct Hf; lia|].
-  eexists. eexists. split; [reflexivity|]. split; [reflexivity|].
-  intros fr Hin. remember (base :: set) as L eqn:EL.
-  apply in_map_iff in Hin as (k & Hk & Hin). apply filter_In in Hin as [Hin Hlt]. apply Z.ltb_lt in Hlt.
-  exists k. split; [exact Hin|]. split; [exact Hlt|].
-  assert (0 <= k).
-  { subst L. destruct Hin as [<-|Hin]; [exact Hb|]. rewrite Forall_forall in Hs. apply Hs. exact Hin. }
-  inversion Hk; subst fr.
-  pose proof (gfrag_fields (w_f w) 1 sn p Hf Hp k ltac:(lia)) as (_ & _ & A & _). exact A.
-Qed.
-
-(* corollary: a request for exactly fragment n (1 <= n <= total) is never answered with fragment n *)
-Theorem nackfrag_never_resends_requested : forall w count sn n p,
-  frag_size_ok (w_f w) -> payload_ok p -> w_rel w = true -> w_last_nf w < count ->
-  lookup sn (w_changes w) = Some p -> 1 <= n <= div_ceil (blen p) (w_f w) ->
-  exists w' ws, w_on_nack_frag w count sn n [n] = Ok (w', ws) /\
-    (forall fr, In (WFrag fr) ws -> fr_start fr = n + 1) /\
-    (n = div_ceil (blen p) (w_f w) -> ws = []).
-Proof.
-  intros w count sn n p Hf Hp Hrel Hc Hl Hn.
-  destruct (nackfrag_resends_successor w count sn n [n] p Hf Hp Hrel Hc Hl ltac:(lia)
-              ltac:(constructor; [lia|constructor])) as (w' & ws & E & Hws & Hall).
-  exists w', ws. split; [exact E|]. split.
-  - intros fr Hin. destruct (Hall fr Hin) as (k & Hk & _ & Hst).
-    assert (k = n) by (destruct Hk as [<-|[<-|[]]]; reflexivity). lia.
-  - intros ->. rewrite Hws. cbn [filter]. rewrite Z.ltb_irrefl. reflexivity.
-Qed.
-
-(* ------------------------------------------------------------ complete set => delivered (RELIABLE reader) *)
-
-Lemma r_on_data_changes : forall r s q, incl (r_changes r) (r_changes (r_on_data r s q)).
-Proof.
-  intros r s q c Hc. unfold r_on_data.
-  destruct (r_rel r); [destruct (s =? _)|destruct (_ <=? s)];
-    cbn [r_set received_change_set r_changes]; try exact Hc; apply in_app_iff; left; exact Hc.
-Qed.
-
-Lemma r_deliver_mono : forall r w r', r_deliver r w = Ok r' ->
-  r_rel r' = r_rel r /\ incl (r_changes r) (r_changes r').
-Proof.
-  intros r w r' E. destruct w as [rid s q|fr|s]; cbn [r_deliver] in E.
-  - inversion E; subst. split; [apply (proj2 (r_on_data_nfcount r s q))|apply r_on_data_changes].
-  - pose proof (r_on_frag_nfcount r fr r' E) as [_ B]. split; [exact B|].
-    unfold r_on_frag in E. destruct (reconstruct _ _) as [[[d|] b]|e|e]; cbn [bind fst snd] in E; try discriminate;
-      inversion E; subst.
-    + intros c Hc. apply r_on_data_changes. cbn [r_set r_changes]. exact Hc.
-    + cbn [r_set r_changes]. apply incl_refl.
-  - inversion E; subst. split; [reflexivity|apply incl_refl].
-Qed.
-
-Lemma r_on_data_rel_expected : forall r sn p, r_rel r = true -> sn = available_changes_max r + 1 ->
-  r_changes (r_on_data r sn p) = r_changes r ++ [(sn, p)].
-Proof.
-  intros r sn p Hrel Hs. unfold r_on_data. rewrite Hrel. rewrite <- Hs, Z.eqb_refl. reflexivity.
-Qed.
-
-Lemma r_on_data_rel_other : forall r sn p, r_rel r = true -> sn <> available_changes_max r + 1 ->
-  r_on_data r sn p = r.
-Proof.
-  intros r sn p Hrel Hs. unfold r_on_data. rewrite Hrel.
-  destruct (Z.eqb_spec sn (available_changes_max r + 1)); [contradiction|reflexivity].
-Qed.
-
-Section Complete.
-  Variables (f : Z) (ch : list (Z * bytes)) (sn : Z) (p : bytes).
-  Hypothesis Hf : frag_size_ok f.
-  Hypothesis Hch : history_ok ch.
-  Hypothesis Hlk : lookup sn ch = Some p.
-
-  Definition covered (buf : list frag) (ws : list wire) : Prop :=
-    forall i, 0 <= i < div_ceil (blen p) f ->
-      In (mk_data_frag 1 sn p f i) buf \/ In (WFrag (mk_data_frag 1 sn p f i)) ws.
-
-  (* either the sample has been delivered, or the reader still expects it, holds an incomplete set,
-     and every fragment is either buffered or still to come *)
-  Definition waiting (r : rstate) (ws : list wire) : Prop :=
-    rinv f ch r /\ r_rel r = true /\
-    (In (sn, p) (r_changes r) \/
-     (available_changes_max r + 1 = sn /\ ~ complete f 1 (r_buf r) sn p /\ covered (r_buf r) ws)).
-
-  Lemma deliver_step : forall r w ws, waiting r (w :: ws) -> wire_genuine f ch w ->
-    exists r', r_deliver r w = Ok r' /\ waiting r' ws.
-  Proof.
-    intros r w ws (Hr & Hrel & Hst) Hg.
-    destruct (r_deliver_inv f ch r w Hf Hch Hr Hg) as (r' & E & Hr'). exists r'. split; [exact E|].
-    destruct (r_deliver_mono r w r' E) as [Hrel' Hmono].
-    split; [exact Hr'|]. split; [congruence|].
-    destruct Hst as [Hdel|(Hexp & Hinc & Hcov)]; [left; apply Hmono; exact Hdel|].
-    destruct w as [rid s q|fr|s]; cbn [r_deliver wire_genuine] in *.
-    - (* DATA *)
-      inversion E; subst r'. unfold r_on_data. rewrite Hrel.
-      destruct (Z.eqb_spec s (available_changes_max r + 1)) as [Es|Es].
-      + left. assert (Hs : s = sn) by lia. assert (q = p) by (rewrite Hs in Hg; congruence).
-        cbn [r_set received_change_set r_changes]. apply in_app_iff. right. left. f_equal; assumption.
-      + right. split; [exact Hexp|]. split; [exact Hinc|].
-        intros i Hi. destruct (Hcov i Hi) as [H|[H|H]]; [left; exact H|discriminate|right; exact H].
-    - (* DATA_FRAG *)
-      pose proof Hg as (q & i0 & Hl & Hi0 & Hfr).
-      pose proof (r_on_frag_cases f ch r fr q Hf Hch Hr Hg Hl) as (Hsub & Hnd & Hgen & Hcase).
-      assert (Hb1 : frag_buf1 r fr = if fr_sn fr =? sn then push_frag (r_buf r) fr else r_buf r).
-      { unfold frag_buf1. rewrite Hrel, Hexp. reflexivity. }
-      set (buf1 := frag_buf1 r fr) in *.
-      destruct (Z.eqb_spec (fr_sn fr) sn) as [Es|Es].
-      + (* a fragment of the awaited sample: buffered *)
-        rewrite Es in *. assert (q = p) by congruence. subst q.
-        destruct Hcase as [[Hc Ec]|[Hc Ec]]; rewrite Ec in E; inversion E; subst r'.
-        * left. rewrite r_on_data_rel_expected; [|exact Hrel|symmetry; exact Hexp].
-          apply in_app_iff. right. left. reflexivity.
-        * right. cbn [r_set r_buf r_first r_highest available_changes_max].
-          split; [exact Hexp|]. split; [exact Hc|].
-          intros i Hi. rewrite Hb1. destruct (Hcov i Hi) as [H|[H|H]].
-          -- left. apply push_frag_in. left. exact H.
-          -- left. apply push_frag_in. right. inversion H. reflexivity.
-          -- right. exact H.
-      + (* a fragment of another sample: not buffered; at most some other sample's stale set is dropped *)
-        assert (Hkeep : forall x, In x (r_buf r) -> fr_sn x = sn ->
-                   In x (filter (fun y => negb (has_sn (fr_sn fr) y)) buf1)).
-        { intros x Hx Hs. apply filter_In. split; [rewrite Hb1; exact Hx|].
-          unfold has_sn. rewrite Hs. destruct (Z.eqb_spec sn (fr_sn fr)); [congruence|reflexivity]. }
-        destruct Hcase as [[Hc Ec]|[Hc Ec]]; rewrite Ec in E; inversion E; subst r'.
-        * right. rewrite r_on_data_rel_other; [|exact Hrel|change (fr_sn fr <> available_changes_max r + 1); lia].
-          cbn [r_set r_buf r_first r_highest available_changes_max].
-          split; [exact Hexp|]. split.
-          -- intros Hc'. apply Hinc. intros i Hi. specialize (Hc' i Hi). apply filter_In in Hc' as [Hc' _].
-             rewrite Hb1 in Hc'. exact Hc'.
-          -- intros i Hi. destruct (Hcov i Hi) as [H|[H|H]].
-             ++ left. apply Hkeep; [exact H|apply mk_data_frag_sn].
-             ++ exfalso. apply Es. replace fr with (mk_data_frag 1 sn p f i) by congruence. apply mk_data_frag_sn.
-             ++ right. exact H.
-        * right. cbn [r_set r_buf r_first r_highest available_changes_max]. rewrite Hb1.
-          split; [exact Hexp|]. split; [exact Hinc|].
-          intros i Hi. destruct (Hcov i Hi) as [H|[H|H]].
-          -- left. exact H.
-          -- exfalso. apply Es. replace fr with (mk_data_frag 1 sn p f i) by congruence. apply mk_data_frag_sn.
-          -- right. exact H.
-    - inversion E; subst r'. right. split; [exact Hexp|]. split; [exact Hinc|].
-      intros i Hi. destruct (Hcov i Hi) as [H|[H|H]]; [left; exact H|discriminate|right; exact H].
-  Qed.
-
-  Lemma deliver_all_waiting : forall ws r, waiting r ws -> Forall (wire_genuine f ch) ws ->
-    exists r', r_deliver_all r ws = Ok r' /\ waiting r' [].
-  Proof.
-    induction ws as [|w ws IH]; intros r Hw Hg; cbn [r_deliver_all].
-    - exists r. split; [reflexivity|exact Hw].
-    - inversion Hg as [|? ? Hg1 Hg2]; subst.
-      destruct (deliver_step r w ws Hw Hg1) as (r1 & E & Hw1). rewrite E. cbn [bind].
-      apply IH; assumption.
-  Qed.
-
-  (* RELIABLE reader that expects sample sn (and holds an incomplete or empty set of its fragments):
-     once every fragment has arrived — in ANY order, with ANY duplication, interleaved with ANY other
-     genuine traffic of the writer — the reader holds (sn, p) *)
-  Theorem complete_set_is_delivered : forall r ws,
-    rinv f ch r -> r_rel r = true -> available_changes_max r + 1 = sn ->
-    ~ complete f 1 (r_buf r) sn p ->
-    Forall (wire_genuine f ch) ws ->
-    (forall i, 0 <= i < div_ceil (blen p) f -> In (WFrag (mk_data_frag 1 sn p f i)) ws) ->
-    exists r', r_deliver_all r ws = Ok r' /\ In (sn, p) (r_changes r').
-  Proof.
-    intros r ws Hr Hrel Hexp Hinc Hg Hall.
-    assert (Hw : waiting r ws).
-    { split; [exact Hr|]. split; [exact Hrel|]. right. split; [exact Hexp|]. split; [exact Hinc|].
-      intros i Hi. right. apply Hall. exact Hi. }
-    destruct (deliver_all_waiting ws r Hw Hg) as (r' & E & (_ & _ & Hst)). exists r'. split; [exact E|].
-    destruct Hst as [Hdel|(_ & Hinc' & Hcov)]; [exact Hdel|].
-    exfalso. apply Hinc'. intros i Hi. destruct (Hcov i Hi) as [H|[]]. exact H.
-  Qed.
-End Complete.
 
 (* ------------------------------------------------------------ what the writer emits *)
 
@@ -1696,360 +1036,6 @@ Proof.
   destruct (div_ceil_bounds (blen p) f ltac:(lia) Hf1) as [Hb|[Hb1 Hb2]]; lia.
 Qed.
 
-(* ------------------------------------------------------------ witnesses (the failing families are inhabited) *)
-
-Definition p21 : bytes := [1;2;3;4;5;6;7;8;9;10;11;12;13;14;15;16;17;18;19;20;21].
-Definition p29 : bytes := p21 ++ [22;23;24;25;26;27;28;29].
-
-(* fragment 2 of 3 lost; heartbeat; the reader's NACK_FRAG asks for {2} with count 0; the writer answers nothing *)
-Lemma witness_count_zero :
-  exists s ack, run (s_init true 1 8) [OWrite p21; ODeliver 1 0 1; ODeliver 1 2 1; OHb 1 1 1 false; ONackFrag] =
-    Ok (s, [BSent [WFrag (mk_data_frag 1 1 p21 8 0); WFrag (mk_data_frag 1 1 p21 8 1); WFrag (mk_data_frag 1 1 p21 8 2)];
-            BCount 0; BCount 0; BReply (Some (ack, Some (mkNf 1 2 [2] 0))); BResp [] 0]) /\
-    r_changes (s_r s) = [].
-Proof. eexists. eexists. vm_compute. split; reflexivity. Qed.
-
-(* a NACK_FRAG that passes the filter and asks for fragment 2 is answered with fragment 3, twice *)
-Lemma witness_off_by_one :
-  exists w', w_on_nack_frag (mkW 8 true 1 [(1, p21)] 0 0) 1 1 2 [2] =
-    Ok (w', [WFrag (mk_data_frag 1 1 p21 8 2); WFrag (mk_data_frag 1 1 p21 8 2)]) /\
-    fr_start (mk_data_frag 1 1 p21 8 2) = 3.
-Proof. eexists. vm_compute. split; reflexivity. Qed.
-
-Lemma witness_fragsize_zero :
-  run (s_init true 1 8) [OForeign (mkfrag 1 1 1 1 0 21 [1; 2])] = Panic 28.
-Proof. vm_compute. reflexivity. Qed.
-
-(* 300 fragments, only the first received: building the NACK_FRAG indexes the 8-word bitmap at 9 *)
-Lemma witness_bitmap_overflow :
-  run (s_init true 1 8) [OWrite (repeat 7 2400); ODeliver 1 0 1; OHb 1 1 1 false] = Panic 123.
-Proof. vm_compute. reflexivity. Qed.
-
-(* two readers of one participant: fragments 1,2 addressed to R1 and 1,2 addressed to R2 make the
-   count 4 = expected 4; the reader delivers the first 16 of 29 bytes as sample 1 *)
-Lemma witness_mixed_readerid :
-  exists s obs, run (s_init true 2 8) [OWrite p29; ODeliver 1 0 1; ODeliver 1 1 1; ODeliver 1 0 2; ODeliver 1 1 2] =
-    Ok (s, obs) /\ r_changes (s_r s) = [(1, firstn 16 p29)] /\ firstn 16 p29 <> p29.
-Proof. eexists. eexists. vm_compute. split; [reflexivity|]. split; [reflexivity|discriminate]. Qed.
-
-(* two readers of one participant, 2 fragments: both copies of fragment 2, then both copies of
-   fragment 1 — everything arrived, nothing is reassembled (count 4 <> 2), and the heartbeat reply
-   panics because no fragment number is missing *)
-Lemma witness_none_missing_panic :
-  run (s_init true 2 8) [OWrite [1;2;3;4;5;6;7;8;9]; ODeliver 1 1 1; ODeliver 1 1 2; ODeliver 1 0 1; ODeliver 1 0 2;
-                         OHb 1 1 1 false] = Panic 4.
-Proof. vm_compute. reflexivity. Qed.
-
-(* non-vacuity of the positive theorems: a concrete interleaved, duplicated, reordered schedule *)
-Lemma example_reordered :
-  exists s obs, run (s_init true 1 8)
-    [OWrite p21; OWrite p29; ODeliver 2 1 1; ODeliver 1 2 1; ODeliver 1 0 1; ODeliver 1 2 1; ODeliver 2 0 1;
-     ODeliver 1 1 1; ODeliver 2 3 1; ODeliver 2 1 1; ODeliver 2 0 1; ODeliver 2 2 1] = Ok (s, obs) /\
-    r_changes (s_r s) = [(1, p21); (2, p29)].
-Proof. eexists. eexists. vm_compute. split; reflexivity. Qed.
-
-(* ------------------------------------------------------------ statements in the argument order of Props/C05.v *)
-
-Lemma C05_reassemble_any_order_stmt :
-  forall f rid sn (p : bytes) (l : list frag),
-    0 < f < 65536 -> blen p < two32 -> 1 <= div_ceil (blen p) f ->
-    (forall x, In x l -> fr_sn x = sn -> exists i, 0 <= i < div_ceil (blen p) f /\ x = mk_data_frag rid sn p f i) ->
-    (forall i, 0 <= i < div_ceil (blen p) f -> In (mk_data_frag rid sn p f i) l) ->
-    reconstruct (fold_left push_frag l []) sn =
-      Ok (Some p, filter (fun x => negb (has_sn sn x)) (fold_left push_frag l [])).
-Proof. intros f rid sn p l Hf Hp Hn Hl Hall. exact (reassemble_any_order f rid sn p l Hf Hp Hl Hn Hall). Qed.
-
-Lemma C05_incomplete_stmt :
-  forall f rid sn (p : bytes) (l : list frag),
-    0 < f < 65536 -> blen p < two32 ->
-    (forall x, In x l -> fr_sn x = sn -> exists i, 0 <= i < div_ceil (blen p) f /\ x = mk_data_frag rid sn p f i) ->
-    ~ (forall i, 0 <= i < div_ceil (blen p) f -> In (mk_data_frag rid sn p f i) l) ->
-    reconstruct (fold_left push_frag l []) sn = Ok (None, fold_left push_frag l []).
-Proof. intros f rid sn p l Hf Hp Hl Hn. exact (reassemble_incomplete f rid sn p l Hf Hp Hl Hn). Qed.
-
-Lemma C05_never_wrong_stmt :
-  forall f rid sn (p : bytes) (l : list frag) d b',
-    0 < f < 65536 -> blen p < two32 ->
-    (forall x, In x l -> fr_sn x = sn -> exists i, 0 <= i < div_ceil (blen p) f /\ x = mk_data_frag rid sn p f i) ->
-    reconstruct (fold_left push_frag l []) sn = Ok (Some d, b') -> d = p.
-Proof. intros f rid sn p l d b' Hf Hp Hl H. exact (reassemble_never_wrong f rid sn p l Hf Hp Hl d b' H). Qed.
-
-Lemma C05_complete_set_stmt :
-  forall f ch sn p r ws,
-    0 < f < 65536 -> history_ok ch -> lookup sn ch = Some p ->
-    rinv f ch r -> r_rel r = true -> available_changes_max r + 1 = sn ->
-    ~ complete f 1 (r_buf r) sn p ->
-    Forall (wire_genuine f ch) ws ->
-    (forall i, 0 <= i < div_ceil (blen p) f -> In (WFrag (mk_data_frag 1 sn p f i)) ws) ->
-    exists r', r_deliver_all r ws = Ok r' /\ In (sn, p) (r_changes r').
-Proof.
-  intros f ch sn p r ws Hf Hch Hlk Hr Hrel Hexp Hinc Hg Hall.
-  exact (complete_set_is_delivered f ch sn p Hf Hch Hlk r ws Hr Hrel Hexp Hinc Hg Hall).
-Qed.
-
-Lemma example_reassemble :
-  reconstruct (fold_left push_frag
-     [mk_data_frag 1 1 p21 8 2; mk_data_frag 1 2 p29 8 0; mk_data_frag 1 1 p21 8 0; mk_data_frag 1 1 p21 8 2;
-      mk_data_frag 1 1 p21 8 1] []) 1 = Ok (Some p21, [mk_data_frag 1 2 p29 8 0]).
-Proof. vm_compute. reflexivity. Qed.
-
-(* ------------------------------------------------------------ no panic on the writer's own traffic *)
-
-(* at rest no sample's fragment set is complete in the buffer (a complete set is consumed at once) *)
-Definition quiet (f : Z) (ch : list (Z * bytes)) (buf : list frag) : Prop :=
-  forall sn p, lookup sn ch = Some p -> 1 <= div_ceil (blen p) f -> ~ complete f 1 buf sn p.
-
-Definition small_history (f : Z) (ch : list (Z * bytes)) : Prop :=
-  forall sn p, lookup sn ch = Some p -> div_ceil (blen p) f <= 256.
-
-Lemma complete_incl : forall f rid b1 b2 sn p, (forall x, In x b1 -> In x b2) ->
-  complete f rid b1 sn p -> complete f rid b2 sn p.
-Proof. intros f rid b1 b2 sn p H Hc i Hi. apply H. apply Hc. exact Hi. Qed.
-
-Lemma quiet_incl : forall f ch b1 b2, (forall x, In x b1 -> In x b2) -> quiet f ch b2 -> quiet f ch b1.
-Proof.
-  intros f ch b1 b2 H Hq sn p Hl Hn Hc. apply (Hq sn p Hl Hn). apply (complete_incl f 1 b1 b2 sn p H Hc).
-Qed.
-
-Lemma quiet_mono : forall f ch e buf, frag_size_ok f -> history_ok (ch ++ e) ->
-  (forall x, In x buf -> genuine f 1 ch x) -> quiet f ch buf -> quiet f (ch ++ e) buf.
-Proof.
-  intros f ch e buf Hf Hh Hg Hq sn p Hl Hn Hc. rewrite lookup_app in Hl.
-  destruct (lookup sn ch) as [q|] eqn:E.
-  - inversion Hl; subst q. apply (Hq sn p E Hn Hc).
-  - (* a sample the buffer cannot know yet *)
-    specialize (Hc 0 ltac:(lia)). destruct (Hg _ Hc) as (q & i & Hlq & _).
-    rewrite mk_data_frag_sn in Hlq. congruence.
-Qed.
-
-Lemma r_on_data_buf_incl : forall r sn p x, In x (r_buf (r_on_data r sn p)) -> In x (r_buf r).
-Proof.
-  intros r sn p x. unfold r_on_data.
-  destruct (r_rel r); [destruct (sn =? _)|destruct (_ <=? sn)];
-    cbn [r_set received_change_set r_buf]; try tauto; intros H; apply filter_In in H; tauto.
-Qed.
-
-Lemma r_on_frag_quiet : forall f ch r fr r', frag_size_ok f -> history_ok ch ->
-  rinv f ch r -> genuine f 1 ch fr -> quiet f ch (r_buf r) -> r_on_frag r fr = Ok r' ->
-  quiet f ch (r_buf r').
-Proof.
-  intros f ch r fr r' Hf Hch Hr Hg Hq H.
-  pose proof Hg as (q & i0 & Hl & Hi0 & Hfr).
-  pose proof (r_on_frag_cases f ch r fr q Hf Hch Hr Hg Hl) as (Hsub & Hnd & Hgen & Hcase).
-  set (buf1 := frag_buf1 r fr) in *.
-  destruct Hcase as [[Hc E]|[Hc E]]; rewrite E in H; inversion H; subst r'.
-  - (* the set of fr_sn fr is consumed; everything else is a subset of what was quiet *)
-    apply (quiet_incl f ch _ (filter (fun x => negb (has_sn (fr_sn fr) x)) buf1)).
-    { intros x Hx. apply r_on_data_buf_incl in Hx. cbn [r_set r_buf] in Hx. exact Hx. }
-    intros sn p Hlp Hn Hcp.
-    destruct (Z.eq_dec sn (fr_sn fr)) as [Es|Es].
-    + subst sn. specialize (Hcp 0 ltac:(lia)). apply filter_In in Hcp as [_ Hcp].
-      unfold has_sn in Hcp. rewrite mk_data_frag_sn, Z.eqb_refl in Hcp. discriminate.
-    + apply (Hq sn p Hlp Hn). intros i Hi. specialize (Hcp i Hi). apply filter_In in Hcp as [Hcp _].
-      destruct (Hsub _ Hcp) as [Hin|Heq]; [exact Hin|].
-      exfalso. apply Es. rewrite <- Heq. symmetry. apply mk_data_frag_sn.
-  - cbn [r_set r_buf]. intros sn p Hlp Hn Hcp.
-    destruct (Z.eq_dec sn (fr_sn fr)) as [Es|Es].
-    + subst sn. assert (p = q) by congruence. subst p. exact (Hc Hcp).
-    + apply (Hq sn p Hlp Hn). intros i Hi. specialize (Hcp i Hi).
-      destruct (Hsub _ Hcp) as [Hin|Heq]; [exact Hin|].
-      exfalso. apply Es. rewrite <- Heq. symmetry. apply mk_data_frag_sn.
-Qed.
-
-Lemma r_deliver_all_quiet : forall f ch ws r r', frag_size_ok f -> history_ok ch ->
-  rinv f ch r -> Forall (wire_genuine f ch) ws -> quiet f ch (r_buf r) -> r_deliver_all r ws = Ok r' ->
-  quiet f ch (r_buf r').
-Proof.
-  intros f ch ws. induction ws as [|w ws IH]; intros r r' Hf Hch Hr Hg Hq H; cbn [r_deliver_all] in H.
-  - inversion H; subst. exact Hq.
-  - inversion Hg as [|? ? Hg1 Hg2]; subst.
-    destruct (r_deliver_inv f ch r w Hf Hch Hr Hg1) as (r1 & E & Hr1). rewrite E in H. cbn [bind] in H.
-    apply (IH r1 r' Hf Hch Hr1 Hg2); [|exact H].
-    destruct w as [rid s q|fr|s]; cbn [r_deliver wire_genuine] in *.
-    + inversion E; subst. apply (quiet_incl f ch _ (r_buf r)); [apply r_on_data_buf_incl|exact Hq].
-    + apply (r_on_frag_quiet f ch r fr r1); assumption.
-    + inversion E; subst. exact Hq.
-Qed.
-
-Lemma gen_nackfrag_total : forall f ch r, frag_size_ok f -> history_ok ch -> small_history f ch ->
-  rinv f ch r -> quiet f ch (r_buf r) -> exists x, gen_nackfrag r = Ok x.
-Proof.
-  intros f ch r Hf Hch Hsm Hr Hq. unfold gen_nackfrag.
-  destruct (find _ (missing256 r)) as [s|] eqn:Es; [|eexists; reflexivity].
-  apply find_some in Es as [_ Hex]. apply existsb_exists in Hex as (x & Hx & Hsx).
-  destruct (find (has_sn s) (r_buf r)) as [fr|] eqn:Efr.
-  2:{ pose proof (find_none _ _ Efr x Hx). congruence. }
-  apply find_some in Efr as [Hfr Hsfr]. unfold has_sn in Hsfr. apply Z.eqb_eq in Hsfr.
-  destruct Hr as [R1 R2 R3 R4].
-  destruct (R2 fr Hfr) as (p & i & Hl & Hi & Hfe). rewrite Hsfr in *.
-  pose proof (gfrag_fields f 1 s p Hf (Hch _ _ Hl) i Hi) as (_ & _ & _ & _ & Hfs & Hds & _).
-  unfold gfrag in *. rewrite <- Hfe in Hfs, Hds. rewrite Hfs, Hds.
-  destruct (Z.eqb_spec f 0) as [E0|E0]; [destruct Hf; lia|].
-  set (n := div_ceil (blen p) f).
-  pose proof (n_bounds f p Hf (Hch _ _ Hl)) as Hn. fold n in Hn.
-  set (miss := filter _ _).
-  assert (Hmiss_in : forall k, In k miss -> 1 <= k <= n).
-  { intros k Hk. unfold miss in Hk. apply filter_In in Hk as [Hk _]. apply zrange_in in Hk. lia. }
-  destruct miss as [|b t] eqn:Em.
-  - (* nothing missing would mean a complete set at rest *)
-    exfalso. apply (Hq s p Hl ltac:(fold n; lia)). intros j Hj.
-    assert (Hnot : ~ In (j + 1) miss) by (rewrite Em; intros []).
-    unfold miss in Hnot. rewrite filter_In in Hnot.
-    destruct (existsb (is_frag s (j + 1)) (r_buf r)) eqn:Eex.
-    + apply existsb_exists in Eex as (y & Hy & Hyp).
-      destruct (buf_elem_start f 1 ch Hf Hch (r_buf r) R2 s p Hl y (j + 1) Hy Hyp) as [_ Hyeq].
-      replace (j + 1 - 1) with j in Hyeq by lia. change (In (gfrag f 1 s p j) (r_buf r)). rewrite <- Hyeq. exact Hy.
-    + exfalso. apply Hnot. split; [apply zrange_in; fold n in Hj; lia|reflexivity].
-  - assert (Hb : 1 <= b <= n) by (apply Hmiss_in; left; reflexivity).
-    replace (existsb (fun n0 => 256 <=? n0 - b) (b :: t)) with false; [eexists; reflexivity|].
-    symmetry. apply not_true_is_false. intros Hex2. apply existsb_exists in Hex2 as (k & Hk & Hkb).
-    apply Z.leb_le in Hkb. pose proof (Hmiss_in k Hk). pose proof (Hsm s p Hl). fold n in H0. lia.
-Qed.
-
-Record pinv (s : sys) : Prop := mkpinv {
-  pi_s : sinv s;
-  pi_quiet : quiet (w_f (s_w s)) (w_changes (s_w s)) (r_buf (s_r s));
-  pi_small : small_history (w_f (s_w s)) (w_changes (s_w s))
-}.
-
-Lemma ack_resp_total : forall w set, w_f w <> 0 -> exists ws, ack_resp w set = Ok ws.
-Proof.
-  intros w set Hf. induction set as [|sn t [ws IH]]; cbn [ack_resp]; [eexists; reflexivity|].
-  rewrite IH. destruct (lookup sn (w_changes w)) as [p|]; [destruct (0 <? sn)|]; cbn [bind];
-    try (eexists; reflexivity).
-  destruct (Z.eqb_spec (w_f w) 0); [contradiction|]. cbn [bind]. eexists; reflexivity.
-Qed.
-
-Lemma w_on_nack_frag_total : forall w count sn base set, w_f w <> 0 ->
-  exists w' ws, w_on_nack_frag w count sn base set = Ok (w', ws).
-Proof.
-  intros w count sn base set Hf. unfold w_on_nack_frag.
-  destruct (w_rel w && _); [|eexists; eexists; reflexivity].
-  destruct (lookup sn (w_changes w)); [|eexists; eexists; reflexivity].
-  destruct (Z.eqb_spec (w_f w) 0); [contradiction|]. eexists; eexists; reflexivity.
-Qed.
-
-Lemma w_on_acknack_total : forall w count base set, w_f w <> 0 ->
-  exists w' ws, w_on_acknack w count base set = Ok (w', ws).
-Proof.
-  intros w count base set Hf. unfold w_on_acknack.
-  destruct (w_rel w && _); [|eexists; eexists; reflexivity].
-  destruct (ack_resp_total w set Hf) as [ws E]. rewrite E. cbn [bind]. eexists; eexists; reflexivity.
-Qed.
-
-Lemma respond_total : forall s x, pinv s ->
-  (exists w' ws, x = Ok (w', ws) /\ w_f w' = w_f (s_w s) /\ w_changes w' = w_changes (s_w s) /\
-                 Forall (wire_genuine (w_f (s_w s)) (w_changes (s_w s))) ws) ->
-  exists s' o, respond s x = Ok (s', o) /\ pinv s'.
-Proof.
-  intros s x [[Hf Hh Hr Hp] Hq Hsm] (w' & ws & -> & E1 & E2 & Hg).
-  unfold respond. cbn [bind fst snd].
-  destruct (r_deliver_all_inv _ _ ws (s_r s) Hf Hh Hr Hg) as (r1 & E & Hr1). rewrite E. cbn [bind].
-  eexists. eexists. split; [reflexivity|].
-  constructor; cbn [s_w s_r s_reply]; rewrite ?E1, ?E2; try assumption.
-  - constructor; cbn [s_w s_r s_reply]; rewrite ?E1, ?E2; assumption.
-  - apply (r_deliver_all_quiet _ _ ws (s_r s) r1 Hf Hh Hr Hg Hq E).
-Qed.
-
-Lemma step_total : forall s o, pinv s -> op_ok o -> small_op (w_f (s_w s)) o ->
-  exists s' b, step s o = Ok (s', b) /\ pinv s' /\ w_f (s_w s') = w_f (s_w s).
-Proof.
-  intros s o Hpi Hop Hso. pose proof Hpi as [Hs Hq Hsm]. pose proof Hs as [Hf Hh Hr Hp].
-  assert (Hf0 : w_f (s_w s) <> 0) by (destruct Hf; lia).
-  assert (Hres : forall x, (exists s' b, x = Ok (s', b) /\ pinv s') -> step s o = x ->
-                 exists s' b, step s o = Ok (s', b) /\ pinv s' /\ w_f (s_w s') = w_f (s_w s)).
-  { intros x (s' & b & -> & Hp') E. exists s', b. split; [exact E|]. split; [exact Hp'|]. apply (step_wf s o s' b E). }
-  destruct o as [p|sn idx which| fr |first last count final| |count sn base set| ]; cbn [op_ok small_op] in *.
-  - (* write *)
-    apply (Hres (step s (OWrite p))); [|reflexivity]. cbn [step]. unfold w_write, send_change.
-    destruct (Z.eqb_spec (w_f (s_w s)) 0); [contradiction|].
-    destruct (1 <? div_ceil (blen p) (w_f (s_w s))); cbn [bind]; destruct (2 <=? w_nreaders (s_w s)); cbn [bind fst snd].
-    all: eexists; eexists; split; [reflexivity|].
-    all: assert (Hh' : history_ok (w_changes (s_w s) ++ [(next_sn (s_w s), p)])) by (apply history_ok_app; assumption).
-    all: constructor; cbn [s_w s_r s_reply set_changes w_f w_changes].
-    all: try (constructor; cbn [s_w s_r s_reply set_changes w_f w_changes]; try assumption; apply rinv_mono; exact Hr).
-    all: try (apply quiet_mono; [exact Hf|exact Hh'|apply Hr|exact Hq]).
-    all: intros sn q Hl; rewrite lookup_app in Hl; destruct (lookup sn (w_changes (s_w s))) eqn:El;
-      [inversion Hl; subst; apply (Hsm sn q El)|
-       cbn [lookup] in Hl; destruct (next_sn (s_w s) =? sn); [inversion Hl; subst; exact Hso|discriminate]].
-  - (* deliver *)
-    subst which. apply (Hres (step s (ODeliver sn idx 1))); [|reflexivity]. cbn [step].
-    destruct (datagram_of (s_w s) sn idx 1) as [w|] eqn:E.
-    + apply datagram_of_spec in E.
-      destruct (r_deliver_inv _ _ (s_r s) w Hf Hh Hr E) as (r1 & E1 & Hr1). rewrite E1. cbn [bind].
-      eexists. eexists. split; [reflexivity|]. constructor; cbn [s_w s_r s_reply]; try assumption.
-      * constructor; assumption.
-      * apply (r_deliver_all_quiet _ _ [w] (s_r s) r1 Hf Hh Hr ltac:(constructor; [exact E|constructor]) Hq).
-        cbn [r_deliver_all]. rewrite E1. reflexivity.
-    + eexists. eexists. split; [reflexivity|exact Hpi].
-  - destruct Hop.
-  - (* heartbeat *)
-    apply (Hres (step s (OHb first last count final))); [|reflexivity]. cbn [step].
-    assert (Hhb : exists r' x, r_on_heartbeat (s_r s) first last count final = Ok (r', x)).
-    { unfold r_on_heartbeat. destruct (r_hbcount (s_r s) <? count); [|eexists; eexists; reflexivity].
-      unfold r_write_message. cbn [r_must]. destruct (negb final || _); [|eexists; eexists; reflexivity].
-      match goal with |- context [gen_nackfrag ?R] =>
-        destruct (gen_nackfrag_total (w_f (s_w s)) (w_changes (s_w s)) R Hf Hh Hsm) as [x E] end.
-      - destruct Hr as [R1 R2 R3 R4]. constructor; cbn [r_buf r_changes r_highest]; assumption.
-      - cbn [r_buf]. exact Hq.
-      - rewrite E. cbn [bind]. eexists; eexists; reflexivity. }
-    destruct Hhb as (r' & x & E). rewrite E. cbn [bind fst snd].
-    destruct (r_on_heartbeat_spec _ _ _ _ _ _ _ E) as (E1 & E2 & E3 & _ & _ & Hnf).
-    eexists. eexists. split; [reflexivity|]. constructor; cbn [s_w s_r s_reply]; try assumption.
-    + constructor; cbn [s_w s_r s_reply]; try assumption.
-      * destruct Hr as [R1 R2 R3 R4]. constructor; rewrite ?E1, ?E2, ?E3; assumption.
-      * destruct x as [[a [nf|]]|]; cbn [reply_ok]; try exact I; [|exact Hp].
-        destruct (Hnf a nf eq_refl) as (? & ? & _). auto.
-    + rewrite E1. exact Hq.
-  - (* reader's NACK_FRAG *)
-    apply (Hres (step s ONackFrag)); [|reflexivity]. cbn [step].
-    destruct (s_reply s) as [[a [nf|]]|] eqn:Er.
-    + apply respond_total; [exact Hpi|].
-      destruct (w_on_nack_frag_total (s_w s) (n_count nf) (n_sn nf) (n_base nf) (n_set nf) Hf0) as (w' & ws & E).
-      exists w', ws. split; [exact E|]. destruct (w_on_nack_frag_spec _ _ _ _ _ _ _ E) as (E1 & E2 & Hg).
-      cbn [reply_ok] in Hp. repeat split; try assumption. apply Hg; tauto.
-    + apply respond_total; [exact Hpi|]. eexists; eexists. repeat split; constructor.
-    + apply respond_total; [exact Hpi|]. eexists; eexists. repeat split; constructor.
-  - (* forged *)
-    apply (Hres (step s (OForged count sn base set))); [|reflexivity]. cbn [step].
-    apply respond_total; [exact Hpi|].
-    destruct (w_on_nack_frag_total (s_w s) count sn base set Hf0) as (w' & ws & E).
-    exists w', ws. split; [exact E|]. destruct (w_on_nack_frag_spec _ _ _ _ _ _ _ E) as (E1 & E2 & Hg).
-    repeat split; try assumption. apply Hg; tauto.
-  - (* ACKNACK *)
-    apply (Hres (step s OAckNack)); [|reflexivity]. cbn [step].
-    destruct (s_reply s) as [[a nfo]|] eqn:Er.
-    + apply respond_total; [exact Hpi|].
-      destruct (w_on_acknack_total (s_w s) (a_count a) (a_base a) (a_set a) Hf0) as (w' & ws & E).
-      exists w', ws. split; [exact E|]. apply w_on_acknack_spec in E; [|exact Hf]. exact E.
-    + apply respond_total; [exact Hpi|]. eexists; eexists. repeat split; constructor.
-Qed.
-
-Lemma pinv_init : forall rel nreaders f, frag_size_ok f -> pinv (s_init rel nreaders f).
-Proof.
-  intros rel nreaders f Hf. constructor.
-  - apply sinv_init. exact Hf.
-  - intros sn p H. discriminate.
-  - intros sn p H. discriminate.
-Qed.
-
-(* outside the known classes C05-fragsize-zero-div (no hand-made fragments) and
-   C05-nackfrag-bitmap-overflow (samples of at most 256 fragments) nothing panics, whatever the
-   history *)
-Theorem run_never_panics : forall rel nreaders f ops,
-  frag_size_ok f -> Forall op_ok ops -> Forall (small_op f) ops ->
-  exists s obs, run (s_init rel nreaders f) ops = Ok (s, obs).
-Proof.
-  intros rel nreaders f ops Hf Hok Hsm.
-  assert (G : forall ops s, pinv s -> w_f (s_w s) = f -> Forall op_ok ops -> Forall (small_op f) ops ->
-              exists s' obs, run s ops = Ok (s', obs)).
-  { clear. induction ops as [|o ops IH]; intros s Hp Hwf Hok Hsm; cbn [run]; [eexists; eexists; reflexivity|].
-    inversion Hok as [|? ? Ho1 Ho2]; subst. inversion Hsm as [|? ? Hs1 Hs2]; subst.
-    destruct (step_total s o Hp Ho1 Hs1) as (s1 & b & E & Hp1 & Hw1). rewrite E. cbn [bind fst snd].
-    destruct (IH s1 Hp1 Hw1 Ho2 Hs2) as (s2 & obs & E2). rewrite E2. cbn [bind fst snd].
-    eexists; eexists; reflexivity. }
-  apply G; [apply pinv_init; exact Hf|reflexivity|exact Hok|exact Hsm].
-Qed.
 
 (* ------------------------------------------------------------ the oracle decides the statement *)
 
@@ -2077,3 +1063,1035 @@ Proof.
       * rewrite (Hall sn d (or_introl eq_refl)). apply bytes_eqb_eq. reflexivity.
       * intros sn' d' Hin. apply Hall. right. exact Hin.
 Qed.
+
+
+(* ------------------------------------------------------------ deliveries leave the counters alone *)
+
+Definition same_ctrl (r r' : rstate) : Prop :=
+  r_rel r' = r_rel r /\ r_last r' = r_last r /\ r_must r' = r_must r /\ r_hbcount r' = r_hbcount r /\
+  r_ackcount r' = r_ackcount r /\ r_nfcount r' = r_nfcount r.
+
+Lemma same_ctrl_refl : forall r, same_ctrl r r.
+Proof. intros r. repeat split. Qed.
+Lemma same_ctrl_trans : forall a b c, same_ctrl a b -> same_ctrl b c -> same_ctrl a c.
+Proof. unfold same_ctrl. intros a b c H1 H2. intuition congruence. Qed.
+
+Lemma r_on_data_ctrl : forall r sn p, same_ctrl r (r_on_data r sn p).
+Proof.
+  intros r sn p. unfold r_on_data, same_ctrl.
+  destruct (r_rel r) eqn:E.
+  - destruct (sn =? _); cbn [r_set received_change_set r_nfcount r_rel r_last r_must r_hbcount r_ackcount]; auto 10.
+  - destruct (_ <=? sn); cbn [r_set received_change_set r_nfcount r_rel r_last r_must r_hbcount r_ackcount]; auto 10.
+Qed.
+
+Lemma r_on_frag_ctrl : forall r fr r', r_on_frag r fr = Ok r' -> same_ctrl r r'.
+Proof.
+  intros r fr r' H. unfold r_on_frag in H.
+  destruct (fr_fsize fr =? 0); [inversion H; apply same_ctrl_refl|].
+  destruct (reconstruct _ (fr_sn fr)) as [[[d|] b]|e|e]; cbn [bind fst snd] in H; try discriminate; inversion H; subst.
+  - eapply same_ctrl_trans; [|apply r_on_data_ctrl]. repeat split.
+  - repeat split.
+Qed.
+
+Lemma r_deliver_ctrl : forall r w r', r_deliver r w = Ok r' -> same_ctrl r r'.
+Proof.
+  intros r w r' E. destruct w as [rid s q|fr|s]; cbn [r_deliver] in E.
+  - inversion E; subst. apply r_on_data_ctrl.
+  - apply (r_on_frag_ctrl r fr r' E).
+  - inversion E; subst. apply same_ctrl_refl.
+Qed.
+
+Lemma r_deliver_all_ctrl : forall ws r r', r_deliver_all r ws = Ok r' -> same_ctrl r r'.
+Proof.
+  induction ws as [|w ws IH]; intros r r' H; cbn [r_deliver_all] in H.
+  - inversion H; subst. apply same_ctrl_refl.
+  - destruct (r_deliver r w) as [r1|e|e] eqn:E; try discriminate. cbn [bind] in H.
+    eapply same_ctrl_trans; [apply (r_deliver_ctrl r w r1 E)|apply (IH r1 r' H)].
+Qed.
+
+Lemma r_on_data_changes : forall r s q, incl (r_changes r) (r_changes (r_on_data r s q)).
+Proof.
+  intros r s q c Hc. unfold r_on_data.
+  destruct (r_rel r); [destruct (s =? _)|destruct (_ <=? s)];
+    cbn [r_set received_change_set r_changes]; try exact Hc; apply in_app_iff; left; exact Hc.
+Qed.
+
+Lemma r_deliver_mono : forall r w r', r_deliver r w = Ok r' -> incl (r_changes r) (r_changes r').
+Proof.
+  intros r w r' E. destruct w as [rid s q|fr|s]; cbn [r_deliver] in E.
+  - inversion E; subst. apply r_on_data_changes.
+  - unfold r_on_frag in E. destruct (fr_fsize fr =? 0); [inversion E; apply incl_refl|].
+    destruct (reconstruct _ _) as [[[d|] b]|e|e]; cbn [bind fst snd] in E; try discriminate;
+      inversion E; subst.
+    + intros c Hc. apply r_on_data_changes. cbn [r_set r_changes]. exact Hc.
+    + cbn [r_set r_changes]. apply incl_refl.
+  - inversion E; subst. apply incl_refl.
+Qed.
+
+Lemma r_deliver_all_mono : forall ws r r', r_deliver_all r ws = Ok r' -> incl (r_changes r) (r_changes r').
+Proof.
+  induction ws as [|w ws IH]; intros r r' H; cbn [r_deliver_all] in H.
+  - inversion H; subst. apply incl_refl.
+  - destruct (r_deliver r w) as [r1|e|e] eqn:E; try discriminate. cbn [bind] in H.
+    eapply incl_tran; [apply (r_deliver_mono r w r1 E)|apply (IH r1 r' H)].
+Qed.
+
+Lemma r_on_data_rel_expected : forall r sn p, r_rel r = true -> sn = available_changes_max r + 1 ->
+  r_changes (r_on_data r sn p) = r_changes r ++ [(sn, p)].
+Proof.
+  intros r sn p Hrel Hs. unfold r_on_data. rewrite Hrel. rewrite <- Hs, Z.eqb_refl. reflexivity.
+Qed.
+
+Lemma r_on_data_rel_other : forall r sn p, r_rel r = true -> sn <> available_changes_max r + 1 ->
+  r_on_data r sn p = r.
+Proof.
+  intros r sn p Hrel Hs. unfold r_on_data. rewrite Hrel.
+  destruct (Z.eqb_spec sn (available_changes_max r + 1)); [contradiction|reflexivity].
+Qed.
+
+(* ------------------------------------------------------------ complete set => delivered (RELIABLE reader) *)
+
+Lemma present_incl : forall b1 b2 sn k, (forall x, In x b1 -> In x b2) -> present b1 sn k -> present b2 sn k.
+Proof. intros b1 b2 sn k H (x & Hx & Hs & Hk). exists x. auto. Qed.
+
+Lemma complete_incl : forall f b1 b2 sn p, (forall x, In x b1 -> In x b2) ->
+  complete f b1 sn p -> complete f b2 sn p.
+Proof. intros f b1 b2 sn p H Hc i Hi. apply (present_incl b1 b2 sn _ H). apply Hc. exact Hi. Qed.
+
+Section Waiting.
+  Variables (f : Z) (ch : list (Z * bytes)) (sn : Z) (p : bytes).
+  Hypothesis Hf : frag_size_ok f.
+  Hypothesis Hch : history_ok ch.
+  Hypothesis Hlk : lookup sn ch = Some p.
+  Let n := div_ceil (blen p) f.
+
+  Variable I : Z -> Prop.     (* the fragment numbers (1-based) we keep track of *)
+  Variable keep : bool.       (* also track that the buffer only holds fragments of sn *)
+
+  Local Notation only_sn := (only_sn sn).
+
+  Definition covered (buf : list frag) (ws : list wire) : Prop :=
+    forall k, 1 <= k <= n -> I k ->
+      present buf sn k \/ exists rid, In (WFrag (mk_data_frag rid sn p f (k - 1))) ws.
+
+  (* either the sample has been delivered, or the reader still expects it, holds an incomplete set,
+     and every tracked fragment is either buffered or still to come *)
+  Definition waiting (r : rstate) (ws : list wire) : Prop :=
+    rinv f ch r /\ r_rel r = true /\
+    (In (sn, p) (r_changes r) \/
+     (available_changes_max r + 1 = sn /\ ~ complete f (r_buf r) sn p /\ covered (r_buf r) ws /\
+      (keep = true -> only_sn (r_buf r)))).
+
+  Lemma deliver_step : forall r w ws, waiting r (w :: ws) -> wire_genuine f ch w ->
+    exists r', r_deliver r w = Ok r' /\ waiting r' ws.
+  Proof.
+    intros r w ws (Hr & Hrel & Hst) Hg.
+    destruct (r_deliver_inv f ch r w Hf Hch Hr Hg) as (r' & E & Hr'). exists r'. split; [exact E|].
+    pose proof (r_deliver_ctrl r w r' E) as (Hrel' & _).
+    pose proof (r_deliver_mono r w r' E) as Hmono.
+    split; [exact Hr'|]. split; [congruence|].
+    destruct Hst as [Hdel|(Hexp & Hinc & Hcov & Honly)]; [left; apply Hmono; exact Hdel|].
+    destruct w as [rid s q|fr|s]; cbn [r_deliver wire_genuine] in *.
+    - (* DATA *)
+      inversion E; subst r'. unfold r_on_data. rewrite Hrel.
+      destruct (Z.eqb_spec s (available_changes_max r + 1)) as [Es|Es].
+      + left. assert (Hs : s = sn) by lia. assert (q = p) by (rewrite Hs in Hg; congruence).
+        cbn [r_set received_change_set r_changes]. apply in_app_iff. right. left. f_equal; assumption.
+      + right. split; [exact Hexp|]. split; [exact Hinc|]. split; [|exact Honly].
+        intros k Hk HI. destruct (Hcov k Hk HI) as [H|(rid' & [H|H])]; [left; exact H|discriminate|right; eauto].
+    - (* DATA_FRAG *)
+      pose proof Hg as (rid0 & q & i0 & Hl & Hi0 & Hfr).
+      pose proof (r_on_frag_cases f ch r fr q Hf Hch Hr Hg Hl) as (Hsub & Hsup & Hkey & Hnd & Hgen & Hcase).
+      assert (Hacc : frag_accept r fr = (fr_sn fr =? sn)).
+      { unfold frag_accept. rewrite Hrel, Hexp. reflexivity. }
+      set (buf1 := frag_buf1 r fr) in *.
+      destruct (Z.eqb_spec (fr_sn fr) sn) as [Es|Es].
+      + (* a fragment of the awaited sample: buffered *)
+        rewrite Es in *. assert (q = p) by congruence. subst q.
+        destruct Hcase as [[Hc Ec]|[Hc Ec]]; rewrite Ec in E; inversion E; subst r'.
+        * left. rewrite r_on_data_rel_expected; [|exact Hrel|symmetry; exact Hexp].
+          apply in_app_iff. right. left. reflexivity.
+        * right. cbn [r_set r_buf r_first r_highest available_changes_max].
+          split; [exact Hexp|]. split; [exact Hc|]. split.
+          -- intros k Hk HI. destruct (Hcov k Hk HI) as [H|(rid' & [H|H])].
+             ++ left. apply (present_incl (r_buf r) buf1 sn k Hsup H).
+             ++ left. injection H as H.
+                pose proof (Hkey Hacc) as Hk1. apply in_map_iff in Hk1 as (y & Hy & Hyin).
+                unfold frag_key in Hy. injection Hy as Hy1 Hy2.
+                pose proof (gfrag_fields f rid' sn p Hf (Hch _ _ Hlk) (k - 1) ltac:(fold n; lia)) as (_ & A & B & _).
+                unfold gfrag in A, B. rewrite H in Hy1, Hy2. rewrite A in Hy1. rewrite B in Hy2.
+                exists y. split; [exact Hyin|]. split; [exact Hy1|lia].
+             ++ right. eauto.
+          -- intros Hk x Hx. destruct (Hsub x Hx) as [Hx'|Hx']; [apply (Honly Hk x Hx')|subst; exact Es].
+      + (* a fragment of another sample: not buffered; at most some other sample's stale set is dropped *)
+        assert (Hb1 : buf1 = r_buf r).
+        { unfold buf1, frag_buf1. rewrite Hacc. destruct (Z.eqb_spec (fr_sn fr) sn); [contradiction|reflexivity]. }
+        destruct Hcase as [[Hc Ec]|[Hc Ec]]; rewrite Ec in E; inversion E; subst r'.
+        * right. rewrite r_on_data_rel_other; [|exact Hrel|change (fr_sn fr <> available_changes_max r + 1); lia].
+          cbn [r_set r_buf r_first r_highest available_changes_max]. rewrite Hb1.
+          split; [exact Hexp|]. split; [|split].
+          -- intros Hc'. apply Hinc.
+             apply (complete_incl f (filter (fun x => negb (has_sn (fr_sn fr) x)) (r_buf r)) (r_buf r) sn p); [|exact Hc'].
+             intros x Hx. apply filter_In in Hx. tauto.
+          -- intros k Hk HI. destruct (Hcov k Hk HI) as [(x & Hx & Hs & Hst)|(rid' & [H|H])].
+             ++ left. exists x. split; [|auto]. apply filter_In. split; [exact Hx|].
+                unfold has_sn. rewrite Hs. destruct (Z.eqb_spec sn (fr_sn fr)); [congruence|reflexivity].
+             ++ exfalso. apply Es. replace fr with (mk_data_frag rid' sn p f (k - 1)) by congruence. apply mk_data_frag_sn.
+             ++ right. eauto.
+          -- intros Hk x Hx. apply filter_In in Hx. apply (Honly Hk). tauto.
+        * right. cbn [r_set r_buf r_first r_highest available_changes_max]. rewrite Hb1.
+          split; [exact Hexp|]. split; [exact Hinc|]. split; [|exact Honly].
+          intros k Hk HI. destruct (Hcov k Hk HI) as [H|(rid' & [H|H])].
+          -- left. exact H.
+          -- exfalso. apply Es. replace fr with (mk_data_frag rid' sn p f (k - 1)) by congruence. apply mk_data_frag_sn.
+          -- right. eauto.
+    - inversion E; subst r'. right. split; [exact Hexp|]. split; [exact Hinc|]. split; [|exact Honly].
+      intros k Hk HI. destruct (Hcov k Hk HI) as [H|(rid' & [H|H])]; [left; exact H|discriminate|right; eauto].
+  Qed.
+
+  Lemma deliver_all_waiting : forall ws r, waiting r ws -> Forall (wire_genuine f ch) ws ->
+    exists r', r_deliver_all r ws = Ok r' /\ waiting r' [].
+  Proof.
+    induction ws as [|w ws IH]; intros r Hw Hg; cbn [r_deliver_all].
+    - exists r. split; [reflexivity|exact Hw].
+    - inversion Hg as [|? ? Hg1 Hg2]; subst.
+      destruct (deliver_step r w ws Hw Hg1) as (r1 & E & Hw1). rewrite E. cbn [bind].
+      apply IH; assumption.
+  Qed.
+
+  Lemma waiting_end : forall r, waiting r [] ->
+    In (sn, p) (r_changes r) \/
+    (available_changes_max r + 1 = sn /\ ~ complete f (r_buf r) sn p /\
+     (forall k, 1 <= k <= n -> I k -> present (r_buf r) sn k) /\ (keep = true -> only_sn (r_buf r))).
+  Proof.
+    intros r (_ & _ & [H|(A & B & C & D)]); [left; exact H|right].
+    split; [exact A|]. split; [exact B|]. split; [|exact D].
+    intros k Hk HI. destruct (C k Hk HI) as [H|(rid & [])]. exact H.
+  Qed.
+End Waiting.
+
+(* RELIABLE reader that expects sample sn (and holds an incomplete or empty set of its fragments):
+   once every fragment has arrived — in ANY order, with ANY duplication, addressed to whichever reader,
+   interleaved with ANY other genuine traffic of the writer — the reader holds (sn, p) *)
+Theorem complete_set_is_delivered : forall f ch sn p r ws,
+  frag_size_ok f -> history_ok ch -> lookup sn ch = Some p ->
+  rinv f ch r -> r_rel r = true -> available_changes_max r + 1 = sn ->
+  ~ complete f (r_buf r) sn p ->
+  Forall (wire_genuine f ch) ws ->
+  (forall i, 0 <= i < div_ceil (blen p) f -> exists rid, In (WFrag (mk_data_frag rid sn p f i)) ws) ->
+  exists r', r_deliver_all r ws = Ok r' /\ In (sn, p) (r_changes r').
+Proof.
+  intros f ch sn p r ws Hf Hch Hlk Hr Hrel Hexp Hinc Hg Hall.
+  assert (Hw : waiting f ch sn p (fun _ => True) false r ws).
+  { split; [exact Hr|]. split; [exact Hrel|]. right. split; [exact Hexp|]. split; [exact Hinc|].
+    split; [|discriminate]. intros k Hk _. right. apply Hall. lia. }
+  destruct (deliver_all_waiting f ch sn p Hf Hch Hlk _ _ ws r Hw Hg) as (r' & E & Hw').
+  exists r'. split; [exact E|].
+  destruct (waiting_end f ch sn p _ _ r' Hw') as [Hdel|(_ & Hinc' & Hcov & _)]; [exact Hdel|].
+  exfalso. apply Hinc'. intros i Hi. apply Hcov; [lia|exact I].
+Qed.
+
+(* ------------------------------------------------------------ NACK_FRAG numbering *)
+
+Lemma nack_requests_in : forall base set k, In k (nack_requests base set) <-> In k (base :: set).
+Proof.
+  intros base set k. unfold nack_requests. cbn [In]. rewrite filter_In. split.
+  - intros [H|[H _]]; auto.
+  - intros [H|H]; [auto|]. destruct (Z.eq_dec k base) as [E|E]; [auto|].
+    right. split; [exact H|]. destruct (Z.eqb_spec k base); [contradiction|reflexivity].
+Qed.
+
+(* what the writer answers to a NACK_FRAG that passes the duplicate filter: exactly the requested
+   fragments — wire number k for every requested k in 1..total (the base once) *)
+Theorem nackfrag_resends_requested : forall w count sn base set p,
+  frag_size_ok (w_f w) -> payload_ok p -> w_rel w = true -> w_last_nf w < count ->
+  lookup sn (w_changes w) = Some p ->
+  exists ws, w_on_nack_frag w count sn base set = Ok (set_last_nf w count, ws) /\
+    ws = map (fun k => WFrag (mk_data_frag 1 sn p (w_f w) (k - 1)))
+             (filter (fun k => (1 <=? k) && (k <=? div_ceil (blen p) (w_f w))) (nack_requests base set)) /\
+    (forall fr, In (WFrag fr) ws ->
+       exists k, In k (base :: set) /\ 1 <= k <= div_ceil (blen p) (w_f w) /\
+                 fr = mk_data_frag 1 sn p (w_f w) (k - 1) /\ fr_start fr = k) /\
+    (forall k, In k (base :: set) -> 1 <= k <= div_ceil (blen p) (w_f w) ->
+       In (WFrag (mk_data_frag 1 sn p (w_f w) (k - 1))) ws).
+Proof.
+  intros w count sn base set p Hf Hp Hrel Hc Hl.
+  unfold w_on_nack_frag. rewrite Hrel. replace (w_last_nf w <? count) with true by (symmetry; apply Z.ltb_lt; exact Hc).
+  cbn [andb]. rewrite Hl. destruct (Z.eqb_spec (w_f w) 0) as [E|E]; [destruct Hf; lia|].
+  eexists. split; [reflexivity|]. split; [reflexivity|].
+  remember (nack_requests base set) as L eqn:EL. split.
+  - intros fr Hin. apply in_map_iff in Hin as (k & Hk & Hin). apply filter_In in Hin as [Hin Hlt].
+    apply andb_true_iff in Hlt as [H1 H2]. apply Z.leb_le in H1, H2.
+    exists k. split; [subst L; apply nack_requests_in; exact Hin|]. split; [lia|].
+    injection Hk as Hk. split; [symmetry; exact Hk|]. subst fr.
+    pose proof (gfrag_fields (w_f w) 1 sn p Hf Hp (k - 1) ltac:(lia)) as (_ & _ & A & _). unfold gfrag in A. lia.
+  - intros k Hk Hr. apply in_map_iff. exists k. split; [reflexivity|]. apply filter_In.
+    split; [subst L; apply nack_requests_in; exact Hk|].
+    apply andb_true_iff. split; apply Z.leb_le; lia.
+Qed.
+
+(* the fragment resent for requested number n is fragment n — for every 1 <= n <= total, the last included *)
+Theorem nackfrag_resends_fragment_n : forall w count sn n p,
+  frag_size_ok (w_f w) -> payload_ok p -> w_rel w = true -> w_last_nf w < count ->
+  lookup sn (w_changes w) = Some p -> 1 <= n <= div_ceil (blen p) (w_f w) ->
+  w_on_nack_frag w count sn n [n] =
+    Ok (set_last_nf w count, [WFrag (mk_data_frag 1 sn p (w_f w) (n - 1))]) /\
+  fr_start (mk_data_frag 1 sn p (w_f w) (n - 1)) = n.
+Proof.
+  intros w count sn n p Hf Hp Hrel Hc Hl Hn.
+  destruct (nackfrag_resends_requested w count sn n [n] p Hf Hp Hrel Hc Hl) as (ws & E & Hws & _).
+  rewrite E, Hws. unfold nack_requests. cbn [filter]. rewrite Z.eqb_refl. cbn [negb filter].
+  replace ((1 <=? n) && (n <=? div_ceil (blen p) (w_f w))) with true
+    by (symmetry; apply andb_true_iff; split; apply Z.leb_le; lia).
+  cbn [map]. split; [reflexivity|].
+  pose proof (gfrag_fields (w_f w) 1 sn p Hf Hp (n - 1) ltac:(lia)) as (_ & _ & A & _). unfold gfrag in A. lia.
+Qed.
+
+(* ------------------------------------------------------------ NACK_FRAG / ACKNACK counts are fresh *)
+
+Lemma wrap_i32_small : forall z, i32_min <= z <= i32_max -> wrap_i32 z = z.
+Proof.
+  intros z H. unfold wrap_i32, i32_min, i32_max, two32 in *.
+  rewrite Z.mod_small by lia. lia.
+Qed.
+
+Lemma gen_nackfrag_count : forall r nf, gen_nackfrag r = Ok (Some nf) -> n_count nf = r_nfcount r.
+Proof.
+  intros r nf H. unfold gen_nackfrag in H.
+  destruct (find _ (missing256 r)) as [s|]; [|discriminate].
+  destruct (find (has_sn s) (r_buf r)) as [fr|]; [|discriminate].
+  destruct (fr_fsize fr =? 0); [discriminate|]. inversion H; subst. reflexivity.
+Qed.
+
+(* a heartbeat either produces no reply and changes no counter, or produces a reply whose ACKNACK and
+   NACK_FRAG carry the freshly incremented counters *)
+Lemma r_on_heartbeat_counts : forall r first last count final r' x,
+  r_on_heartbeat r first last count final = Ok (r', x) ->
+  (x = None /\ r_ackcount r' = r_ackcount r /\ r_nfcount r' = r_nfcount r) \/
+  (exists a nfo, x = Some (a, nfo) /\
+     r_ackcount r' = wrap_i32 (r_ackcount r + 1) /\ r_nfcount r' = wrap_i32 (r_nfcount r + 1) /\
+     a_count a = r_ackcount r' /\ (forall nf, nfo = Some nf -> n_count nf = r_nfcount r')).
+Proof.
+  intros r first last count final r' x H. unfold r_on_heartbeat in H.
+  destruct (r_hbcount r <? count).
+  2:{ inversion H; subst. left. auto. }
+  unfold r_write_message in H. cbn [r_must] in H.
+  destruct (negb final || _).
+  2:{ inversion H; subst. left. auto. }
+  match type of H with context [gen_nackfrag ?R] => destruct (gen_nackfrag R) as [nfo|e|e] eqn:E end; try discriminate.
+  cbn [bind] in H. inversion H; subst. right. eexists. eexists. split; [reflexivity|].
+  cbn [r_ackcount r_nfcount a_count]. repeat split.
+  intros nf ->. apply gen_nackfrag_count in E. cbn [r_nfcount] in E. exact E.
+Qed.
+
+
+Lemma respond_inv2 : forall s x s' o, respond s x = Ok (s', o) ->
+  exists w' ws, x = Ok (w', ws) /\ r_deliver_all (s_r s) ws = Ok (s_r s') /\ s_w s' = w' /\
+                s_reply s' = s_reply s /\ o = BResp ws (nchanges (s_r s')).
+Proof.
+  intros s x s' o H. unfold respond in H. destruct x as [[w' ws]|e|e]; try discriminate.
+  cbn [bind fst snd] in H. destruct (r_deliver_all (s_r s) ws) as [r1|e|e] eqn:E; try discriminate.
+  cbn [bind] in H. inversion H; subst. exists w', ws. cbn [s_r s_w s_reply]. auto.
+Qed.
+
+Lemma w_on_nack_frag_last : forall w count sn base set w' ws,
+  w_on_nack_frag w count sn base set = Ok (w', ws) ->
+  w_last_nf w' = w_last_nf w \/ (w_last_nf w < count /\ w_last_nf w' = count).
+Proof.
+  intros w count sn base set w' ws H. unfold w_on_nack_frag in H.
+  destruct (Z.ltb_spec (w_last_nf w) count) as [E|E].
+  - destruct (w_rel w); cbn [andb] in H; [|inversion H; auto].
+    destruct (lookup sn (w_changes w)); [destruct (w_f w =? 0); [discriminate|]|];
+      inversion H; subst; cbn [set_last_nf w_last_nf]; auto.
+  - rewrite andb_false_r in H. inversion H; auto.
+Qed.
+
+Lemma w_on_acknack_last : forall w count base set w' ws,
+  w_on_acknack w count base set = Ok (w', ws) ->
+  w_last_an w' = w_last_an w \/ (w_last_an w < count /\ w_last_an w' = count).
+Proof.
+  intros w count base set w' ws H. unfold w_on_acknack in H.
+  destruct (Z.ltb_spec (w_last_an w) count) as [E|E].
+  - destruct (w_rel w); cbn [andb] in H; [|inversion H; auto].
+    destruct (ack_resp w set); try discriminate. cbn [bind] in H. inversion H; subst.
+    cbn [set_last_an w_last_an]. auto.
+  - rewrite andb_false_r in H. inversion H; auto.
+Qed.
+
+Lemma step_cinv : forall N s o s' b, cinv N s -> N < i32_max -> no_forged o -> step s o = Ok (s', b) ->
+  cinv (N + 1) s'.
+Proof.
+  intros N s o s' b [C1 C2 [C3 C4] C5] HN Hno H.
+  assert (Hdel : forall w' ws, r_deliver_all (s_r s) ws = Ok (s_r s') -> s_w s' = w' -> s_reply s' = s_reply s ->
+            0 <= w_last_nf w' <= r_nfcount (s_r s) -> 0 <= w_last_an w' <= r_ackcount (s_r s) -> cinv (N + 1) s').
+  { intros w' ws Hd Hw Hrp Hn Ha. apply r_deliver_all_ctrl in Hd as (_ & _ & _ & _ & Ea & En).
+    constructor; rewrite ?Hw, ?Ea, ?En, ?Hrp; try assumption; try lia; try exact C5. }
+  destruct o as [p|sn idx which| fr |first last count final| |count sn base set| ]; cbn [step no_forged] in *.
+  - unfold w_write in H. destruct (send_change 1 _ _ p); try discriminate. cbn [bind] in H.
+    destruct (if 2 <=? _ then _ else _); try discriminate. cbn [bind fst snd] in H. inversion H; subst.
+    constructor; cbn [s_w s_r s_reply set_changes w_last_nf w_last_an]; try assumption. lia.
+  - destruct (datagram_of (s_w s) sn idx which) as [w|].
+    + destruct (r_deliver (s_r s) w) as [r1|e|e] eqn:E; try discriminate. cbn [bind] in H. inversion H; subst.
+      apply (Hdel (s_w s) [w]); cbn [s_r s_w s_reply r_deliver_all]; try reflexivity; try assumption.
+      rewrite E. reflexivity.
+    + inversion H; subst. constructor; try assumption. lia.
+  - destruct (r_on_frag (s_r s) fr) as [r1|e|e] eqn:E; try discriminate. cbn [bind] in H. inversion H; subst.
+    apply (Hdel (s_w s) [WFrag fr]); cbn [s_r s_w s_reply r_deliver_all r_deliver]; try reflexivity; try assumption.
+    rewrite E. reflexivity.
+  - destruct (r_on_heartbeat (s_r s) first last count final) as [[r' x]|e|e] eqn:E; try discriminate.
+    cbn [bind fst snd] in H. inversion H; subst. cbn [s_w s_r s_reply].
+    destruct (r_on_heartbeat_counts _ _ _ _ _ _ _ E) as [(-> & Ea & En)|(a & nfo & -> & Ea & En & Hac & Hnc)].
+    + constructor; cbn [s_w s_r s_reply]; rewrite ?Ea, ?En; try assumption. lia.
+    + rewrite wrap_i32_small in Ea, En by (unfold i32_min, i32_max in *; lia).
+      constructor; cbn [s_w s_r s_reply]; rewrite ?Ea, ?En; try lia.
+      intros a' nfo' Hx. inversion Hx; subst. split; [lia|]. intros nf Hnf. rewrite (Hnc nf Hnf). lia.
+  - destruct (s_reply s) as [[a [nf|]]|] eqn:Er;
+      apply respond_inv2 in H as (w' & ws & Hx & Hd & Hw & Hrp & _).
+    + destruct (C5 a (Some nf) eq_refl) as [_ Hn]. specialize (Hn nf eq_refl).
+      pose proof (w_on_nack_frag_spec _ _ _ _ _ _ _ Hx) as (_ & _ & _ & Ean & _).
+      apply (Hdel w' ws Hd Hw); [rewrite Hrp; exact Er| |rewrite Ean; exact C2].
+      destruct (w_on_nack_frag_last _ _ _ _ _ _ _ Hx) as [E|[E1 E2]]; lia.
+    + injection Hx as A B. subst w' ws. apply (Hdel (s_w s) [] Hd Hw); [rewrite Hrp; exact Er|exact C1|exact C2].
+    + injection Hx as A B. subst w' ws. apply (Hdel (s_w s) [] Hd Hw); [rewrite Hrp; exact Er|exact C1|exact C2].
+  - destruct Hno.
+  - destruct (s_reply s) as [[a nfo]|] eqn:Er;
+      apply respond_inv2 in H as (w' & ws & Hx & Hd & Hw & Hrp & _).
+    + destruct (C5 a nfo eq_refl) as [Ha _].
+      pose proof (w_on_acknack_spec _ _ _ _ _ _ Hx) as (_ & _ & _ & Enf & _).
+      apply (Hdel w' ws Hd Hw); [rewrite Hrp; exact Er|rewrite Enf; exact C1|].
+      destruct (w_on_acknack_last _ _ _ _ _ _ Hx) as [E|[E1 E2]]; lia.
+    + injection Hx as A B. subst w' ws. apply (Hdel (s_w s) [] Hd Hw); [rewrite Hrp; exact Er|exact C1|exact C2].
+Qed.
+
+Lemma cinv_init : forall rel nreaders f, cinv 0 (s_init rel nreaders f).
+Proof. intros. constructor; cbn; try lia. intros; discriminate. Qed.
+
+Lemma run_cinv : forall ops N s s' obs, cinv N s -> N + Z.of_nat (length ops) <= i32_max ->
+  Forall no_forged ops -> run s ops = Ok (s', obs) -> cinv (N + Z.of_nat (length ops)) s'.
+Proof.
+  induction ops as [|o ops IH]; intros N s s' obs Hc HN Hno H; cbn [run] in H.
+  - inversion H; subst. cbn [length]. replace (N + Z.of_nat 0) with N by lia. exact Hc.
+  - inversion Hno as [|? ? Hn1 Hn2]; subst.
+    destruct (step s o) as [[s1 b]|e|e] eqn:E; try discriminate. cbn [bind fst snd] in H.
+    destruct (run s1 ops) as [[s2 obs2]|e|e] eqn:E2; try discriminate. cbn [bind fst snd] in H.
+    inversion H; subst. cbn [length] in *.
+    replace (N + Z.of_nat (S (length ops))) with ((N + 1) + Z.of_nat (length ops)) by lia.
+    apply (IH (N + 1) s1 s' obs2); [|lia|exact Hn2|exact E2].
+    apply (step_cinv N s o s1 b Hc ltac:(lia) Hn1 E).
+Qed.
+
+(* After ANY history (no forged NACK_FRAGs, fewer than 2^31 - 1 operations): the next heartbeat that
+   makes the reader emit a NACK_FRAG gives it a count one above the previous one and strictly above
+   everything the writer has seen, so the writer processes it — the first one and every later one *)
+Theorem nackfrag_is_processed : forall rel nreaders f ops s obs,
+  Forall no_forged ops -> Z.of_nat (length ops) < i32_max ->
+  run (s_init rel nreaders f) ops = Ok (s, obs) ->
+  forall first last count final s' a nf,
+    step s (OHb first last count final) = Ok (s', BReply (Some (a, Some nf))) ->
+    n_count nf = r_nfcount (s_r s) + 1 /\ r_nfcount (s_r s') = n_count nf /\
+    w_last_nf (s_w s') < n_count nf /\
+    (forall sn' p', w_rel (s_w s') = true -> frag_size_ok (w_f (s_w s')) -> payload_ok p' ->
+       lookup sn' (w_changes (s_w s')) = Some p' ->
+       exists ws, w_on_nack_frag (s_w s') (n_count nf) sn' (n_base nf) (n_set nf)
+                  = Ok (set_last_nf (s_w s') (n_count nf), ws) /\
+         forall k, In k (n_base nf :: n_set nf) -> 1 <= k <= div_ceil (blen p') (w_f (s_w s')) ->
+           In (WFrag (mk_data_frag 1 sn' p' (w_f (s_w s')) (k - 1))) ws).
+Proof.
+  intros rel nreaders f ops s obs Hno Hlen H first last count final s' a nf Hs.
+  pose proof (run_cinv ops 0 _ s obs (cinv_init rel nreaders f) ltac:(lia) Hno H) as [C1 C2 [C3 C4] C5].
+  cbn [step] in Hs.
+  destruct (r_on_heartbeat (s_r s) first last count final) as [[r' x]|e|e] eqn:E; try discriminate.
+  cbn [bind fst snd] in Hs. injection Hs as Hs' Hx. subst s' x. cbn [s_w s_r].
+  destruct (r_on_heartbeat_counts _ _ _ _ _ _ _ E) as [(Hn & _)|(a' & nfo & Hx & Ea & En & Hac & Hnc)]; [discriminate|].
+  injection Hx as Ha Hnfo. subst a' nfo.
+  rewrite wrap_i32_small in En by (unfold i32_min, i32_max in *; lia).
+  rewrite (Hnc nf eq_refl), En.
+  split; [reflexivity|]. split; [reflexivity|]. split; [lia|].
+  intros sn' p' Hrel Hf Hp Hl.
+  destruct (nackfrag_resends_requested (s_w s) (r_nfcount (s_r s) + 1) sn' (n_base nf) (n_set nf) p' Hf Hp Hrel ltac:(lia) Hl)
+    as (ws & Ew & _ & _ & Hall).
+  exists ws. split; [exact Ew|exact Hall].
+Qed.
+
+(* ------------------------------------------------------------ no panic *)
+
+Lemma gen_nackfrag_total : forall f ch r, frag_size_ok f -> history_ok ch -> rinv f ch r ->
+  exists x, gen_nackfrag r = Ok x.
+Proof.
+  intros f ch r Hf Hch Hr. unfold gen_nackfrag.
+  destruct (find _ (missing256 r)) as [s|] eqn:Es; [|eexists; reflexivity].
+  apply find_some in Es as [_ Hex]. apply existsb_exists in Hex as (x & Hx & Hsx).
+  destruct (find (has_sn s) (r_buf r)) as [fr|] eqn:Efr.
+  2:{ pose proof (find_none _ _ Efr x Hx). congruence. }
+  apply find_some in Efr as [Hfr _].
+  rewrite (genuine_fsize f ch fr Hf Hch (ri_genuine f ch r Hr fr Hfr)).
+  destruct (Z.eqb_spec f 0); [destruct Hf; lia|]. eexists; reflexivity.
+Qed.
+
+Lemma r_on_heartbeat_total : forall f ch r first last count final, frag_size_ok f -> history_ok ch ->
+  rinv f ch r -> exists r' x, r_on_heartbeat r first last count final = Ok (r', x).
+Proof.
+  intros f ch r first last count final Hf Hch Hr. unfold r_on_heartbeat.
+  destruct (r_hbcount r <? count); [|eexists; eexists; reflexivity].
+  unfold r_write_message. cbn [r_must]. destruct (negb final || _); [|eexists; eexists; reflexivity].
+  match goal with |- context [gen_nackfrag ?R] =>
+    destruct (gen_nackfrag_total f ch R Hf Hch) as [x E] end.
+  - destruct Hr as [R1 R2 R3 R4]. constructor; cbn [r_buf r_changes r_highest]; assumption.
+  - rewrite E. cbn [bind]. eexists; eexists; reflexivity.
+Qed.
+
+Lemma ack_resp_total : forall w set, w_f w <> 0 -> exists ws, ack_resp w set = Ok ws.
+Proof.
+  intros w set Hf. induction set as [|sn t [ws IH]]; cbn [ack_resp]; [eexists; reflexivity|].
+  rewrite IH. destruct (lookup sn (w_changes w)) as [p|]; [destruct (0 <? sn)|]; cbn [bind];
+    try (eexists; reflexivity).
+  destruct (Z.eqb_spec (w_f w) 0); [contradiction|]. cbn [bind]. eexists; reflexivity.
+Qed.
+
+Lemma w_on_nack_frag_total : forall w count sn base set, w_f w <> 0 ->
+  exists w' ws, w_on_nack_frag w count sn base set = Ok (w', ws).
+Proof.
+  intros w count sn base set Hf. unfold w_on_nack_frag.
+  destruct (w_rel w && _); [|eexists; eexists; reflexivity].
+  destruct (lookup sn (w_changes w)); [|eexists; eexists; reflexivity].
+  destruct (Z.eqb_spec (w_f w) 0); [contradiction|]. eexists; eexists; reflexivity.
+Qed.
+
+Lemma w_on_acknack_total : forall w count base set, w_f w <> 0 ->
+  exists w' ws, w_on_acknack w count base set = Ok (w', ws).
+Proof.
+  intros w count base set Hf. unfold w_on_acknack.
+  destruct (w_rel w && _); [|eexists; eexists; reflexivity].
+  destruct (ack_resp_total w set Hf) as [ws E]. rewrite E. cbn [bind]. eexists; eexists; reflexivity.
+Qed.
+
+Lemma respond_total : forall s x, sinv s ->
+  (exists w' ws, x = Ok (w', ws) /\ Forall (wire_genuine (w_f (s_w s)) (w_changes (s_w s))) ws) ->
+  exists s' o, respond s x = Ok (s', o).
+Proof.
+  intros s x [Hf Hh Hr] (w' & ws & -> & Hg). unfold respond. cbn [bind fst snd].
+  destruct (r_deliver_all_inv _ _ ws (s_r s) Hf Hh Hr Hg) as (r1 & E & _). rewrite E. cbn [bind].
+  eexists; eexists; reflexivity.
+Qed.
+
+Lemma step_total : forall s o, sinv s -> op_ok o -> exists s' b, step s o = Ok (s', b).
+Proof.
+  intros s o Hs Hop. pose proof Hs as [Hf Hh Hr].
+  assert (Hf0 : w_f (s_w s) <> 0) by (destruct Hf; lia).
+  destruct o as [p|sn idx which| fr |first last count final| |count sn base set| ]; cbn [step op_ok] in *.
+  - unfold w_write, send_change. destruct (Z.eqb_spec (w_f (s_w s)) 0); [contradiction|].
+    destruct (1 <? div_ceil (blen p) (w_f (s_w s))); cbn [bind]; destruct (2 <=? w_nreaders (s_w s)); cbn [bind fst snd];
+      eexists; eexists; reflexivity.
+  - destruct (datagram_of (s_w s) sn idx which) as [w|] eqn:E; [|eexists; eexists; reflexivity].
+    apply datagram_of_spec in E. destruct (r_deliver_inv _ _ (s_r s) w Hf Hh Hr E) as (r1 & E1 & _).
+    rewrite E1. cbn [bind]. eexists; eexists; reflexivity.
+  - destruct Hop.
+  - destruct (r_on_heartbeat_total _ _ (s_r s) first last count final Hf Hh Hr) as (r' & x & E).
+    rewrite E. cbn [bind fst snd]. eexists; eexists; reflexivity.
+  - destruct (s_reply s) as [[a [nf|]]|].
+    + apply respond_total; [exact Hs|].
+      destruct (w_on_nack_frag_total (s_w s) (n_count nf) (n_sn nf) (n_base nf) (n_set nf) Hf0) as (w' & ws & E).
+      exists w', ws. split; [exact E|]. apply w_on_nack_frag_spec in E. tauto.
+    + apply respond_total; [exact Hs|]. eexists; eexists. split; [reflexivity|constructor].
+    + apply respond_total; [exact Hs|]. eexists; eexists. split; [reflexivity|constructor].
+  - apply respond_total; [exact Hs|].
+    destruct (w_on_nack_frag_total (s_w s) count sn base set Hf0) as (w' & ws & E).
+    exists w', ws. split; [exact E|]. apply w_on_nack_frag_spec in E. tauto.
+  - destruct (s_reply s) as [[a nfo]|].
+    + apply respond_total; [exact Hs|].
+      destruct (w_on_acknack_total (s_w s) (a_count a) (a_base a) (a_set a) Hf0) as (w' & ws & E).
+      exists w', ws. split; [exact E|]. apply w_on_acknack_spec in E. tauto.
+    + apply respond_total; [exact Hs|]. eexists; eexists. split; [reflexivity|constructor].
+Qed.
+
+Lemma run_total : forall ops s, sinv s -> Forall op_ok ops -> exists s' obs, run s ops = Ok (s', obs).
+Proof.
+  induction ops as [|o ops IH]; intros s Hs Hok; cbn [run]; [eexists; eexists; reflexivity|].
+  inversion Hok as [|? ? Ho1 Ho2]; subst.
+  destruct (step_total s o Hs Ho1) as (s1 & b & E). rewrite E. cbn [bind fst snd].
+  destruct (step_inv s o s1 b Hs Ho1 E) as [Hs1 _].
+  destruct (IH s1 Hs1 Ho2) as (s2 & obs & E2). rewrite E2. cbn [bind fst snd]. eexists; eexists; reflexivity.
+Qed.
+
+(* no history of the fault-schedule language panics (fragment size 1..65535, payloads below 4 GiB, no
+   hand-made fragments).  What remains outside: data_max_size_serialized = 0 (the writer divides by it),
+   fragment sizes above 65535 (the u16 wire field), hand-made fragments (C06) *)
+Theorem run_never_panics : forall rel nreaders f ops,
+  frag_size_ok f -> Forall op_ok ops -> exists s obs, run (s_init rel nreaders f) ops = Ok (s, obs).
+Proof. intros rel nreaders f ops Hf Hok. apply run_total; [apply sinv_init; exact Hf|exact Hok]. Qed.
+
+(* changes are never taken back *)
+Lemma step_mono : forall s o s' b, step s o = Ok (s', b) -> incl (r_changes (s_r s)) (r_changes (s_r s')).
+Proof.
+  intros s o s' b H.
+  destruct o as [p|sn idx which| fr |first last count final| |count sn base set| ]; cbn [step] in H.
+  - unfold w_write in H. destruct (send_change 1 _ _ p); try discriminate. cbn [bind] in H.
+    destruct (if 2 <=? _ then _ else _); try discriminate. cbn [bind fst snd] in H. inversion H; apply incl_refl.
+  - destruct (datagram_of _ _ _ _) as [w|]; [|inversion H; apply incl_refl].
+    destruct (r_deliver (s_r s) w) as [r1|e|e] eqn:E; try discriminate. cbn [bind] in H. inversion H; subst.
+    apply (r_deliver_mono _ _ _ E).
+  - destruct (r_on_frag (s_r s) fr) as [r1|e|e] eqn:E; try discriminate. cbn [bind] in H. inversion H; subst.
+    apply (r_deliver_mono (s_r s) (WFrag fr) r1 E).
+  - destruct (r_on_heartbeat _ _ _ _ _) as [[r' x]|?|?] eqn:E; try discriminate. cbn [bind fst snd] in H.
+    inversion H; subst. cbn [s_r]. apply r_on_heartbeat_spec in E as (_ & E2 & _). rewrite E2. apply incl_refl.
+  - destruct (s_reply s) as [[a [nf|]]|]; apply respond_inv2 in H as (w' & ws & _ & Hd & _);
+      apply (r_deliver_all_mono _ _ _ Hd).
+  - apply respond_inv2 in H as (w' & ws & _ & Hd & _). apply (r_deliver_all_mono _ _ _ Hd).
+  - destruct (s_reply s) as [[a nfo]|]; apply respond_inv2 in H as (w' & ws & _ & Hd & _);
+      apply (r_deliver_all_mono _ _ _ Hd).
+Qed.
+
+Lemma run_mono : forall ops s s' obs, run s ops = Ok (s', obs) -> incl (r_changes (s_r s)) (r_changes (s_r s')).
+Proof.
+  induction ops as [|o ops IH]; intros s s' obs H; cbn [run] in H.
+  - inversion H; apply incl_refl.
+  - destruct (step s o) as [[s1 b]|e|e] eqn:E; try discriminate. cbn [bind fst snd] in H.
+    destruct (run s1 ops) as [[s2 obs2]|e|e] eqn:E2; try discriminate. cbn [bind fst snd] in H.
+    inversion H; subst. eapply incl_tran; [apply (step_mono _ _ _ _ E)|apply (IH _ _ _ E2)].
+Qed.
+
+(* ------------------------------------------------------------ repair: heartbeat -> NACK_FRAG -> resend *)
+
+Lemma zrange_sorted : forall n lo, StronglySorted Z.lt (zrange lo n).
+Proof.
+  induction n as [|n IH]; intros lo; cbn [zrange]; constructor; [apply IH|].
+  apply Forall_forall. intros k Hk. apply zrange_in in Hk. lia.
+Qed.
+
+Lemma filter_sorted : forall (q : Z -> bool) l, StronglySorted Z.lt l -> StronglySorted Z.lt (filter q l).
+Proof.
+  intros q l H. induction H as [|a l Hs IH Hall]; cbn [filter]; [constructor|].
+  destruct (q a); [|exact IH]. constructor; [exact IH|].
+  apply Forall_forall. intros k Hk. apply filter_In in Hk as [Hk _]. rewrite Forall_forall in Hall. auto.
+Qed.
+
+Lemma take_while_window : forall b l, StronglySorted Z.lt l ->
+  forall k, In k (take_while (fun n => n - b <? 256) l) <-> In k l /\ k - b < 256.
+Proof.
+  intros b l H. induction H as [|a l Hs IH Hall]; intros k; cbn [take_while In]; [tauto|].
+  destruct (Z.ltb_spec (a - b) 256) as [E|E]; cbn [In].
+  - rewrite IH. split; [intros [->|[? ?]]; auto|intros [[->|?] ?]; auto].
+  - split; [intros []|]. intros [[->|Hk] Hlt]; [lia|]. rewrite Forall_forall in Hall. specialize (Hall k Hk). lia.
+Qed.
+
+Lemma existsb_is_frag : forall buf sn k, existsb (is_frag sn k) buf = true <-> present buf sn k.
+Proof.
+  intros buf sn k. rewrite existsb_exists. unfold present, is_frag. split.
+  - intros (x & Hx & Hp). apply andb_true_iff in Hp as [H1 H2]. apply Z.eqb_eq in H1, H2. eauto.
+  - intros (x & Hx & H1 & H2). exists x. split; [exact Hx|]. apply andb_true_iff. split; apply Z.eqb_eq; assumption.
+Qed.
+
+Definition missing_list (buf : list frag) (sn n : Z) : list Z :=
+  filter (fun k => negb (existsb (is_frag sn k) buf)) (zrange 1 (Z.to_nat n)).
+
+Lemma missing_list_in : forall buf sn n k, 0 <= n ->
+  In k (missing_list buf sn n) <-> 1 <= k <= n /\ ~ present buf sn k.
+Proof.
+  intros buf sn n k Hn. unfold missing_list. rewrite filter_In, zrange_in, negb_true_iff.
+  rewrite <- existsb_is_frag. destruct (existsb (is_frag sn k) buf); split; intros [H1 H2]; split; try lia; try congruence.
+Qed.
+
+Lemma present_decb : forall buf sn k, present buf sn k \/ ~ present buf sn k.
+Proof.
+  intros buf sn k. destruct (existsb (is_frag sn k) buf) eqn:E.
+  - left. apply existsb_is_frag. exact E.
+  - right. intros H. apply existsb_is_frag in H. congruence.
+Qed.
+
+(* the NACK_FRAG built from the missing list: everything below its base is present, and every
+   missing number less than 256 above the base is requested *)
+Lemma nack_window : forall buf sn n, 0 <= n ->
+  let miss := missing_list buf sn n in
+  let b := match miss with [] => 1 | b :: _ => b end in
+  let win := take_while (fun k => k - b <? 256) miss in
+  exists L, 1 <= L /\ (forall k, 1 <= k < L -> k <= n -> present buf sn k) /\
+    (forall k, 1 <= k <= n -> ~ present buf sn k -> k < L + 256 -> In k win) /\
+    (forall k, In k win -> 1 <= k <= n) /\ (L <= n -> ~ present buf sn L).
+Proof.
+  intros buf sn n Hn miss b win.
+  assert (Hs : StronglySorted Z.lt miss) by (apply filter_sorted; apply zrange_sorted).
+  assert (Hwin : forall k, In k win -> 1 <= k <= n).
+  { intros k Hk. apply (take_while_window b miss Hs) in Hk as [Hk _]. apply missing_list_in in Hk; tauto. }
+  destruct miss as [|b0 t] eqn:Em.
+  - exists (n + 1). split; [lia|]. split; [|split; [|split; [exact Hwin|lia]]].
+    + intros k Hk1 Hk2. destruct (present_decb buf sn k) as [H|H]; [exact H|].
+      exfalso. assert (Hin : In k (missing_list buf sn n)) by (apply missing_list_in; [exact Hn|split; [lia|exact H]]).
+      fold miss in Hin. rewrite Em in Hin. destruct Hin.
+    + intros k Hk Hnp _. exfalso.
+      assert (Hin : In k (missing_list buf sn n)) by (apply missing_list_in; [exact Hn|split; [lia|exact Hnp]]).
+      fold miss in Hin. rewrite Em in Hin. destruct Hin.
+  - assert (Hb0 : 1 <= b0 <= n /\ ~ present buf sn b0).
+    { apply (missing_list_in buf sn n b0 Hn). fold miss. rewrite Em. left. reflexivity. }
+    exists b0. split; [lia|]. split; [|split; [|split; [exact Hwin|tauto]]].
+    + intros k Hk1 Hk2. destruct (present_decb buf sn k) as [H|H]; [exact H|].
+      exfalso. assert (Hin : In k (missing_list buf sn n)) by (apply missing_list_in; [exact Hn|split; [lia|exact H]]).
+      fold miss in Hin. rewrite Em in Hin. destruct Hin as [->|Hin]; [lia|].
+      inversion Hs as [|? ? _ Hall]; subst. rewrite Forall_forall in Hall. specialize (Hall k Hin). lia.
+    + intros k Hk Hnp Hlt. apply (take_while_window b (b0 :: t) Hs). split; [|unfold b; lia].
+      rewrite <- Em. apply missing_list_in; [exact Hn|split; [lia|exact Hnp]].
+Qed.
+
+(* the reader after a processed heartbeat that demands a reply *)
+Definition hb_state (r : rstate) (first last c : Z) : rstate :=
+  mkR (r_rel r) first last (r_highest r) (r_buf r) false c
+      (wrap_i32 (r_ackcount r + 1)) (wrap_i32 (r_nfcount r + 1)) (r_changes r).
+
+Lemma hb_eval : forall r first last c final,
+  r_hbcount r < c -> Z.max first (r_highest r + 1) <= Z.max last (r_highest r) ->
+  r_on_heartbeat r first last c final =
+    (nf <- gen_nackfrag (hb_state r first last c) ;;
+     Ok (hb_state r first last c,
+         Some (mkAck (available_changes_max (hb_state r first last c) + 1)
+                     (take_while (fun x => x <? match min_sn (r_buf r) None with Some m => m | None => i64_max end)
+                                 (missing256 (hb_state r first last c)))
+                     (wrap_i32 (r_ackcount r + 1)), nf))).
+Proof.
+  intros r first last c final Hc Hm. unfold r_on_heartbeat.
+  replace (r_hbcount r <? c) with true by (symmetry; apply Z.ltb_lt; exact Hc).
+  unfold any_missing. cbn [r_first r_last r_highest].
+  replace (Z.max first (r_highest r + 1) <=? Z.max last (r_highest r)) with true by (symmetry; apply Z.leb_le; exact Hm).
+  rewrite orb_true_r. unfold r_write_message. cbn [r_must r_rel r_first r_last r_highest r_buf r_hbcount r_ackcount r_nfcount r_changes].
+  reflexivity.
+Qed.
+
+Lemma min_sn_only : forall sn buf acc, (forall x, In x buf -> fr_sn x = sn) ->
+  (acc = None \/ acc = Some sn) -> buf <> [] \/ acc = Some sn -> min_sn buf acc = Some sn.
+Proof.
+  intros sn buf. induction buf as [|x buf IH]; intros acc Ho Hacc Hne; cbn [min_sn].
+  - destruct Hne as [H|H]; [congruence|exact H].
+  - assert (Hx : fr_sn x = sn) by (apply Ho; left; reflexivity).
+    apply IH; [intros y Hy; apply Ho; right; exact Hy| |].
+    + right. destruct Hacc as [->| ->]; rewrite Hx; [reflexivity|rewrite Z.min_id; reflexivity].
+    + right. destruct Hacc as [->| ->]; rewrite Hx; [reflexivity|rewrite Z.min_id; reflexivity].
+Qed.
+
+Lemma step_frame : forall s o s' b, step s o = Ok (s', b) ->
+  w_rel (s_w s') = w_rel (s_w s) /\ r_rel (s_r s') = r_rel (s_r s) /\ w_nreaders (s_w s') = w_nreaders (s_w s).
+Proof.
+  intros s o s' b H.
+  assert (Hresp : forall x, (forall w' ws, x = Ok (w', ws) -> w_rel w' = w_rel (s_w s) /\ w_nreaders w' = w_nreaders (s_w s)) ->
+            respond s x = Ok (s', b) ->
+            w_rel (s_w s') = w_rel (s_w s) /\ r_rel (s_r s') = r_rel (s_r s) /\ w_nreaders (s_w s') = w_nreaders (s_w s)).
+  { intros x Hx Hr. apply respond_inv2 in Hr as (w' & ws & Ex & Hd & Hw & _).
+    destruct (Hx w' ws Ex) as [A B]. apply r_deliver_all_ctrl in Hd as (Hrel & _). rewrite Hw. auto. }
+  destruct o as [p|sn idx which| fr |first last count final| |count sn base set| ]; cbn [step] in H.
+  - unfold w_write in H. destruct (send_change 1 _ _ p); try discriminate. cbn [bind] in H.
+    destruct (if 2 <=? _ then _ else _); try discriminate. cbn [bind fst snd] in H. inversion H; subst. auto.
+  - destruct (datagram_of _ _ _ _) as [w|]; [|inversion H; auto].
+    destruct (r_deliver (s_r s) w) as [r1|e|e] eqn:E; try discriminate. cbn [bind] in H. inversion H; subst.
+    apply r_deliver_ctrl in E as (Hrel & _). auto.
+  - destruct (r_on_frag (s_r s) fr) as [r1|e|e] eqn:E; try discriminate. cbn [bind] in H. inversion H; subst.
+    apply r_on_frag_ctrl in E as (Hrel & _). auto.
+  - destruct (r_on_heartbeat _ _ _ _ _) as [[r' x]|?|?] eqn:E; try discriminate. cbn [bind fst snd] in H.
+    inversion H; subst. apply r_on_heartbeat_spec in E as (_ & _ & _ & E4). auto.
+  - destruct (s_reply s) as [[a [nf|]]|]; (eapply Hresp; [|exact H]); intros w' ws Hx.
+    + unfold w_on_nack_frag in Hx. destruct (w_rel (s_w s) && _); [|inversion Hx; auto].
+      destruct (lookup _ _); [destruct (w_f (s_w s) =? 0); [discriminate|]|]; inversion Hx; auto.
+    + inversion Hx; auto.
+    + inversion Hx; auto.
+  - eapply Hresp; [|exact H]. intros w' ws Hx.
+    unfold w_on_nack_frag in Hx. destruct (w_rel (s_w s) && _); [|inversion Hx; auto].
+    destruct (lookup _ _); [destruct (w_f (s_w s) =? 0); [discriminate|]|]; inversion Hx; auto.
+  - destruct (s_reply s) as [[a nfo]|]; (eapply Hresp; [|exact H]); intros w' ws Hx.
+    + unfold w_on_acknack in Hx. destruct (w_rel (s_w s) && _); [|inversion Hx; auto].
+      destruct (ack_resp _ _); try discriminate. cbn [bind] in Hx. inversion Hx; auto.
+    + inversion Hx; auto.
+Qed.
+
+Lemma step_wf : forall s o s' b, step s o = Ok (s', b) -> w_f (s_w s') = w_f (s_w s).
+Proof.
+  intros s o s' b H.
+  destruct o as [q|sn' idx which| fr |first last count final| |count sn' base set| ]; cbn [step] in H.
+  - unfold w_write in H. destruct (send_change 1 _ _ q); try discriminate. cbn [bind] in H.
+    destruct (if 2 <=? _ then _ else _); try discriminate. cbn [bind fst snd] in H. inversion H; reflexivity.
+  - destruct (datagram_of _ _ _ _); [destruct (r_deliver _ _); try discriminate; cbn [bind] in H|]; inversion H; reflexivity.
+  - destruct (r_on_frag _ _); try discriminate. cbn [bind] in H. inversion H; reflexivity.
+  - destruct (r_on_heartbeat _ _ _ _ _) as [[? ?]|?|?]; try discriminate. cbn [bind fst snd] in H. inversion H; reflexivity.
+  - destruct (s_reply s) as [[a [nf|]]|]; apply respond_inv2 in H as (w' & ws & Hx & _ & E & _); rewrite E.
+    + apply w_on_nack_frag_spec in Hx. tauto.
+    + injection Hx as A B. rewrite <- A. reflexivity.
+    + injection Hx as A B. rewrite <- A. reflexivity.
+  - apply respond_inv2 in H as (w' & ws & Hx & _ & E & _). rewrite E. apply w_on_nack_frag_spec in Hx. tauto.
+  - destruct (s_reply s) as [[a nfo]|]; apply respond_inv2 in H as (w' & ws & Hx & _ & E & _); rewrite E.
+    + apply w_on_acknack_spec in Hx. tauto.
+    + injection Hx as A B. rewrite <- A. reflexivity.
+Qed.
+
+Lemma run_frame : forall ops s s' obs, run s ops = Ok (s', obs) ->
+  w_rel (s_w s') = w_rel (s_w s) /\ r_rel (s_r s') = r_rel (s_r s) /\ w_f (s_w s') = w_f (s_w s).
+Proof.
+  induction ops as [|o ops IH]; intros s s' obs H; cbn [run] in H.
+  - inversion H; auto.
+  - destruct (step s o) as [[s1 b]|e|e] eqn:E; try discriminate. cbn [bind fst snd] in H.
+    destruct (run s1 ops) as [[s2 obs2]|e|e] eqn:E2; try discriminate. cbn [bind fst snd] in H.
+    inversion H; subst. destruct (IH s1 s' obs2 E2) as (A & B & C).
+    destruct (step_frame s o s1 b E) as (A' & B' & _). pose proof (step_wf s o s1 b E). repeat split; congruence.
+Qed.
+
+Lemma r_on_data_first : forall r sn p, r_rel r = true -> r_first (r_on_data r sn p) = r_first r.
+Proof.
+  intros r sn p Hrel. unfold r_on_data. rewrite Hrel.
+  destruct (sn =? _); cbn [r_set received_change_set r_first]; reflexivity.
+Qed.
+
+Lemma r_deliver_first : forall r w r', r_rel r = true -> r_deliver r w = Ok r' -> r_first r' = r_first r.
+Proof.
+  intros r w r' Hrel E. destruct w as [rid s q|fr|s]; cbn [r_deliver] in E.
+  - inversion E; subst. apply r_on_data_first. exact Hrel.
+  - unfold r_on_frag in E. destruct (fr_fsize fr =? 0); [inversion E; reflexivity|].
+    destruct (reconstruct _ _) as [[[d|] b]|e|e]; cbn [bind fst snd] in E; try discriminate; inversion E; subst.
+    + rewrite r_on_data_first; [reflexivity|exact Hrel].
+    + reflexivity.
+  - inversion E; reflexivity.
+Qed.
+
+Lemma r_deliver_all_first : forall ws r r', r_rel r = true -> r_deliver_all r ws = Ok r' -> r_first r' = r_first r.
+Proof.
+  induction ws as [|w ws IH]; intros r r' Hrel H; cbn [r_deliver_all] in H.
+  - inversion H; reflexivity.
+  - destruct (r_deliver r w) as [r1|e|e] eqn:E; try discriminate. cbn [bind] in H.
+    pose proof (r_deliver_ctrl r w r1 E) as (Hrel1 & _).
+    rewrite (IH r1 r' ltac:(congruence) H). apply (r_deliver_first r w r1 Hrel E).
+Qed.
+
+Section Repair.
+  Variables (sn : Z) (p : bytes) (first last : Z).
+
+  Local Notation rep := (rep sn p last).
+  Local Notation pending := (pending sn p first).
+  Local Notation round := (round first last).
+
+  Lemma hb_state_rinv : forall f ch r c, rinv f ch r -> rinv f ch (hb_state r first last c).
+  Proof. intros f ch r c [R1 R2 R3 R4]. constructor; cbn [hb_state r_buf r_changes r_highest]; assumption. Qed.
+
+  (* the heartbeat step of a pending state *)
+  Lemma hb_step : forall L N c final s, rep s -> pending L s -> cinv N s -> N < i32_max ->
+    r_hbcount (s_r s) < c ->
+    let r := s_r s in let n := div_ceil (blen p) (w_f (s_w s)) in
+    exists ack nfo,
+      step s (OHb first last c final) =
+        Ok (mkS (s_w s) (hb_state r first last c) (Some (ack, nfo)), BReply (Some (ack, nfo))) /\
+      a_count ack = r_ackcount r + 1 /\
+      r_ackcount (hb_state r first last c) = r_ackcount r + 1 /\
+      r_nfcount (hb_state r first last c) = r_nfcount r + 1 /\
+      ((r_buf r = [] /\ nfo = None /\ exists t, a_set ack = sn :: t) \/
+       (r_buf r <> [] /\ a_set ack = [] /\
+        exists nf, nfo = Some nf /\ n_sn nf = sn /\ n_count nf = r_nfcount r + 1 /\
+          (forall k, 1 <= k <= n -> ~ present (r_buf r) sn k -> k < L + 256 -> In k (n_set nf)))).
+  Proof.
+    intros L N c final s [Hs Hwrel Hrrel Hlk Hn [Hsn Hlast]] (Hmax & Hexp & Hinc & Honly & Hpres)
+           [C1 C2 [C3 C4] C5] HN Hc r n.
+    pose proof Hs as [Hf Hh Hr].
+    assert (Hwa : wrap_i32 (r_ackcount r + 1) = r_ackcount r + 1)
+      by (apply wrap_i32_small; unfold i32_min, i32_max in *; fold r in C2, C4; lia).
+    assert (Hwn : wrap_i32 (r_nfcount r + 1) = r_nfcount r + 1)
+      by (apply wrap_i32_small; unfold i32_min, i32_max in *; fold r in C1, C3; lia).
+    cbn [step]. fold r.
+    rewrite (hb_eval r first last c final Hc) by (fold r in Hmax; lia).
+    set (r3 := hb_state r first last c).
+    assert (Hm256 : exists t, missing256 r3 = sn :: t).
+    { unfold missing256, r3. cbn [hb_state r_first r_last r_highest]. fold r in Hmax. rewrite Hmax.
+      set (hi := Z.max last (r_highest r)).
+      assert (1 <= Z.min 256 (hi - sn + 1)) by (unfold hi; lia).
+      destruct (Z.to_nat (Z.min 256 (hi - sn + 1))) as [|m] eqn:Em; [lia|]. cbn [zrange]. eauto. }
+    destruct Hm256 as (t & Hm256).
+    destruct (r_buf r) as [|x0 buf0] eqn:Ebuf.
+    - (* nothing buffered: no NACK_FRAG, the ACKNACK asks for the whole sample *)
+      assert (Egen : gen_nackfrag r3 = Ok None).
+      { unfold gen_nackfrag. replace (r_buf r3) with (r_buf r) by reflexivity. rewrite Ebuf.
+        replace (find _ (missing256 r3)) with (@None Z); [reflexivity|].
+        symmetry. generalize (missing256 r3). intros l. induction l as [|a l IHl]; cbn [find existsb]; auto. }
+      rewrite Egen. cbn [bind min_sn].
+      eexists. eexists. split; [reflexivity|]. cbn [a_count a_set]. split; [exact Hwa|].
+      split; [exact Hwa|]. split; [exact Hwn|]. left. split; [reflexivity|]. split; [reflexivity|].
+      rewrite Hm256. cbn [take_while]. replace (sn <? i64_max) with true by (symmetry; apply Z.ltb_lt; lia). eauto.
+    - (* some fragments buffered: the NACK_FRAG asks for the missing ones *)
+      rewrite <- Ebuf in *.
+      assert (Hne : r_buf r <> []) by (rewrite Ebuf; discriminate).
+      assert (Hx0 : In x0 (r_buf r)) by (rewrite Ebuf; left; reflexivity).
+      assert (Hmin : min_sn (r_buf r) None = Some sn).
+      { apply min_sn_only; [exact Honly|left; reflexivity|left; exact Hne]. }
+      rewrite Hmin.
+      assert (Hfind : find (fun s0 => existsb (has_sn s0) (r_buf r3)) (missing256 r3) = Some sn).
+      { rewrite Hm256. cbn [find]. replace (r_buf r3) with (r_buf r) by reflexivity.
+        replace (existsb (has_sn sn) (r_buf r)) with true; [reflexivity|].
+        symmetry. apply existsb_exists. exists x0. split; [exact Hx0|]. unfold has_sn. apply Z.eqb_eq. apply Honly. exact Hx0. }
+      assert (Hfr : exists fr, find (has_sn sn) (r_buf r) = Some fr).
+      { destruct (find (has_sn sn) (r_buf r)) as [fr|] eqn:E; [eauto|].
+        pose proof (find_none _ _ E x0 Hx0) as Hc0. unfold has_sn in Hc0. rewrite (Honly x0 Hx0), Z.eqb_refl in Hc0. discriminate. }
+      destruct Hfr as (fr & Hfr). pose proof Hfr as Hfr2. apply find_some in Hfr2 as [Hfrin Hfrs].
+      unfold has_sn in Hfrs. apply Z.eqb_eq in Hfrs.
+      destruct (buf_elem_start _ _ Hf Hh (r_buf r) (ri_genuine _ _ _ Hr) sn p Hlk fr (fr_start fr) Hfrin Hfrs eq_refl)
+        as (_ & _ & Hfs & Hds & _).
+      assert (Egen : gen_nackfrag r3 =
+                Ok (Some (mkNf sn (match missing_list (r_buf r) sn n with [] => 1 | b :: _ => b end)
+                               (take_while (fun k => k - (match missing_list (r_buf r) sn n with [] => 1 | b :: _ => b end) <? 256)
+                                           (missing_list (r_buf r) sn n))
+                               (r_nfcount r3)))).
+      { unfold gen_nackfrag. rewrite Hfind. replace (r_buf r3) with (r_buf r) by reflexivity. rewrite Hfr.
+        rewrite Hfs, Hds. destruct (Z.eqb_spec (w_f (s_w s)) 0) as [E0|E0]; [destruct Hf; lia|]. reflexivity. }
+      rewrite Egen. cbn [bind].
+      eexists. eexists. split; [reflexivity|]. cbn [a_count a_set]. split; [exact Hwa|].
+      split; [exact Hwa|]. split; [exact Hwn|]. right. split; [exact Hne|]. split.
+      + rewrite Hm256. cbn [take_while]. rewrite Z.ltb_irrefl. reflexivity.
+      + eexists. split; [reflexivity|]. cbn [n_sn n_count n_set]. split; [reflexivity|]. split; [exact Hwn|].
+        pose proof (n_bounds _ p Hf (Hh _ _ Hlk)) as Hnb. fold n in Hnb.
+        destruct (nack_window (r_buf r) sn n ltac:(lia)) as (L' & HL1 & HLp & HLw & _ & HLn).
+        intros k Hk Hnp Hlt. apply HLw; [exact Hk|exact Hnp|].
+        (* L <= L': the base is missing, everything below L is present *)
+        destruct (Z_le_gt_dec L' n) as [Hle|Hgt]; [|lia].
+        assert (~ (L' < L)) by (intros Hlt'; apply (HLn Hle); apply Hpres; lia). lia.
+  Qed.
+
+  (* delivering genuine submessages to a reader that waits for sn: either the sample gets delivered, or
+     the reader still waits and every tracked fragment number J that was buffered or carried is buffered *)
+  Lemma deliver_pending : forall f ch r ws (J : Z -> Prop),
+    frag_size_ok f -> history_ok ch -> lookup sn ch = Some p ->
+    rinv f ch r -> r_rel r = true -> available_changes_max r + 1 = sn ->
+    ~ complete f (r_buf r) sn p -> only_sn sn (r_buf r) ->
+    Forall (wire_genuine f ch) ws ->
+    (forall k, 1 <= k <= div_ceil (blen p) f -> J k ->
+       present (r_buf r) sn k \/ exists rid, In (WFrag (mk_data_frag rid sn p f (k - 1))) ws) ->
+    exists r', r_deliver_all r ws = Ok r' /\ rinv f ch r' /\ same_ctrl r r' /\ r_first r' = r_first r /\
+      (In (sn, p) (r_changes r') \/
+       (available_changes_max r' + 1 = sn /\ ~ complete f (r_buf r') sn p /\ only_sn sn (r_buf r') /\
+        forall k, 1 <= k <= div_ceil (blen p) f -> J k -> present (r_buf r') sn k)).
+  Proof.
+    intros f ch r ws J Hf Hch Hl Hr Hrel Hexp Hinc Honly Hg Hcov.
+    assert (Hw : waiting f ch sn p J true r ws).
+    { split; [exact Hr|]. split; [exact Hrel|]. right. split; [exact Hexp|]. split; [exact Hinc|].
+      split; [exact Hcov|]. intros _. exact Honly. }
+    destruct (deliver_all_waiting f ch sn p Hf Hch Hl J true ws r Hw Hg) as (r' & E & Hw').
+    exists r'. split; [exact E|]. split; [apply Hw'|]. split; [apply (r_deliver_all_ctrl ws r r' E)|].
+    split; [apply (r_deliver_all_first ws r r' Hrel E)|].
+    destruct (waiting_end f ch sn p J true r' Hw') as [Hd|(A & B & C & D)]; [left; exact Hd|right].
+    split; [exact A|]. split; [exact B|]. split; [apply D; reflexivity|exact C].
+  Qed.
+
+  Lemma r_on_heartbeat_hb : forall r fi la c final r' x, r_hbcount r < c ->
+    r_on_heartbeat r fi la c final = Ok (r', x) -> r_hbcount r' = c /\ r_first r' = fi.
+  Proof.
+    intros r fi la c final r' x Hc H. unfold r_on_heartbeat in H.
+    replace (r_hbcount r <? c) with true in H by (symmetry; apply Z.ltb_lt; exact Hc).
+    unfold r_write_message in H. cbn [r_must] in H.
+    destruct (negb final || _); [|inversion H; subst; auto].
+    match type of H with context [gen_nackfrag ?R] => destruct (gen_nackfrag R) as [nfo|e|e] end; try discriminate.
+    cbn [bind] in H. inversion H; subst. auto.
+  Qed.
+
+  Lemma pending_expected : forall r, r_first r = first -> available_changes_max r + 1 = sn ->
+    Z.max first (r_highest r + 1) = sn.
+  Proof. intros r Hfi H. unfold available_changes_max in H. rewrite Hfi in H. lia. Qed.
+
+  Lemma round_progress : forall L N c final s, rep s -> cinv N s -> N + 3 <= i32_max ->
+    r_hbcount (s_r s) < c ->
+    (In (sn, p) (r_changes (s_r s)) \/ pending L s) ->
+    exists s' obs, run s (round c final) = Ok (s', obs) /\ rep s' /\ cinv (N + 3) s' /\
+      r_hbcount (s_r s') = c /\
+      (In (sn, p) (r_changes (s_r s')) \/
+       pending (match r_buf (s_r s) with [] => 2 | _ => L + 256 end) s').
+  Proof.
+    intros L N c final s Hrep Hc HN Hhb Hst. pose proof Hrep as [Hs Hwrel Hrrel Hlk Hn [Hsn Hlast]].
+    assert (Hok : Forall op_ok (round c final)) by (repeat constructor).
+    assert (Hnf : Forall no_forged (round c final)) by (repeat constructor).
+    destruct (run_total (round c final) s Hs Hok) as (s' & obs & E).
+    exists s', obs. split; [exact E|].
+    destruct (run_inv _ _ _ _ Hs Hok E) as [Hs' Hch']. cbn [round written number_from] in Hch'. rewrite app_nil_r in Hch'.
+    destruct (run_frame _ _ _ _ E) as (Fw & Fr & Ff).
+    pose proof (run_cinv (round c final) N s s' obs Hc ltac:(cbn [round length]; lia) Hnf E) as Hc'.
+    cbn [round length] in Hc'. replace (N + Z.of_nat 3) with (N + 3) in Hc' by lia.
+    assert (Hrep' : rep s').
+    { constructor; rewrite ?Fw, ?Fr, ?Ff, ?Hch'; auto. }
+    split; [exact Hrep'|]. split; [exact Hc'|].
+    (* unfold the three steps *)
+    pose proof E as E0. cbn [run round] in E.
+    destruct (step s (OHb first last c final)) as [[s1 b1]|e|e] eqn:E1; try discriminate. cbn [bind fst snd] in E.
+    destruct (step s1 OAckNack) as [[s2 b2]|e|e] eqn:E2; try discriminate. cbn [bind fst snd] in E.
+    destruct (step s2 ONackFrag) as [[s3 b3]|e|e] eqn:E3; try discriminate. cbn [bind fst snd] in E.
+    injection E as Es' _. subst s3.
+    assert (Hhb' : r_hbcount (s_r s') = c).
+    { cbn [step] in E1. destruct (r_on_heartbeat (s_r s) first last c final) as [[r1 x1]|?|?] eqn:Eh; try discriminate.
+      cbn [bind fst snd] in E1. injection E1 as E1 _. subst s1.
+      destruct (r_on_heartbeat_hb _ _ _ _ _ _ _ Hhb Eh) as [Hh1 _].
+      cbn [step] in E2, E3.
+      assert (H2 : r_hbcount (s_r s2) = c).
+      { cbn [s_reply s_w s_r] in E2. destruct (match x1 with Some y => Some y | None => s_reply s end) as [[a nfo]|];
+          apply respond_inv2 in E2 as (? & ? & _ & Hd & _); apply r_deliver_all_ctrl in Hd as (_ & _ & _ & Hd & _);
+          cbn [s_r] in Hd; congruence. }
+      destruct (s_reply s2) as [[a [nf|]]|];
+        apply respond_inv2 in E3 as (? & ? & _ & Hd & _); apply r_deliver_all_ctrl in Hd as (_ & _ & _ & Hd & _); congruence. }
+    split; [exact Hhb'|].
+    destruct Hst as [Hdel|Hpend].
+    { left. apply (run_mono (round c final) s s' obs E0). exact Hdel. }
+    (* pending: follow the protocol *)
+    pose proof Hs as [Hf Hh Hr]. pose proof Hc as [C1 C2 [C3 C4] C5].
+    set (f := w_f (s_w s)) in *. set (ch := w_changes (s_w s)) in *. set (r := s_r s) in *.
+    set (n := div_ceil (blen p) f) in *.
+    destruct (hb_step L N c final s Hrep Hpend Hc ltac:(lia) Hhb)
+      as (ack & nfo & Eh & Hac & Hack3 & Hnf3 & Hcase).
+    fold r in Eh, Hac, Hack3, Hnf3, Hcase. rewrite Eh in E1. injection E1 as E1 _. subst s1.
+    destruct Hpend as (Hmax & Hexp & Hinc & Honly & Hpres). fold r f in Hmax, Hexp, Hinc, Honly, Hpres.
+    set (r3 := hb_state r first last c) in *.
+    assert (Hr3 : rinv f ch r3) by (apply hb_state_rinv; exact Hr).
+    assert (Hexp3 : available_changes_max r3 + 1 = sn).
+    { unfold available_changes_max, r3. cbn [hb_state r_first r_highest]. lia. }
+    cbn [step s_reply s_w s_r] in E2.
+    destruct Hcase as [(Hempty & -> & (t & Hset))|(Hne & Hset & nf & -> & Hnsn & Hncount & Hwin)].
+    - (* nothing was buffered: the ACKNACK fetches fragment 1; no NACK_FRAG in this round *)
+      rewrite Hempty.
+      apply respond_inv2 in E2 as (w2 & ws2 & Ex2 & Hd2 & Hw2 & Hrp2 & _). cbn [s_r s_w s_reply] in Hd2, Hrp2.
+      unfold w_on_acknack in Ex2. rewrite Hwrel in Ex2.
+      replace (w_last_an (s_w s) <? a_count ack) with true in Ex2 by (symmetry; apply Z.ltb_lt; fold r in C2; lia).
+      cbn [andb] in Ex2.
+      destruct (ack_resp (s_w s) (a_set ack)) as [y|?|?] eqn:Ea; try discriminate. cbn [bind] in Ex2.
+      injection Ex2 as Ew2 Ews2. subst ws2.
+      pose proof (ack_resp_spec _ _ _ Ea) as Hgen2.
+      assert (Hhead : In (WFrag (mk_data_frag 1 sn p f 0)) y).
+      { rewrite Hset in Ea. cbn [ack_resp] in Ea. fold ch in Ea. rewrite Hlk in Ea.
+        replace (0 <? sn) with true in Ea by (symmetry; apply Z.ltb_lt; lia).
+        fold f in Ea. destruct (Z.eqb_spec f 0); [destruct Hf; lia|].
+        replace (1 <? div_ceil (blen p) f) with true in Ea by (symmetry; apply Z.ltb_lt; exact Hn).
+        destruct (ack_resp (s_w s) t) as [y'|?|?]; try discriminate. cbn [bind] in Ea. injection Ea as <-. left. reflexivity. }
+      destruct (deliver_pending f ch r3 y (fun k => k = 1) Hf Hh Hlk Hr3 Hrrel Hexp3 Hinc Honly Hgen2)
+        as (r4 & Ed & Hr4 & Hctrl4 & Hfi4 & Hres4).
+      { intros k Hk ->. right. exists 1. exact Hhead. }
+      rewrite Ed in Hd2. injection Hd2 as Hd2.
+      (* ONackFrag does nothing: there is no NACK_FRAG in the reply *)
+      cbn [step] in E3. rewrite Hrp2 in E3.
+      apply respond_inv2 in E3 as (w3 & ws3 & Ex3 & Hd3 & Hw3 & _). injection Ex3 as Ew3 Ews3. subst ws3.
+      cbn [r_deliver_all] in Hd3. injection Hd3 as Hd3.
+      destruct Hres4 as [Hdel|(A & B & C & D)]; [left; rewrite <- Hd3, <- Hd2; exact Hdel|right].
+      unfold pending. rewrite <- Hd3, <- Hd2, Ff.
+      split; [apply pending_expected; [rewrite Hfi4; reflexivity|exact A]|].
+      split; [exact A|]. split; [exact B|]. split; [exact C|].
+      intros k Hk1 Hk2. apply D; [fold n; lia|lia].
+    - (* fragments buffered: the ACKNACK asks for nothing, the NACK_FRAG is answered with the window *)
+      destruct (r_buf r) as [|x0 b0] eqn:Eb; [congruence|]. rewrite <- Eb in *.
+      apply respond_inv2 in E2 as (w2 & ws2 & Ex2 & Hd2 & Hw2 & Hrp2 & _). cbn [s_r s_w s_reply] in Hd2, Hrp2.
+      assert (Hw2' : ws2 = [] /\ w_f w2 = f /\ w_changes w2 = ch /\ w_rel w2 = true /\ w_last_nf w2 = w_last_nf (s_w s)).
+      { pose proof (w_on_acknack_spec _ _ _ _ _ _ Ex2) as (A & B & C & D & _).
+        split; [|unfold f, ch; repeat split; congruence].
+        unfold w_on_acknack in Ex2. rewrite Hset in Ex2. destruct (w_rel (s_w s) && _); cbn [ack_resp bind] in Ex2; congruence. }
+      destruct Hw2' as (-> & Hf2 & Hch2 & Hrel2 & Hlast2).
+      cbn [r_deliver_all] in Hd2. injection Hd2 as Hd2.
+      cbn [step] in E3. rewrite Hrp2 in E3.
+      apply respond_inv2 in E3 as (w3 & ws3 & Ex3 & Hd3 & Hw3 & _).
+      rewrite Hw2, Hnsn in Ex3.
+      destruct (nackfrag_resends_requested w2 (n_count nf) sn (n_base nf) (n_set nf) p
+                  ltac:(rewrite Hf2; exact Hf) (Hh _ _ Hlk) Hrel2
+                  ltac:(rewrite Hlast2, Hncount; fold r in C1; lia) ltac:(rewrite Hch2; exact Hlk))
+        as (ws & Ews & _ & _ & Hall).
+      rewrite Ews in Ex3. injection Ex3 as Ew3 Ews3. subst ws3.
+      pose proof (w_on_nack_frag_spec _ _ _ _ _ _ _ Ews) as (_ & _ & _ & _ & Hgen3). rewrite Hf2, Hch2 in Hgen3.
+      rewrite <- Hd2 in Hd3.
+      destruct (deliver_pending f ch r3 ws (fun k => k < L + 256) Hf Hh Hlk Hr3 Hrrel Hexp3 Hinc Honly Hgen3)
+        as (r5 & Ed & Hr5 & Hctrl5 & Hfi5 & Hres5).
+      { intros k Hk Hlt. destruct (present_decb (r_buf r) sn k) as [Hp|Hp]; [left; exact Hp|].
+        right. exists 1. rewrite <- Hf2. apply Hall; [right; apply Hwin; assumption|rewrite Hf2; exact Hk]. }
+      rewrite Ed in Hd3. injection Hd3 as Hd3.
+      destruct Hres5 as [Hdel|(A & B & C & D)]; [left; rewrite <- Hd3; exact Hdel|right].
+      unfold pending. rewrite <- Hd3, Ff.
+      split; [apply pending_expected; [rewrite Hfi5; reflexivity|exact A]|].
+      split; [exact A|]. split; [exact B|]. split; [exact C|].
+      intros k Hk1 Hk2. apply D; [fold n; lia|lia].
+  Qed.
